@@ -21,6 +21,9 @@
 #include <bitset>
 #include <algorithm>
 #include <functional>
+#include <memory>
+#include <stdarg.h>
+#include <immintrin.h>
 
 using namespace asmjit;
 
@@ -48,6 +51,7 @@ struct ValDef {
   u8 dumped = 0;  // stored to the dump area in the final block (observable)
   u8 sgn = 0;     // GP virtual register created with a signed type id (matters only when a narrower signed parameter is bound to it)
   u8 half = 0;    // 128-bit vector register bound to a double parameter: only the low 8 bytes are ever defined/used
+  u8 ptr = 0;     // AArch64: 64-bit temporary whose REGISTER holds buffer address + value (base of write-back addressing); the IR value is the offset
 };
 
 enum : u8 { S_NONE = 0, S_REG = 1, S_IMM = 2, S_MEM = 3 };
@@ -85,6 +89,10 @@ enum : u16 {
   O_DFROMG, O_DTOG, O_DLOAD, O_DSTORE, O_DMOV,
   // calls
   O_CALL,
+  // fixed / implicit register classes beyond the general purpose group (x86)
+  O_BLENDV, O_MULX, O_STR, O_CX16, O_LAHF, O_SAHF, O_MASKMOV, O_VROUND,
+  // AArch64: structure loads / stores / table lookups over register lists, write-back addressing
+  O_ALD, O_AST, O_ATBL, O_AIDX, O_AMULE,
   O__COUNT
 };
 
@@ -96,7 +104,9 @@ static const char* const kOpNames[] = {
   "vtern", "valuk", "vcmpk", "vm2v", "v2m", "vgather",
   "kfromg", "ktog", "kload", "kstore", "kmov", "kalu", "knot", "kshi", "kset",
   "dfromg", "dtog", "dload", "dstore", "dmov",
-  "call"
+  "call",
+  "blendv", "mulx", "str", "cx16", "lahf", "sahf", "maskmov", "vround",
+  "ald", "ast", "atbl", "aidx", "amule"
 };
 
 enum : u8 { A_ADD = 0, A_SUB, A_AND, A_OR, A_XOR, A__N };
@@ -133,7 +143,8 @@ struct Term {
   u8 kind = T_FALL;
   u8 cc = 0;
   u8 w = 4;
-  u8 test = 0;      // use test instead of cmp
+  u8 test = 0;      // T_BR: 1 = test instead of cmp, 2 = branch on register zero / non-zero (x86: jecxz, a64: cbz/cbnz; cc = E/NE), 3 = a64 tbz/tbnz (bit s.imm; cc = E/NE)
+                    // T_DEC: 2 = x86 loop instruction (fixed ecx, no flags)
   int a = -1;       // compared value / counter / switch index
   Src s;            // second compare operand
   int target = -1;
@@ -209,19 +220,27 @@ static void const_data(int seed, u8 out[64]) {
 static const int MAXARGS = 26;   // up to 14 integer + 12 floating-point arguments
 struct CallRec { u32 callee; u32 n; u64 a[MAXARGS]; };
 
-enum : u8 { AK_U8 = 0, AK_U16, AK_U32, AK_U64, AK_F64 };
-enum : u8 { RK_VOID = 0, RK_U32, RK_U64, RK_F64 };
-struct CalleeSig { u8 n; u8 kind[MAXARGS]; u8 ret; };
+enum : u8 { AK_U8 = 0, AK_U16, AK_U32, AK_U64, AK_F64, AK_I8, AK_I16, AK_I32, AK_I64, AK_V128, AK_F32 };
+enum : u8 { RK_VOID = 0, RK_U32, RK_U64, RK_F64, RK_V128 };
+enum : u8 { CV_DEFAULT = 0, CV_MS = 1 };   // calling convention of a helper: the target's C convention / Win64 (ms_abi, x86-64 host only)
+struct CalleeSig { u8 n; u8 kind[MAXARGS]; u8 ret; u8 conv; u8 va; };   // va: variadic helper f(uint32 id, ...): every listed argument is an unnamed one
 
 static const int NCALLEE_OLD = 24;
-static const int NCALLEE = 34;
-static CalleeSig g_sigs[NCALLEE];
+static const int NCALLEE = 34;        // helpers every target can call
+static const int NCALLEE_ALL = 51;    // + x86-64 only helpers: ms_abi, variadic (SysV and Win64), vector arguments / results, signed stack parameters
+static CalleeSig g_sigs[NCALLEE_ALL];
+
+static inline int ak_width(u8 k) { static const u8 w[] = { 1, 2, 4, 8, 8, 1, 2, 4, 8, 16, 4 }; return w[k]; }
+static inline bool ak_signed(u8 k) { return k >= AK_I8 && k <= AK_I64; }
+static inline bool ak_int(u8 k) { return k != AK_F64 && k != AK_V128 && k != AK_F32; }
+static inline int sig_entries(const CalleeSig& s) { int n = 0; for (int k = 0; k < s.n; k++) n += s.kind[k] == AK_V128 ? 2 : 1; return n; }
 
 static CallRec* g_log = nullptr;
 static volatile u32* g_logn = nullptr;
 static u32 g_logcap = 0;
 static bool g_trash_avx512 = false;
 static bool g_trash_avx = false;
+static bool g_have_bmi2 = false, g_have_sse41 = false, g_have_cx16 = false, g_have_lahf = false;
 
 static void init_callee_sigs() {
   // fixed table (independent of the seed so that witnesses are stable)
@@ -263,6 +282,28 @@ static void init_callee_sigs() {
     }
     s.ret = (u8)(i % 4 == 0 ? RK_VOID : (i % 4 == 1 ? RK_U64 : (i % 4 == 2 ? RK_F64 : RK_U32)));
   }
+  // x86-64 only helpers (explicit C prototypes below)
+  auto def = [&](int id, u8 ret, u8 conv, u8 va, std::initializer_list<u8> kinds) {
+    CalleeSig& s = g_sigs[id]; s.n = 0; for (u8 k : kinds) s.kind[s.n++] = k; s.ret = ret; s.conv = conv; s.va = va;
+  };
+  def(34, RK_U64, CV_MS, 0, { AK_U64, AK_U64, AK_U64, AK_U64, AK_U64, AK_U64 });
+  def(35, RK_F64, CV_MS, 0, { AK_F64, AK_U64, AK_F64, AK_U64, AK_F64, AK_U64, AK_F64 });
+  def(36, RK_U64, CV_MS, 0, { AK_U32, AK_F64, AK_U8, AK_F64, AK_U64, AK_U16, AK_F64, AK_U64 });
+  def(37, RK_VOID, CV_MS, 0, { AK_F64, AK_F64, AK_F64, AK_F64, AK_F64, AK_F64 });
+  def(38, RK_U64, CV_MS, 0, { AK_V128, AK_U64, AK_V128, AK_F64, AK_V128 });
+  def(39, RK_U32, CV_MS, 0, { });
+  def(40, RK_U64, CV_DEFAULT, 1, { AK_U64, AK_F64, AK_U32, AK_F64, AK_F64, AK_U64, AK_U64, AK_F64, AK_U64, AK_F64, AK_F64, AK_U64, AK_F64, AK_F64, AK_U64, AK_F64 });
+  def(41, RK_U64, CV_DEFAULT, 1, { AK_U64, AK_U32, AK_U64 });
+  def(42, RK_U64, CV_MS, 1, { AK_F64, AK_U64, AK_F64, AK_U64, AK_F64, AK_U32 });
+  def(43, RK_U64, CV_DEFAULT, 0, { AK_V128, AK_U64, AK_V128 });
+  def(44, RK_V128, CV_DEFAULT, 0, { AK_V128, AK_V128, AK_V128, AK_V128, AK_V128, AK_V128, AK_V128, AK_V128, AK_V128 });
+  def(45, RK_U64, CV_DEFAULT, 0, { AK_U64, AK_U64, AK_U64, AK_U64, AK_U64, AK_U64, AK_I64, AK_I32, AK_I16, AK_I64, AK_U64, AK_U32, AK_I8, AK_I64 });
+  def(46, RK_VOID, CV_DEFAULT, 0, { AK_U64, AK_I64, AK_U64, AK_I64, AK_U64, AK_I64, AK_U64, AK_U64, AK_U64, AK_U64, AK_I64, AK_I64, AK_I64, AK_I64 });
+  // float parameters take the low 32 bits of the scalar register they are given (no conversion): 3 of them on the stack (SysV), positional + stack (Win64)
+  def(48, RK_U64, CV_DEFAULT, 0, { AK_F32, AK_F32, AK_F32, AK_F32, AK_F32, AK_F32, AK_F32, AK_F32, AK_F32, AK_F32, AK_U64, AK_F32 });
+  def(49, RK_U64, CV_MS, 0, { AK_F32, AK_U64, AK_F32, AK_F64, AK_F32, AK_F32 });
+  def(50, RK_U64, CV_MS, 0, { AK_V128, AK_U64, AK_V128, AK_F64 });   // Win64 vectors by reference, register positions only
+  def(47, RK_U64, CV_DEFAULT, 0, { AK_F64, AK_F64, AK_F64, AK_F64, AK_F64, AK_F64, AK_F64, AK_F64, AK_V128, AK_U64, AK_U64, AK_U64, AK_U64, AK_U64, AK_U64, AK_U64, AK_V128 });
 }
 
 // bytes of stack arguments of a callee under the SysV x86-64 convention
@@ -278,6 +319,11 @@ static inline u64 callee_result(u32 id, u32 n, const u64* a) {
   for (u32 i = 0; i < n; i++) h = mix64(h ^ a[i]) + i;
   return h;
 }
+
+// x86-32 returns a double in ST0: loading a signalling NaN into the x87 stack quiets it, so values that travel through ST0 never use the
+// all-ones exponent (helper results) and are compared modulo quieting (the function's own return value)
+static inline u64 x87_safe(u64 x) { return ((x >> 52) & 0x7FF) == 0x7FF ? (x & ~(1ull << 62)) : x; }
+static inline u64 x87_quiet(u64 x) { return (((x >> 52) & 0x7FF) == 0x7FF && (x & 0xFFFFFFFFFFFFFull)) ? (x | (1ull << 51)) : x; }
 
 static NOSAN void trash_caller_saved() {
   asm volatile(
@@ -322,6 +368,19 @@ static NOSAN void trash_caller_saved() {
 static inline u64 dbits(double d) { u64 x; memcpy(&x, &d, 8); return x; }
 static inline double bitsd(u64 x) { double d; memcpy(&d, &x, 8); return d; }
 
+// every helper ends here: the call is logged (callee, argument entries) and the result is a hash of what was received
+static NOSAN u64 callee_log(u32 id, u32 n, const u64* a) {
+  u32 c = *g_logn;
+  if (c < g_logcap) {
+    CallRec& r = g_log[c];
+    r.callee = id;
+    r.n = n;
+    for (u32 k = 0; k < (u32)MAXARGS; k++) r.a[k] = k < n ? a[k] : 0;
+  }
+  *g_logn = c + 1;
+  return callee_result(id, n, a);
+}
+
 // SysV x86-64: integer and floating arguments are assigned independently, so one prototype with 6 integer
 // registers, 8 vector registers and 12 stack slots receives every mixed signature of up to 12 arguments.
 static NOSAN u64 callee_common(u32 id, const u64* ir, const double* dr, const u64* st) {
@@ -335,24 +394,11 @@ static NOSAN u64 callee_common(u32 id, const u64* ir, const double* dr, const u6
     }
     else {
       if (ni < 6) v = ir[ni++]; else v = st[ns++];
-      switch (sg.kind[k]) {
-        case AK_U8: v &= 0xFF; break;
-        case AK_U16: v &= 0xFFFF; break;
-        case AK_U32: v &= 0xFFFFFFFFull; break;
-        default: break;
-      }
+      v &= maskw(ak_width(sg.kind[k]));
     }
     a[k] = v;
   }
-  u32 n = *g_logn;
-  if (n < g_logcap) {
-    CallRec& r = g_log[n];
-    r.callee = id;
-    r.n = sg.n;
-    for (int k = 0; k < MAXARGS; k++) r.a[k] = k < sg.n ? a[k] : 0;
-  }
-  *g_logn = n + 1;
-  return callee_result(id, sg.n, a);
+  return callee_log(id, sg.n, a);
 }
 
 #define RECV_PARAMS u64 i0, u64 i1, u64 i2, u64 i3, u64 i4, u64 i5, double d0, double d1, double d2, double d3, \
@@ -376,7 +422,7 @@ template<int ID> static NOSAN __attribute__((noinline)) double recvD(RECV_PARAMS
   return bitsd(r);
 }
 
-static void* g_callee_ptr[NCALLEE];
+static void* g_callee_ptr[NCALLEE_ALL];
 template<int ID> struct CalleeInit {
   static void run() {
     g_callee_ptr[ID] = g_sigs[ID].ret == RK_F64 ? (void*)&recvD<ID> : (void*)&recvI<ID>;
@@ -385,9 +431,97 @@ template<int ID> struct CalleeInit {
 };
 template<> struct CalleeInit<-1> { static void run() {} };
 
+// ---- x86-64 only helpers with explicit prototypes ----
+#define MSABI __attribute__((ms_abi, noinline)) NOSAN
+#define SVABI __attribute__((noinline)) NOSAN
+static inline void v128_parts(__m128i v, u64* out) { memcpy(out, &v, 16); }
+// Win64: 4 positional register arguments (rcx/xmm0, rdx/xmm1, r8/xmm2, r9/xmm3), 32 bytes of shadow space, vectors by reference; gcc saves rsi, rdi and
+// xmm6-xmm15 (low 128 bits) around the SysV code that overwrites the caller-saved registers
+static MSABI u64 recv_ms0(u64 a, u64 b, u64 c, u64 d, u64 e, u64 f) { u64 v[6] = { a, b, c, d, e, f }; volatile u64 r = callee_log(34, 6, v); trash_caller_saved(); return r; }
+static MSABI double recv_ms1(double a, u64 b, double c, u64 d, double e, u64 f, double g) {
+  u64 v[7] = { dbits(a), b, dbits(c), d, dbits(e), f, dbits(g) }; volatile u64 r = callee_log(35, 7, v); trash_caller_saved(); return bitsd(r);
+}
+static MSABI u64 recv_ms2(u32 a, double b, u8 c, double d, u64 e, u16 f, double g, u64 h) {
+  u64 v[8] = { a, dbits(b), c, dbits(d), e, f, dbits(g), h }; volatile u64 r = callee_log(36, 8, v); trash_caller_saved(); return r;
+}
+static MSABI void recv_ms3(double a, double b, double c, double d, double e, double f) {
+  u64 v[6] = { dbits(a), dbits(b), dbits(c), dbits(d), dbits(e), dbits(f) }; callee_log(37, 6, v); trash_caller_saved();
+}
+static MSABI u64 recv_ms4(__m128i a, u64 b, __m128i c, double d, __m128i e) {
+  u64 v[8]; v128_parts(a, v); v[2] = b; v128_parts(c, v + 3); v[5] = dbits(d); v128_parts(e, v + 6);
+  volatile u64 r = callee_log(38, 8, v); trash_caller_saved(); return r;
+}
+static MSABI u32 recv_ms5() { volatile u64 r = callee_log(39, 0, nullptr); trash_caller_saved(); return (u32)r; }
+// variadic helpers: the unnamed arguments are read with va_arg according to the signature table (integers as 64-bit slots)
+static SVABI u64 recv_va(u32 id, ...) {
+  const CalleeSig& sg = g_sigs[id];
+  u64 v[MAXARGS];
+  va_list ap; va_start(ap, id);
+  for (int k = 0; k < sg.n; k++) v[k] = sg.kind[k] == AK_F64 ? dbits(va_arg(ap, double)) : (va_arg(ap, u64) & maskw(ak_width(sg.kind[k])));
+  va_end(ap);
+  volatile u64 r = callee_log(id, sg.n, v); trash_caller_saved(); return r;
+}
+static MSABI u64 recv_va_ms(u32 id, ...) {
+  const CalleeSig& sg = g_sigs[id];
+  u64 v[MAXARGS];
+  __builtin_ms_va_list ap; __builtin_ms_va_start(ap, id);
+  for (int k = 0; k < sg.n; k++) v[k] = sg.kind[k] == AK_F64 ? dbits(__builtin_va_arg(ap, double)) : (__builtin_va_arg(ap, u64) & maskw(ak_width(sg.kind[k])));
+  __builtin_ms_va_end(ap);
+  volatile u64 r = callee_log(id, sg.n, v); trash_caller_saved(); return r;
+}
+static SVABI u64 recv_vec0(__m128i a, u64 b, __m128i c) { u64 v[5]; v128_parts(a, v); v[2] = b; v128_parts(c, v + 3); volatile u64 r = callee_log(43, 5, v); trash_caller_saved(); return r; }
+static SVABI __m128i recv_vec1(__m128i a, __m128i b, __m128i c, __m128i d, __m128i e, __m128i f, __m128i g, __m128i h, __m128i i) {
+  u64 v[18]; v128_parts(a, v); v128_parts(b, v + 2); v128_parts(c, v + 4); v128_parts(d, v + 6); v128_parts(e, v + 8); v128_parts(f, v + 10); v128_parts(g, v + 12);
+  v128_parts(h, v + 14); v128_parts(i, v + 16);
+  volatile u64 r = callee_log(44, 18, v);
+  volatile u64 parts[2]; parts[0] = r; parts[1] = mix64(r);
+  trash_caller_saved();
+  return _mm_set_epi64x((long long)parts[1], (long long)parts[0]);
+}
+static SVABI u64 recv_vec2(double d0, double d1, double d2, double d3, double d4, double d5, double d6, double d7, __m128i a, u64 i0, u64 i1, u64 i2, u64 i3, u64 i4, u64 i5,
+                           u64 i6, __m128i b) {
+  u64 v[19] = { dbits(d0), dbits(d1), dbits(d2), dbits(d3), dbits(d4), dbits(d5), dbits(d6), dbits(d7), 0, 0, i0, i1, i2, i3, i4, i5, i6, 0, 0 };
+  v128_parts(a, v + 8); v128_parts(b, v + 17);
+  volatile u64 r = callee_log(47, 19, v); trash_caller_saved(); return r;
+}
+static inline u64 fbits(float f) { u32 x; memcpy(&x, &f, 4); return x; }
+static SVABI u64 recv_f32(float a, float b, float c, float d, float e, float f, float g, float h, float i, float j, u64 k, float l) {
+  u64 v[12] = { fbits(a), fbits(b), fbits(c), fbits(d), fbits(e), fbits(f), fbits(g), fbits(h), fbits(i), fbits(j), k, fbits(l) };
+  volatile u64 r = callee_log(48, 12, v); trash_caller_saved(); return r;
+}
+static MSABI u64 recv_f32_ms(float a, u64 b, float c, double d, float e, float f) {
+  u64 v[6] = { fbits(a), b, fbits(c), dbits(d), fbits(e), fbits(f) };
+  volatile u64 r = callee_log(49, 6, v); trash_caller_saved(); return r;
+}
+static MSABI u64 recv_ms6(__m128i a, u64 b, __m128i c, double d) {
+  u64 v[6]; v128_parts(a, v); v[2] = b; v128_parts(c, v + 3); v[5] = dbits(d);
+  volatile u64 r = callee_log(50, 6, v); trash_caller_saved(); return r;
+}
+static void init_callee_ptrs_ext() {
+  g_callee_ptr[48] = (void*)&recv_f32; g_callee_ptr[49] = (void*)&recv_f32_ms; g_callee_ptr[50] = (void*)&recv_ms6;
+  g_callee_ptr[34] = (void*)&recv_ms0; g_callee_ptr[35] = (void*)&recv_ms1; g_callee_ptr[36] = (void*)&recv_ms2; g_callee_ptr[37] = (void*)&recv_ms3;
+  g_callee_ptr[38] = (void*)&recv_ms4; g_callee_ptr[39] = (void*)&recv_ms5; g_callee_ptr[40] = (void*)&recv_va; g_callee_ptr[41] = (void*)&recv_va;
+  g_callee_ptr[42] = (void*)&recv_va_ms; g_callee_ptr[43] = (void*)&recv_vec0; g_callee_ptr[44] = (void*)&recv_vec1; g_callee_ptr[45] = (void*)&recvI<45>;
+  g_callee_ptr[46] = (void*)&recvI<46>; g_callee_ptr[47] = (void*)&recv_vec2;
+}
+
 // ---------------------------------------------------------------------------------------------------------------
 // Reference interpreter (unbounded virtual registers, byte-granular definedness tracking)
 // ---------------------------------------------------------------------------------------------------------------
+
+// reference for [v]round{pd,ps,sd,ss}: the host instruction itself (same immediate), one 128-bit chunk at a time
+__attribute__((target("sse4.1"))) static NOSAN void host_round(int sub, int imm, const u8* in16, u8* out16) {
+  if (sub == 0 || sub == 2) {
+    __m128d x = _mm_loadu_pd((const double*)in16), r;
+    switch (imm & 3) { case 0: r = _mm_round_pd(x, 8); break; case 1: r = _mm_round_pd(x, 9); break; case 2: r = _mm_round_pd(x, 10); break; default: r = _mm_round_pd(x, 11); break; }
+    _mm_storeu_pd((double*)out16, r);
+  }
+  else {
+    __m128 x = _mm_loadu_ps((const float*)in16), r;
+    switch (imm & 3) { case 0: r = _mm_round_ps(x, 8); break; case 1: r = _mm_round_ps(x, 9); break; case 2: r = _mm_round_ps(x, 10); break; default: r = _mm_round_ps(x, 11); break; }
+    _mm_storeu_ps((float*)out16, r);
+  }
+}
 
 struct IVal { u8 b[64]; u64 def; };
 
@@ -768,6 +902,16 @@ struct Interp {
         // guarded: divisor t = s|1 (unsigned) or ((s>>1)|1) (signed, positive); d2:d / t -> d = quotient, d2 = remainder
         u64 sv = RS(o.s, w);
         u64 x = G(o.d, w);
+        if (P.arch == ARCH_A64) {
+          // udiv/sdiv never trap: x / 0 = 0, INT_MIN / -1 = INT_MIN ; d2 = remainder (msub), d = quotient
+          u64 q;
+          if (!o.flag) q = sv ? x / sv : 0;
+          else { i64 sa = sextw(x, w), sb = sextw(sv, w); q = sb == 0 ? 0 : (sb == -1 ? (u64)(0 - (u64)sa) : (u64)(sa / sb)); }
+          q &= maskw(w);
+          SG(o.d2, w, x - q * sv);
+          SG(o.d, w, q);
+          break;
+        }
         if (!o.flag) {
           u64 t = (sv | 1) & maskw(w);
           SG(o.d2, w, 0);
@@ -810,7 +954,7 @@ struct Interp {
         SG(o.d, w, r);
         break;
       }
-      case O_SETCC: { bool c = cond(o.cc, G(o.a, o.w2), RS(o.s, o.w2), o.w2, o.flag); SG(o.d, 1, c); break; }
+      case O_SETCC: { bool c = cond(o.cc, G(o.a, o.w2), RS(o.s, o.w2), o.w2, o.flag); SG(o.d, P.arch == ARCH_A64 ? 4 : 1, c); break; }   // cset w: the whole register
       case O_CMOV: {
         bool c = cond(o.cc, G(o.a, o.w2), RS(o.s, o.w2), o.w2, o.flag);
         u64 sv = RS(o.s2, w);
@@ -870,7 +1014,7 @@ struct Interp {
       }
       case O_VBCAST: {
         // broadcast element (w2 = 4/8) from the low lane of a vector / memory / gp register
-        u8 e[8] = {0}, r[64];
+        u8 e[16] = {0}, r[64];
         if (o.s.t == S_REG && P.vals[o.s.v].kind == KIND_G) { u64 x = G(o.s.v, o.w2); memcpy(e, &x, 8); }
         else VSRC(o.s, o.w2, e);
         for (int i = 0; i < w; i += o.w2) memcpy(r + i, e, o.w2);
@@ -1047,25 +1191,187 @@ struct Interp {
       case O_CALL: {
         const CalleeSig& sg = g_sigs[o.imm];
         CallRec r; memset(&r, 0, sizeof r);
-        r.callee = (u32)o.imm; r.n = sg.n;
+        r.callee = (u32)o.imm;
+        int ne = 0;
         for (int k = 0; k < sg.n; k++) {
           const Src& s = o.args[k];
-          u64 x;
-          if (sg.kind[k] == AK_F64) x = s.t == S_IMM ? (u64)s.imm : D(s.v);
+          u8 kd = sg.kind[k];
+          if (kd == AK_F64) r.a[ne++] = s.t == S_IMM ? (u64)s.imm : D(s.v);
+          else if (kd == AK_F32) r.a[ne++] = (s.t == S_IMM ? (u64)s.imm : D(s.v)) & 0xFFFFFFFFull;
+          else if (kd == AK_V128) { u8 t[16]; VR(s.v, 16, t); memcpy(&r.a[ne], t, 16); ne += 2; }
           else {
-            int aw = sg.kind[k] == AK_U8 ? 1 : sg.kind[k] == AK_U16 ? 2 : sg.kind[k] == AK_U32 ? 4 : 8;
-            x = s.t == S_IMM ? ((u64)s.imm & maskw(aw)) : G(s.v, aw);
+            int aw = ak_width(kd);
+            u64 x;
+            if (s.t == S_IMM) x = (u64)s.imm & maskw(aw);
+            else if (P.vals[s.v].size >= aw) x = G(s.v, aw);
+            else {
+              // a virtual register narrower than the (stack-passed) parameter is extended to the parameter's width: sign extension when both the
+              // parameter and the register have a signed type, zero extension otherwise (AsmJit's documented cast rule)
+              int vs = P.vals[s.v].size;
+              x = G(s.v, vs);
+              if (ak_signed(kd) && P.vals[s.v].sgn) x = (u64)sextw(x, vs);
+              x &= maskw(aw);
+            }
+            r.a[ne++] = x;
           }
-          r.a[k] = x;
         }
+        r.n = (u32)ne;
         if (calls.size() < 512) calls.push_back(r);
         ncalls++;
         u64 res = callee_result(r.callee, r.n, r.a);
+        if (P.arch == ARCH_X86 && sg.ret == RK_F64) res = x87_safe(res);
         if (o.d >= 0) {
           if (sg.ret == RK_F64) SD(o.d, res);
           else if (sg.ret == RK_U64) SG(o.d, 8, res);
           else if (sg.ret == RK_U32) SG(o.d, 4, res);
+          else if (sg.ret == RK_V128) { u64 t[2] = { res, mix64(res) }; VW(o.d, 16, (const u8*)t); }
         }
+        break;
+      }
+      // ---- fixed / implicit register classes ----
+      case O_BLENDV: {
+        // pblendvb / blendvps / blendvpd d, s, <xmm0 = c>: element of s where the top bit of the mask element is set
+        u8 d[16], b[16], m[16]; VR(o.d, 16, d); VSRC(o.s, 16, b); VR(o.c, 16, m);
+        int es = o.sub == 0 ? 1 : o.sub == 1 ? 4 : 8;
+        for (int i = 0; i < 16; i += es) if (m[i + es - 1] & 0x80) memcpy(d + i, b + i, es);
+        VW(o.d, 16, d);
+        break;
+      }
+      case O_MULX: {
+        // mulx d2(hi), d(lo), s, <edx = c>
+        u128 p = (u128)G(o.c, w) * (u128)RS(o.s, w);
+        u64 lo = (u64)p & maskw(w), hi = (u64)(p >> (8 * w)) & maskw(w);
+        SG(o.d, w, lo); SG(o.d2, w, hi);
+        break;
+      }
+      case O_STR: {
+        // [rep] stos / movs / lods ; imm elements of w bytes ; d: final offset of the advanced pointer ; d2: final count (rep)
+        int n = (int)o.imm;
+        MemRef dst = o.s2.m, src = o.s.m;
+        u64 ax = o.sub == 0 ? G(o.a, w) : 0;
+        for (int i = 0; i < n; i++) {
+          if (o.sub == 0) mem_wr64(dst, w, ax);
+          else if (o.sub == 1) { u64 x = mem_rd64(src, w); mem_wr64(dst, w, x); }
+          else ax = mem_rd64(src, w);
+          dst.off += w; src.off += w;
+        }
+        if (o.sub == 2) SG(o.a, w, ax);
+        if (o.d >= 0) SG(o.d, ptrw, (u64)(o.sub == 2 ? src.off : dst.off));
+        if (o.d2 >= 0) SG(o.d2, 4, 0);
+        break;
+      }
+      case O_CX16: {
+        // cmpxchg8b / cmpxchg16b [m], <edx = d2>, <eax = d>, <ecx = b>, <ebx = a> ; c: setz
+        MemRef lo = o.s2.m, hi = o.s2.m; hi.off += w;
+        u64 mlo = mem_rd64(lo, w) & maskw(w), mhi = mem_rd64(hi, w) & maskw(w);
+        bool eq = mlo == G(o.d, w) && mhi == G(o.d2, w);
+        u64 nlo = G(o.a, w), nhi = G(o.b, w);
+        if (eq) { mem_wr64(lo, w, nlo); mem_wr64(hi, w, nhi); }
+        else { mem_wr64(lo, w, mlo); mem_wr64(hi, w, mhi); SG(o.d, w, mlo); SG(o.d2, w, mhi); }
+        if (o.c >= 0) SG(o.c, 1, eq ? 1 : 0);
+        break;
+      }
+      case O_LAHF: {
+        // cmp a, s ; lahf -> bits 8..15 of d = SF:ZF:0:AF:0:PF:1:CF
+        int cw = o.w2;
+        u64 x = G(o.a, cw), y = RS(o.s, cw), r = (x - y) & maskw(cw);
+        u64 f = 2;
+        if (x < y) f |= 1;
+        if (!(__builtin_popcountll(r & 0xFF) & 1)) f |= 4;
+        if ((x ^ y ^ r) & 0x10) f |= 0x10;
+        if (r == 0) f |= 0x40;
+        if ((r >> (8 * cw - 1)) & 1) f |= 0x80;
+        if (P.vals[o.d].kind != KIND_G || P.vals[o.d].size < 2) fail("bad lahf dst");
+        v[o.d].b[1] = (u8)f; v[o.d].def |= 2;
+        break;
+      }
+      case O_SAHF: {
+        // sahf <ah = bits 8..15 of a> ; setcc d (conditions over CF, ZF, SF only)
+        if (P.vals[o.a].kind != KIND_G || P.vals[o.a].size < 2) fail("bad sahf src");
+        u64 f = rd_raw(o.a, 1, 1);
+        bool cf = f & 1, zf = f & 0x40, sf = f & 0x80, c;
+        switch (o.cc) {
+          case CC_E: c = zf; break; case CC_NE: c = !zf; break; case CC_B: c = cf; break; case CC_AE: c = !cf; break;
+          case CC_BE: c = cf || zf; break; case CC_A: c = !cf && !zf; break; case CC_S: c = sf; break; default: c = !sf; break;
+        }
+        SG(o.d, 1, c);
+        break;
+      }
+      case O_VROUND: {
+        // [v]roundpd / roundps (sub 0 / 1, w bytes) ; [v]roundsd / roundss (sub 2 / 3: low element of s, the rest from a)
+        u8 a[64], b[64], r[64], t[16];
+        if (o.sub < 2) {
+          VSRC(o.s, w, b);
+          for (int i = 0; i < w; i += 16) host_round(o.sub, (int)o.imm, b + i, r + i);
+          VW(o.d, w, r);
+        }
+        else {
+          int es = o.sub == 2 ? 8 : 4;
+          VR(o.a, 16, a); memset(b, 0, 16); VSRC(o.s, es, b);
+          host_round(o.sub, (int)o.imm, b, t);
+          memcpy(r, a, 16); memcpy(r, t, es);
+          VW(o.d, 16, r);
+        }
+        break;
+      }
+      case O_MASKMOV: {
+        // [v]maskmovdqu a, b, [<edi>] : bytes of a whose mask byte in b has the top bit set
+        u8 a[16], m[16]; VR(o.a, 16, a); VR(o.b, 16, m);
+        for (int i = 0; i < 16; i++) if (m[i] & 0x80) { MemRef t = o.s2.m; t.off += i; mem_wr(t, 1, a + i); }
+        break;
+      }
+      // ---- AArch64 register lists and write-back addressing ----
+      case O_ALD: case O_AST: {
+        // args: the register list ; sub: 0 ldN/stN (interleaved), 1 ld1/st1 with several registers, 2 ldNr (replicate), 3 single lane (cc = lane)
+        // w2: element size ; flag: 0 no write-back, 1 post-index by the transfer size, 2 post-index by register c ; d: final pointer offset
+        bool load = o.opc == O_ALD;
+        int n = (int)o.args.size(), es = o.w2, ne = 16 / es;
+        u8 r[4][16];
+        for (int k = 0; k < n; k++) {
+          if (!load || o.sub == 3) VR(o.args[k].v, 16, r[k]); else memset(r[k], 0, 16);
+        }
+        MemRef m = load ? o.s.m : o.s2.m;
+        if (o.b >= 0) m.off = (int)(i64)G(o.b, 8);   // the base is a live pointer register
+        int total = 0;
+        auto xfer = [&](int k, int e, int off) {
+          MemRef t = m; t.off += off;
+          if (load) mem_rd(t, es, r[k] + e * es); else mem_wr(t, es, r[k] + e * es);
+        };
+        if (o.sub == 0) { for (int e = 0; e < ne; e++) for (int k = 0; k < n; k++) { xfer(k, e, total); total += es; } }
+        else if (o.sub == 1) { for (int k = 0; k < n; k++) for (int e = 0; e < ne; e++) { xfer(k, e, total); total += es; } }
+        else if (o.sub == 2) { for (int k = 0; k < n; k++) { xfer(k, 0, total); for (int e = 1; e < ne; e++) memcpy(r[k] + e * es, r[k], es); total += es; } }
+        else { for (int k = 0; k < n; k++) { xfer(k, o.cc, total); total += es; } }
+        if (load) for (int k = 0; k < n; k++) VW(o.args[k].v, 16, r[k]);
+        u64 after = (u64)(i64)m.off + (o.flag == 1 ? (u64)total : o.flag == 2 ? G(o.c, 8) : 0);
+        if (o.b >= 0) SG(o.b, 8, after);
+        if (o.d >= 0) SG(o.d, 8, after);
+        break;
+      }
+      case O_ATBL: {
+        // tbl / tbx d, { args }, a ; flag: tbx
+        int n = (int)o.args.size();
+        u8 tab[64], ix[16], r[16];
+        for (int k = 0; k < n; k++) VR(o.args[k].v, 16, tab + 16 * k);
+        VR(o.a, 16, ix);
+        if (o.flag) VR(o.d, 16, r); else memset(r, 0, 16);
+        for (int i = 0; i < 16; i++) if (ix[i] < 16 * n) r[i] = tab[ix[i]];
+        VW(o.d, 16, r);
+        break;
+      }
+      case O_AMULE: {
+        // mul d.T, a.T, b.T[cc] (by element) ; w2: element size 2 / 4
+        u8 a[16], b[16], r[16]; VR(o.a, 16, a); VR(o.b, 16, b);
+        int es = o.w2; u64 e = lane(b, o.cc, es);
+        for (int i = 0; i < 16 / es; i++) setlane(r, i, es, (lane(a, i, es) * e) & maskw(es));
+        VW(o.d, 16, r);
+        break;
+      }
+      case O_AIDX: {
+        // ldr / str with pre- or post-index write-back: c holds the offset (base = buffer), imm the increment ; flag bit0: store, bit1: pre-index
+        u64 off = G(o.c, 8);
+        MemRef m; m.off = (int)(i64)(off + ((o.flag & 2) ? (u64)o.imm : 0));
+        if (o.flag & 1) mem_wr64(m, w, G(o.a, w)); else SG(o.d, w, mem_rd64(m, w));
+        SG(o.c, 8, off + (u64)o.imm);
         break;
       }
       default: fail("unknown op"); break;
@@ -1123,7 +1429,14 @@ struct Interp {
       switch (t.kind) {
         case T_FALL: bi = bi + 1; break;
         case T_JMP: bi = t.target; break;
-        case T_BR: bi = cond(t.cc, G(t.a, t.w), RS(t.s, t.w), t.w, t.test) ? t.target : bi + 1; break;
+        case T_BR: {
+          bool taken;
+          if (t.test == 2) taken = (G(t.a, t.w) == 0) == (t.cc == CC_E);
+          else if (t.test == 3) taken = (((G(t.a, t.w) >> (t.s.imm & (8 * t.w - 1))) & 1) == 0) == (t.cc == CC_E);
+          else taken = cond(t.cc, G(t.a, t.w), RS(t.s, t.w), t.w, t.test);
+          bi = taken ? t.target : bi + 1;
+          break;
+        }
         case T_DEC: { u64 c = (G(t.a, t.w) - 1) & maskw(t.w); SG(t.a, t.w, c); bi = c != 0 ? t.target : bi + 1; break; }
         case T_SWITCH: { u64 i = G(t.a, t.w) & (t.targets.size() - 1); bi = t.targets[i]; break; }
       }
@@ -1177,6 +1490,19 @@ static void op_rw(const Program& P, const Op& o, RW& rw) {
     case O_CMOV: R(o.a); R(o.d); rw.writes.push_back(o.d); break;
     case O_HI8: R(o.d); R(o.a); rw.writes.push_back(o.d); break;
     case O_BT: R(o.d); R(o.c); if (o.sub) rw.writes.push_back(o.d); full(o.d2, 1); break;
+    case O_BLENDV: R(o.d); R(o.c); rw.writes.push_back(o.d); break;
+    case O_MULX: R(o.c); full(o.d, o.w); full(o.d2, o.w); break;
+    case O_STR: if (o.sub == 0) R(o.a); else if (o.sub == 2) full(o.a, o.w); full(o.d, P.arch == ARCH_X86 ? 4 : 8); full(o.d2, 4); break;
+    case O_CX16: R(o.d); R(o.d2); R(o.a); R(o.b); rw.writes.push_back(o.d); rw.writes.push_back(o.d2); full(o.c, 1); break;
+    case O_LAHF: R(o.a); R(o.d); rw.writes.push_back(o.d); break;
+    case O_SAHF: R(o.a); full(o.d, 1); break;
+    case O_MASKMOV: R(o.a); R(o.b); break;
+    case O_VROUND: if (o.sub >= 2) R(o.a); W(o.d); break;
+    case O_ALD: for (const Src& a : o.args) { if (o.sub == 3) rw.reads.push_back(a.v); rw.writes.push_back(a.v); if (o.sub != 3) rw.kills.push_back(a.v); } R(o.c); R(o.b); if (o.b >= 0) rw.writes.push_back(o.b); full(o.d, 8); break;
+    case O_AST: for (const Src& a : o.args) rw.reads.push_back(a.v); R(o.c); R(o.b); if (o.b >= 0) rw.writes.push_back(o.b); full(o.d, 8); break;
+    case O_ATBL: for (const Src& a : o.args) rw.reads.push_back(a.v); R(o.a); if (o.flag) { R(o.d); rw.writes.push_back(o.d); } else W(o.d); break;
+    case O_AMULE: R(o.a); R(o.b); W(o.d); break;
+    case O_AIDX: R(o.c); rw.writes.push_back(o.c); if (o.flag & 1) R(o.a); else full(o.d, o.w); break;
     case O_VGATHER: R(o.d); R(o.a); R(o.c); rw.writes.push_back(o.d); rw.writes.push_back(o.c); break;
     case O_VMOV: case O_VBCAST: case O_VFROMG: W(o.d); break;
     case O_VSTORE: R(o.a); break;
@@ -1304,6 +1630,7 @@ struct Gen {
   bool x32;
   int ptrw;
   std::vector<int> temps;  // defined temporaries of the current block
+  std::map<int, int> ptr_off;   // AArch64 pointer temporaries of the current block whose offset is statically known
   Block* cur = nullptr;
 
   Gen(Rng& rr, Program& p, const Profile& f) : r(rr), P(p), pf(f) {
@@ -1332,7 +1659,7 @@ struct Gen {
     }
     for (int t : temps) {
       const ValDef& d = P.vals[t];
-      if (d.kind != kind) continue;
+      if (d.kind != kind || d.ptr) continue;
       if (exact ? d.size != exact : (d.size < minsize || d.size > maxsize)) continue;
       if (n < MAX_VALS + 64) cand[n++] = t;
     }
@@ -1604,7 +1931,7 @@ struct Gen {
 
   bool gen_fixed() {
     Op o;
-    int kind = (int)r.below(a64 ? 3 : 9);
+    int kind = (int)r.below(a64 ? 3 : 16);
     int w = pick_w();
     switch (kind) {
       case 0: case 1: {  // shift by CL
@@ -1661,6 +1988,51 @@ struct Gen {
         if (r.chance(2, 3)) { o.d2 = pick(KIND_G, 1); if (o.d2 == o.d || o.d2 == o.c) o.d2 = -1; }
         push(o); return true;
       }
+      case 9: {  // mulx: implicit edx USE, two OUTs
+        if (!g_have_bmi2) return false;
+        w = (x32 || r.chance(1, 2)) ? 4 : 8;
+        o.opc = O_MULX; o.w = (u8)w;
+        o.d = pick_dst(w, false); o.d2 = pick_dst(w, false);
+        if (o.d < 0 || o.d2 < 0 || o.d == o.d2 || !full_write(o.d, w) || !full_write(o.d2, w)) return false;
+        o.c = pickG(w); if (o.c < 0) return false;
+        o.s = gen_src(w, -1, true, false); if (o.s.t == S_NONE) return false;
+        push(o); defined(o.d); defined(o.d2); return true;
+      }
+      case 10: return gen_string();
+      case 11: {  // cmpxchg8b / cmpxchg16b: four fixed registers + memory
+        w = (x32 || !g_have_cx16 || r.chance(1, 2)) ? 4 : 8;
+        o.opc = O_CX16; o.w = (u8)w;
+        int q[4];
+        for (int i = 0; i < 4; i++) {
+          q[i] = pick(KIND_G, 0, 64, w); if (q[i] < 0) return false;
+          for (int j = 0; j < i; j++) if (q[j] == q[i]) return false;
+        }
+        o.d = q[0]; o.d2 = q[1]; o.a = q[2]; o.b = q[3];
+        MemRef m; m.off = (int)r.below((DATA_SIZE - 2 * w) / (2 * w) + 1) * 2 * w; o.s2 = SM(m);
+        if (r.chance(1, 2)) { o.c = pick(KIND_G, 1); for (int i = 0; i < 4; i++) if (o.c == q[i]) o.c = -1; }
+        push(o); return true;
+      }
+      case 12: {  // cmp + lahf: fixed OUT in AH
+        if (!g_have_lahf) return false;
+        o.opc = O_LAHF; o.w = 1; o.w2 = (u8)w;
+        o.a = pickG(w); if (o.a < 0) return false;
+        o.s = gen_src(w, o.a, true); if (o.s.t == S_NONE) return false;
+        o.d = pick(KIND_G, 2); if (o.d < 0) return false;
+        push(o); return true;
+      }
+      case 13: {  // sahf + setcc: fixed USE in AH
+        if (!g_have_lahf) return false;
+        static const u8 ccs[] = { CC_E, CC_NE, CC_B, CC_AE, CC_BE, CC_A, CC_S, CC_NS };
+        o.opc = O_SAHF; o.w = 1; o.cc = ccs[r.below(8)];
+        o.a = pick(KIND_G, 2); if (o.a < 0) return false;
+        o.d = r.chance(1, 2) ? pick(KIND_G, 1) : pick_dst(1, false);
+        if (o.d < 0) return false;
+        if (P.vals[o.d].size > 1 && is_undefined_temp(o.d)) return false;
+        push(o); if (P.vals[o.d].size == 1) defined(o.d);
+        return true;
+      }
+      case 14: return gen_blendv();
+      case 15: return gen_maskmov();
       default: {  // xchg with memory
         o.opc = O_XCHGM; o.w = (u8)w;
         o.a = pick(KIND_G, 0, 64, w); if (o.a < 0) return false;
@@ -1671,10 +2043,158 @@ struct Gen {
     }
   }
 
+  // a pointer temporary of the current block with a known offset (reused half of the time), or a new one pointing at a random aligned offset
+  int take_ptr(int align) {
+    if (!ptr_off.empty() && r.chance(1, 2)) {
+      int k = (int)r.below(ptr_off.size());
+      auto it = ptr_off.begin(); std::advance(it, k);
+      return it->first;
+    }
+    if (P.vals.size() >= 900) return -1;
+    int off = (int)r.below((DATA_SIZE - 128) / align) * align + 64;
+    int pv = new_temp(KIND_G, 8);
+    P.vals[pv].ptr = 1;
+    Op mv; mv.opc = O_MOV; mv.w = 8; mv.d = pv; mv.s = SI(off); push(mv); def_temp(pv);
+    ptr_off[pv] = off;
+    return pv;
+  }
+  void observe_ptr(int pv) {
+    // sometimes a helper call first: the pointer register is caller-saved, so the allocator has to decide whether its home slot is still current
+    if (r.chance(1, 3)) gen_call();
+    Op st; st.opc = O_STORE; st.w = 8; st.s = SR(pv); MemRef m; m.off = (int)r.below(DATA_SIZE / 8) * 8; st.s2 = SM(m); push(st);
+  }
+
+  // AArch64 structure loads / stores / table lookups: the registers of a list must be consecutive physical registers
+  bool gen_a64_list(int kind) {
+    Op o;
+    int n = (int)r.range(1, 4);
+    auto list = [&](bool need_defined) -> bool {
+      o.args.clear();
+      for (int k = 0; k < n; k++) {
+        int v = -1;
+        for (int tries = 0; tries < 8 && v < 0; tries++) {
+          v = pick(KIND_V, 16);
+          for (const Src& a : o.args) if (a.v == v) v = -1;
+        }
+        if (v < 0) return false;
+        (void)need_defined;
+        o.args.push_back(SR(v));
+      }
+      return true;
+    };
+    if (kind == 9) {
+      o.opc = O_ATBL; o.flag = (u8)r.chance(1, 3);
+      if ((g_avoid_fwd & 256) && n > 1) n = 1;
+      if (!list(true)) return false;
+      o.d = pick(KIND_V, 16); o.a = pick(KIND_V, 16);
+      if (o.d < 0 || o.a < 0) return false;
+      push(o); return true;
+    }
+    bool load = kind != 8;
+    o.opc = load ? O_ALD : O_AST;
+    static const u8 ess[] = { 1, 2, 4, 8 };
+    o.w2 = ess[r.below(4)];
+    o.sub = (u8)r.below(4);
+    if (!load && o.sub == 2) o.sub = 0;
+    if (load && o.sub == 3 && (g_avoid_fwd & 524288)) n = 1;   // lane loads into a list of registers: probe a64-lane-load-list-write-only
+    if (o.sub == 3) o.cc = (u8)r.below(16 / o.w2);
+    if (!list(true)) return false;
+    int total = (o.sub == 0 || o.sub == 1) ? 16 * n : n * o.w2;
+    MemRef m; m.off = (int)r.below((DATA_SIZE - total) / o.w2 + 1) * o.w2;
+    if (load) o.s = SM(m); else o.s2 = SM(m);
+    o.flag = (u8)r.below(3);
+    if (o.flag == 2) { o.c = pickG(8); if (o.c < 0) o.flag = 1; }
+    if (o.flag && r.chance(1, 2)) {
+      // post-index through a pointer register that stays live: the offset it points at is statically known here
+      int pv = take_ptr(16);
+      if (pv >= 0) {
+        int off = ptr_off[pv];
+        if (off >= 0 && off + total <= DATA_SIZE) {
+          o.b = pv;
+          if (load) o.s.m.off = off; else o.s2.m.off = off;
+          if (r.chance(1, 3)) gen_call();
+          push(o);
+          if (o.flag == 1) ptr_off[pv] = off + total; else ptr_off.erase(pv);
+          observe_ptr(pv);
+          return true;
+        }
+      }
+    }
+    if (o.flag && r.chance(2, 3)) { o.d = pick_dst(8, false); if (o.d >= 0 && !full_write(o.d, 8)) o.d = -1; }
+    push(o);
+    if (o.d >= 0) defined(o.d);
+    return true;
+  }
+
+  // [rep] stos / movs / lods: fixed memory base registers (edi / esi), fixed eax, rep: fixed ecx given as the extra register
+  bool gen_string() {
+    Op o; o.opc = O_STR; o.sub = (u8)r.below(3);
+    int w = pick_w(); o.w = (u8)w;
+    int n = (int)r.range(1, 6); o.imm = n;
+    o.flag = (u8)r.chance(1, 2);
+    MemRef md, ms;
+    md.off = (int)r.below(DATA_SIZE - n * w + 1); ms.off = (int)r.below(DATA_SIZE - n * w + 1);
+    if (o.sub != 2) o.s2 = SM(md);
+    if (o.sub != 0) o.s = SM(ms);
+    if (o.sub == 0) { o.a = pickG(w); if (o.a < 0) return false; }
+    if (o.sub == 2) { o.a = pick_dst(w, r.chance(1, 4)); if (o.a < 0 || P.vals[o.a].size < w) return false; if (!full_write(o.a, w) && is_undefined_temp(o.a)) return false; }
+    if (r.chance(1, 2)) { o.d = pick_dst(ptrw, false); if (o.d >= 0 && !full_write(o.d, ptrw)) o.d = -1; }
+    if (o.flag && r.chance(1, 3)) { o.d2 = pick_dst(4, false); if (o.d2 >= 0 && (!full_write(o.d2, 4) || o.d2 == o.d)) o.d2 = -1; }
+    push(o);
+    if (o.sub == 2 && full_write(o.a, w)) defined(o.a);
+    if (o.d >= 0) defined(o.d);
+    if (o.d2 >= 0) defined(o.d2);
+    return true;
+  }
+  // pblendvb / blendvps / blendvpd: the mask is an implicit xmm0
+  bool gen_blendv() {
+    if (P.mode != MODE_SSE || !g_have_sse41 || a64) return false;
+    Op o; o.opc = O_BLENDV; o.sub = (u8)r.below(3); o.w = 16;
+    o.d = pick(KIND_V, 16); o.c = pick(KIND_V, 16);
+    if (o.d < 0 || o.c < 0) return false;
+    if (r.chance(1, 4)) o.s = SM(gen_mem(16, true, 16));
+    else { int v = pick(KIND_V, 16); if (v < 0) return false; o.s = SR(v); }
+    push(o); return true;
+  }
+  // [v]maskmovdqu: the destination is an implicit ds:[edi]
+  bool gen_maskmov() {
+    if (a64) return false;
+    Op o; o.opc = O_MASKMOV; o.w = 16;
+    o.a = pick(KIND_V, 16); o.b = pick(KIND_V, 16);
+    if (o.a < 0 || o.b < 0) return false;
+    MemRef m; m.off = (int)r.below(DATA_SIZE - 16 + 1); o.s2 = SM(m);
+    push(o); return true;
+  }
+
   bool gen_memop() {
     Op o;
     int w = pick_w();
     o.w = (u8)w;
+    if (a64 && r.chance(1, 3) && P.vals.size() < 900) {
+      // ldr / str with pre- or post-index write-back through a POINTER REGISTER that stays live (other operations, calls and spills in between):
+      // the base is read AND written by the instruction; its value (as an offset) is stored after every use
+      o.opc = O_AIDX; o.flag = (u8)r.below(4);
+      int pv = take_ptr(w);
+      if (pv < 0) return false;
+      int off = ptr_off[pv];
+      static const int incs[] = { 4, 8, 16, -4, -8, -16, 12, 252, -256 };
+      o.imm = 0;
+      for (int tries = 0; tries < 12; tries++) {
+        int inc = incs[r.below(9)];
+        int acc = (o.flag & 2) ? off + inc : off;
+        if (acc >= 0 && acc + w <= DATA_SIZE) { o.imm = inc; break; }
+      }
+      if (!o.imm) { if (off < 0 || off + w > DATA_SIZE) { ptr_off.erase(pv); return false; } o.flag &= 1; o.imm = 8; }
+      o.c = pv;
+      if (o.flag & 1) { o.a = pickG(w); if (o.a < 0) return false; }
+      else { o.d = pick_dst(w, false); if (o.d < 0 || P.vals[o.d].size < w) return false; if (!full_write(o.d, w) && is_undefined_temp(o.d)) return false; }
+      if (r.chance(1, 3)) gen_call();
+      push(o);
+      ptr_off[pv] = off + (int)o.imm;
+      if (!(o.flag & 1) && full_write(o.d, w)) defined(o.d);
+      observe_ptr(pv);
+      return true;
+    }
     switch (r.below(a64 ? 2 : 5)) {
       case 0: case 1: {
         o.opc = O_STORE;
@@ -1716,7 +2236,35 @@ struct Gen {
       int v = pick(KIND_V, w); if (v < 0) return Src();
       return SR(v);
     };
-    int kind = (int)r.below(a64 ? 6 : 20);
+    int kind = (int)r.below(a64 ? 11 : 24);
+    if (!a64 && kind >= 22) {
+      // round with an immediate: vroundpd/ps/sd/ss have no EVEX form, registers 16..31 make the Compiler switch to vrndscale*
+      if (!g_have_sse41) return false;
+      o.opc = O_VROUND; o.sub = (u8)r.below(4); o.imm = (i64)(8 | r.below(4));
+      if (o.sub < 2) {
+        if (w > 32) { w = 32; o.w = 32; }
+        o.s = vsrc(true); if (o.s.t == S_NONE) return false;
+        if (o.s.t == S_REG && P.vals[o.s.v].size < w) return false;
+      }
+      else {
+        o.w = 16; w = 16;
+        o.a = (P.mode == MODE_SSE) ? d : pick(KIND_V, 16);
+        if (o.a < 0) return false;
+        int es = o.sub == 2 ? 8 : 4;
+        if (r.chance(1, 4)) o.s = SM(gen_mem(es, true)); else { int v = pick(KIND_V, 16); if (v < 0) return false; o.s = SR(v); }
+      }
+      push(o); return true;
+    }
+    if (a64 && kind == 10) {
+      // multiply by element: a half-word element restricts the element register to v0..v15
+      o.opc = O_AMULE; o.w = 16; o.w2 = (u8)((r.chance(2, 3) && !(g_avoid_fwd & 1048576)) ? 2 : 4); o.cc = (u8)r.below(16 / o.w2);
+      o.a = pick(KIND_V, 16); o.b = pick(KIND_V, 16);
+      if (o.a < 0 || o.b < 0) return false;
+      push(o); return true;
+    }
+    if (a64 && kind >= 6) return gen_a64_list(kind);
+    if (kind == 20) return gen_blendv();
+    if (kind == 21) return gen_maskmov();
     switch (kind) {
       case 0: case 1: {
         o.opc = O_VMOV; o.s = vsrc(true); if (o.s.t == S_NONE) return false;
@@ -1759,6 +2307,12 @@ struct Gen {
         if (P.mode == MODE_SSE) return false;
         o.opc = O_VBCAST; o.w2 = (u8)(r.chance(1, 2) ? 4 : 8);
         int k = (int)r.below(3);
+        if (w == 32 && Rng(r.s ^ 0xBCA57ull).chance(1, 2)) {
+          // vbroadcasti128 / vbroadcastf128 ymm, m128 (VEX; rewritten to vbroadcasti32x4 / vbroadcastf32x4 for ymm16..31)
+          o.w2 = 16; o.flag = (u8)(1 + Rng(r.s ^ 0xF128ull).below(2));
+          o.s = SM(gen_mem(16, true));
+          push(o); return true;
+        }
         if (k == 0) { int v = pick(KIND_V, 16); if (v < 0) return false; o.s = SR(v); }
         else if (k == 1) o.s = SM(gen_mem(o.w2, true));
         else {
@@ -1775,6 +2329,7 @@ struct Gen {
         o.w = (u8)(o.w2 == 64 && r.chance(1, 2) ? 32 : 16);
         if (dsz < o.w) return false;
         o.imm = (i64)r.below(o.w2 / o.w);
+        if (o.w2 == 32) o.flag = (u8)Rng(r.s ^ 0xE87ull).below(2);   // vextracti128 / vextractf128
         push(o); return true;
       }
       case 15: {  // insert a chunk
@@ -1785,6 +2340,7 @@ struct Gen {
         if (r.chance(1, 4)) o.s = SM(gen_mem(o.w2, true));
         else { int v = pick(KIND_V, o.w2); if (v < 0) return false; o.s = SR(v); }
         o.imm = (i64)r.below(dsz / o.w2);
+        if (dsz == 32) o.flag = (u8)Rng(r.s ^ 0x125ull).below(2);   // vinserti128 / vinsertf128
         push(o); return true;
       }
       case 16: {  // gp -> vector
@@ -2011,25 +2567,40 @@ struct Gen {
   bool gen_call() {
     Op o; o.opc = O_CALL;
     bool haveD = pick(KIND_D, 8) >= 0;
+    bool host = !x32 && !a64;
     for (int tries = 0; tries < 8; tries++) {
       bool big_bias = !strncmp(pf.name, "calls", 5) || !strncmp(pf.name, "x86-calls", 9) || !strncmp(pf.name, "a64-calls", 9);
       int id = (big_bias && r.chance(1, 2)) ? NCALLEE_OLD + (int)r.below(NCALLEE - NCALLEE_OLD) : (int)r.below(NCALLEE);
+      // x86-64: ms_abi / variadic / vector / signed-stack-parameter helpers (side stream so that the classic choices stay as they were)
+      if (host && r.chance(1, 4)) id = NCALLEE + (int)r.below(NCALLEE_ALL - NCALLEE);
+      if (id == 38 && (g_avoid_fwd & 262144)) continue;   // Win64 vector argument (passed by reference) in a stack position: probe indirect-vector-argument-on-stack
       const CalleeSig& sg = g_sigs[id];
       bool ok = true;
       o.args.clear();
-      int nd_seen = 0;
+      int nd_seen = 0, ni_seen = sg.va ? 1 : 0;   // a variadic helper's named first argument (its id) takes the first integer position
       for (int k = 0; k < sg.n && ok; k++) {
-        if (sg.kind[k] == AK_F64) {
+        u8 kd = sg.kind[k];
+        int pos = k + (sg.va ? 1 : 0);
+        if (kd == AK_F64 || kd == AK_F32) {
           // an immediate is accepted for a floating-point argument only in a stack position (bit pattern)
-          bool on_stack = x32 || (!a64 && nd_seen >= 8);
+          bool on_stack = x32 || (host && (sg.conv == CV_MS ? pos >= 4 : nd_seen >= 8));
           nd_seen++;
           if (on_stack && (!haveD || r.chance(1, 3))) { o.args.push_back(SI(gen_arg_imm())); continue; }
           if (!haveD) { ok = false; break; }
           o.args.push_back(SR(pick(KIND_D, 8)));
         }
+        else if (kd == AK_V128) {
+          int v = pick(KIND_V, 16);
+          if (v < 0) { ok = false; break; }
+          o.args.push_back(SR(v));
+        }
         else {
-          int aw = sg.kind[k] == AK_U8 ? 1 : sg.kind[k] == AK_U16 ? 2 : sg.kind[k] == AK_U32 ? 4 : 8;
-          int v = (x32 && aw == 8) ? -1 : pickG(aw);
+          int aw = ak_width(kd);
+          // stack positions take virtual registers of ANY width (extended by the call lowering); register positions are assigned as they are
+          bool on_stack = x32 || (host && (sg.conv == CV_MS ? pos >= 4 : ni_seen >= 6));
+          ni_seen++;
+          int v = (x32 && aw == 8) ? -1 : ((on_stack && !a64 && r.chance(1, 2)) ? pickG(1) : pickG(aw));
+          if (v >= 0 && x32 && P.vals[v].size < aw && aw == 8) v = -1;
           if (v < 0 || r.chance(1, 3)) {
             o.args.push_back(SI(gen_arg_imm()));
           }
@@ -2039,12 +2610,18 @@ struct Gen {
       if (!ok) continue;
       o.imm = id;
       o.d = -1;
+      // call target: immediate address, virtual register, memory operand (pointer table behind the argument buffer)
+      o.sub = (u8)(a64 ? 0 : (r.chance(1, 3) ? 1 + r.below(2) : 0));
+      if (sg.va && (g_avoid_fwd & 131072)) o.sub = 0;   // variadic call through a register / memory operand: probe variadic-call-target-register
       if (sg.ret != RK_VOID && r.chance(3, 4)) {
         if (sg.ret == RK_F64) o.d = pick(KIND_D, 8);
         else if (sg.ret == RK_U64) o.d = x32 ? -1 : pick(KIND_G, 0, 64, 8);
+        else if (sg.ret == RK_V128) o.d = pick(KIND_V, 0, 64, 16);
         else o.d = pick(KIND_G, 0, 64, 4);
         if (o.d >= 0 && is_undefined_temp(o.d)) { }
       }
+      // x86-32: the ST0 result of a call whose return operand is not assigned stays on the x87 stack (probe x87-return-value-not-popped)
+      if (x32 && (g_avoid_fwd & 65536) && sg.ret == RK_F64 && o.d < 0) { o.d = pick(KIND_D, 8); if (o.d < 0) continue; }
       push(o);
       if (o.d >= 0) defined(o.d);
       return true;
@@ -2074,12 +2651,12 @@ struct Gen {
   int new_block() {
     P.blocks.emplace_back();
     cur = &P.blocks.back();
-    temps.clear();
+    temps.clear(); ptr_off.clear();
     return (int)P.blocks.size() - 1;
   }
   void fill_block(int bi) {
     cur = &P.blocks[bi];
-    temps.clear();
+    temps.clear(); ptr_off.clear();
     gen_ops((int)r.range(pf.ops_lo, pf.ops_hi));
   }
 
@@ -2092,6 +2669,12 @@ struct Gen {
     if (t.a < 0) { t.w = 4; t.a = P.fuel; }
     t.s = gen_src(t.w, t.a, false);
     if (t.s.t == S_NONE) t.s = SI(0);
+    // branches that read a register themselves: x86 jecxz (fixed ecx), a64 cbz / cbnz / tbz / tbnz
+    Rng q(r.s ^ 0xB7A9C5ull);
+    if (t.a != P.fuel && q.chance(1, 6)) {
+      if (a64) { t.test = (u8)(q.chance(1, 2) ? 2 : 3); t.cc = (u8)(q.chance(1, 2) ? CC_E : CC_NE); t.s = SI((i64)q.below(8 * t.w)); }
+      else if (t.w >= 4) { t.test = 2; t.cc = (u8)(q.chance(1, 2) ? CC_E : CC_NE); t.s = SI(0); }
+    }
   }
 
   // structured regions; blocks are laid out in generation order
@@ -2135,6 +2718,7 @@ struct Gen {
         int latch = new_block(); budget--; fill_block(latch);
         Term& t = P.blocks[latch].term;
         t.kind = T_DEC; t.a = cnt; t.w = 4; t.target = head;
+        if (!a64 && Rng(r.s ^ 0x100Bull).chance(1, 4)) t.test = 2;   // x86 loop instruction
       }
       else {  // switch through an annotated jump table
         int s = new_block(); budget--; fill_block(s);
@@ -2232,7 +2816,7 @@ static u64 shape_count() {
 
 static bool g_keep_unreachable = true;
 // constructs the generator avoids (set by the Python side when the corresponding probe shows a defect)
-enum : u32 { AV_CMPXCHG = 1, AV_SAMEREG_NARROW = 2, AV_RMW32_ON64 = 4, AV_HI8 = 8, AV_KMOVW_TOG = 16, AV_VECARG_AVX512 = 32, AV_OR_MEM_M1 = 64, AV_AND_ZERO = 128, AV_A64_TBL_MULTI = 256, AV_SAMEREG_NARROW_VEC = 512, AV_TERN_MASKED = 1024, AV_HINT_VIEWS = 2048, AV_BT_REGIDX = 4096, AV_GATHER = 8192, AV_NARROW_PARAM_WIDE_VREG = 16384 };
+enum : u32 { AV_CMPXCHG = 1, AV_SAMEREG_NARROW = 2, AV_RMW32_ON64 = 4, AV_HI8 = 8, AV_KMOVW_TOG = 16, AV_VECARG_AVX512 = 32, AV_OR_MEM_M1 = 64, AV_AND_ZERO = 128, AV_A64_TBL_MULTI = 256, AV_SAMEREG_NARROW_VEC = 512, AV_TERN_MASKED = 1024, AV_HINT_VIEWS = 2048, AV_BT_REGIDX = 4096, AV_GATHER = 8192, AV_NARROW_PARAM_WIDE_VREG = 16384, AV_A64_LR = 32768, AV_X87_LEAK = 65536, AV_VA_TARGET = 131072, AV_INDIRECT_VEC_STACK = 262144, AV_A64_LANE_LIST = 524288, AV_A64_HELEM = 1048576 };
 u32 g_avoid_fwd = 0;
 #define g_avoid g_avoid_fwd
 
@@ -2251,7 +2835,9 @@ static Program gen_program(Rng& r, const Profile& pf, i64 shape_idx) {
     u8 sz = szs[r.below(8)];
     if (x32 && sz == 8) sz = 4;
     if (a64 && sz < 4) sz = 4;
-    g.new_val(KIND_G, sz, false, r.chance(3, 4));
+    int vi = g.new_val(KIND_G, sz, false, r.chance(3, 4));
+    // a quarter of the general purpose registers get a signed type id (matters when a narrower one is extended for a parameter)
+    if (!a64 && Rng(r.s ^ 0x51A7EDull).chance(1, 4)) P.vals[vi].sgn = 1;
   }
   for (int i = 0; i < nv; i++) {
     u8 sz = 16;
@@ -2266,8 +2852,7 @@ static Program gen_program(Rng& r, const Profile& pf, i64 shape_idx) {
   for (int i = 0; i < nd; i++) g.new_val(KIND_D, 8, false, r.chance(3, 4));
   P.use_stack = !a64 && (int)r.below(100) < pf.stack_pct;
   P.sigclass = (u8)r.below(3);
-  if (a64 && P.sigclass == 2) P.sigclass = 1;
-  if (!a64 && r.chance(1, 3)) P.sigclass = (u8)(3 + r.below(4));   // many parameters: most of them arrive on the stack
+  if (r.chance(1, 3)) P.sigclass = (u8)(3 + r.below(a64 ? 3 : 4));   // many parameters: most of them arrive on the stack (a64: 32/64-bit parameters only)
   P.preserved_fp = !a64 && r.chance(1, 4);
   P.cconv = (u8)r.below(4);
   P.fuel_init = (int)r.range(6, 40);
@@ -2461,7 +3046,7 @@ static std::string fmt_op(const Op& o) {
            kOpNames[o.opc], o.sub, o.w, o.w2, o.cc, o.flag, o.d, o.d2, o.a, o.b, o.c, (long long)o.imm,
            fmt_src(o.s).c_str(), fmt_src(o.s2).c_str());
   std::string r = b;
-  if (o.opc == O_CALL) { r += " args="; for (const Src& a : o.args) r += fmt_src(a) + ","; }
+  if (!o.args.empty()) { r += " args="; for (const Src& a : o.args) r += fmt_src(a) + ","; }
   return r;
 }
 static std::string serialise(const Program& P) {
@@ -2474,7 +3059,7 @@ static std::string serialise(const Program& P) {
   s += "vals:";
   for (size_t i = 0; i < P.vals.size(); i++) {
     const ValDef& d = P.vals[i];
-    snprintf(b, sizeof b, " v%zu=%c%d%s%s", i, "gvdk"[d.kind], d.size * 8, d.half ? "h" : (d.local ? "t" : (d.sgn ? "s" : "")), d.dumped ? "*" : "");
+    snprintf(b, sizeof b, " v%zu=%c%d%s%s", i, "gvdk"[d.kind], d.size * 8, d.half ? "h" : (d.ptr ? "p" : (d.local ? "t" : (d.sgn ? "s" : ""))), d.dumped ? "*" : "");
     s += b;
   }
   s += "\nargs:";
@@ -2521,7 +3106,9 @@ struct EmitStats {
   bool nontrivial() const { return loads + saves + moves + swaps + rm_subst > 0; }
 };
 
-struct NodeRec { BaseNode* node; u32 optypes; };
+struct NodeRec { BaseNode* node; u32 optypes; InstId inst_id; };
+// user instructions whose instruction id was changed by the allocator's rewrite step (x86: VEX form -> EVEX form because a register 16..31 / a mask was assigned)
+static std::map<std::pair<u32, u32>, u64> g_id_rewrites;
 
 static inline u32 optypes_of(const InstNode* n) {
   u32 t = 0;
@@ -2530,8 +3117,8 @@ static inline u32 optypes_of(const InstNode* n) {
   return t;
 }
 
-static void collect_ra_stats(BaseBuilder& cb, const std::vector<NodeRec>& recs, EmitStats& st) {
-  for (BaseNode* n = cb.first_node(); n; n = n->next()) {
+static void collect_ra_stats(BaseBuilder& cb, const std::vector<NodeRec>& recs, EmitStats& st, BaseNode* from = nullptr, BaseNode* to = nullptr) {
+  for (BaseNode* n = from ? from : cb.first_node(); n && n != to; n = n->next()) {
     if (!n->is_inst()) continue;
     const char* c = n->inline_comment();
     if (!c) continue;
@@ -2543,6 +3130,7 @@ static void collect_ra_stats(BaseBuilder& cb, const std::vector<NodeRec>& recs, 
   for (const NodeRec& r : recs) {
     if (!r.node->is_inst()) continue;
     u32 now = optypes_of(r.node->as<InstNode>());
+    if (r.node->as<InstNode>()->inst_id() != r.inst_id) g_id_rewrites[std::make_pair((u32)r.inst_id, (u32)r.node->as<InstNode>()->inst_id())]++;
     for (int i = 0; i < 6; i++) {
       u32 a = (r.optypes >> (4 * i)) & 7, b = (now >> (4 * i)) & 7;
       if (a == u32(OperandType::kReg) && b == u32(OperandType::kMem)) st.rm_subst++;
@@ -2607,6 +3195,18 @@ struct X86Emitter {
   std::vector<Label> data_labels;   // labels that start data (jump tables, constant pool)
   std::vector<DataRange> dranges;   // the same with sizes (-1: constant pool, extends to the next range / end of code)
   bool sse, avx512;
+  FuncNode* func_node = nullptr;
+  // several functions built with ONE Compiler: virtual registers created for an earlier function are reused by the later ones (same kind / size / signedness)
+  std::map<u32, std::vector<Reg>>* pool = nullptr;
+  std::map<u32, size_t> pool_used;
+  bool pooled(u32 key, Reg& out) {
+    if (!pool) return false;
+    std::vector<Reg>& v = (*pool)[key];
+    size_t& u = pool_used[key];
+    if (u < v.size()) { out = v[u++]; return true; }
+    return false;
+  }
+  void to_pool(u32 key, const Reg& r) { if (pool) { (*pool)[key].push_back(r); pool_used[key]++; } }
 
   X86Emitter(x86::Compiler& c, const Program& p) : cc(c), P(p) {
     is64 = p.arch == ARCH_X64;
@@ -2616,13 +3216,14 @@ struct X86Emitter {
 
   void rec() {
     BaseNode* n = cc.cursor();
-    if (n && n->is_inst()) recs.push_back(NodeRec{ n, optypes_of(n->as<InstNode>()) });
+    if (n && n->is_inst()) recs.push_back(NodeRec{ n, optypes_of(n->as<InstNode>()), n->as<InstNode>()->inst_id() });
   }
   void E(InstId id) { cc.emit(id); rec(); }
   void E(InstId id, const Operand_& a) { cc.emit(id, a); rec(); }
   void E(InstId id, const Operand_& a, const Operand_& b) { cc.emit(id, a, b); rec(); }
   void E(InstId id, const Operand_& a, const Operand_& b, const Operand_& c) { cc.emit(id, a, b, c); rec(); }
   void E(InstId id, const Operand_& a, const Operand_& b, const Operand_& c, const Operand_& d) { cc.emit(id, a, b, c, d); rec(); }
+  void E(InstId id, const Operand_& a, const Operand_& b, const Operand_& c, const Operand_& d, const Operand_& e) { cc.emit(id, a, b, c, d, e); rec(); }
 
   x86::Gp g(int v, int w) const {
     const x86::Gp& r = regs[v].as<x86::Gp>();
@@ -2796,6 +3397,7 @@ struct X86Emitter {
         break;
       case O_VSHUFD: E(sse ? Inst::kIdPshufd : Inst::kIdVpshufd, vv(o.d, w), vsrc(o.s, w), Imm(o.imm)); break;
       case O_VBCAST: {
+        if (o.w2 == 16) { E(o.flag == 2 ? Inst::kIdVbroadcastf128 : Inst::kIdVbroadcasti128, vv(o.d, w), mem(o.s.m, 16)); break; }
         InstId id = o.w2 == 4 ? Inst::kIdVpbroadcastd : Inst::kIdVpbroadcastq;
         if (o.s.t == S_MEM) E(id, vv(o.d, w), mem(o.s.m, o.w2));
         else if (P.vals[o.s.v].kind == KIND_G) E(id, vv(o.d, w), g(o.s.v, o.w2));
@@ -2803,12 +3405,12 @@ struct X86Emitter {
         break;
       }
       case O_VEXTR: {
-        InstId id = o.w2 == 32 ? Inst::kIdVextracti128 : (w == 16 ? Inst::kIdVextracti32x4 : Inst::kIdVextracti64x4);
+        InstId id = o.w2 == 32 ? (o.flag ? Inst::kIdVextractf128 : Inst::kIdVextracti128) : (w == 16 ? Inst::kIdVextracti32x4 : Inst::kIdVextracti64x4);
         E(id, vv(o.d, w), vv(o.a, o.w2), Imm(o.imm));
         break;
       }
       case O_VINS: {
-        InstId id = w == 32 ? Inst::kIdVinserti128 : (o.w2 == 16 ? Inst::kIdVinserti32x4 : Inst::kIdVinserti64x4);
+        InstId id = w == 32 ? (o.flag ? Inst::kIdVinsertf128 : Inst::kIdVinserti128) : (o.w2 == 16 ? Inst::kIdVinserti32x4 : Inst::kIdVinserti64x4);
         E(id, vv(o.d, w), vv(o.a, w), vsrc(o.s, o.w2), Imm(o.imm));
         break;
       }
@@ -2873,22 +3475,95 @@ struct X86Emitter {
       case O_DSTORE: E(sse ? Inst::kIdMovsd : Inst::kIdVmovsd, mem(o.s2.m, 8), vv(o.a, 16)); break;
       case O_DMOV: E(sse ? Inst::kIdMovaps : Inst::kIdVmovaps, vv(o.d, 16), vv(o.a, 16)); break;
 
+      case O_BLENDV: {
+        static const InstId ids[] = { Inst::kIdPblendvb, Inst::kIdBlendvps, Inst::kIdBlendvpd };
+        E(ids[o.sub], vv(o.d, 16), vsrc(o.s, 16), vv(o.c, 16));
+        break;
+      }
+      case O_MULX: E(Inst::kIdMulx, g(o.d2, w), g(o.d, w), src(o.s, w), g(o.c, w)); break;
+      case O_STR: {
+        int n = (int)o.imm;
+        Gp pd, ps, cnt;
+        if (o.sub != 2) { pd = cc.new_gp_ptr("str_dst"); E(Inst::kIdLea, pd, x86::ptr(bufp, o.s2.m.off)); }
+        if (o.sub != 0) { ps = cc.new_gp_ptr("str_src"); E(Inst::kIdLea, ps, x86::ptr(bufp, o.s.m.off)); }
+        Mem md = x86::ptr(pd); md.set_size((u32)w);
+        Mem ms = x86::ptr(ps); ms.set_size((u32)w);
+        static const InstId ids[] = { Inst::kIdStos, Inst::kIdMovs, Inst::kIdLods };
+        int reps = o.flag ? 1 : n;
+        if (o.flag) { cnt = cc.new_gp_ptr("str_cnt"); E(Inst::kIdMov, cnt, Imm(n)); }
+        for (int i = 0; i < reps; i++) {
+          if (o.flag) cc.rep(cnt);
+          if (o.sub == 0) E(ids[0], md, g(o.a, w));
+          else if (o.sub == 1) E(ids[1], md, ms);
+          else E(ids[2], g(o.a, w), ms);
+        }
+        if (o.d >= 0) { Gp pp = o.sub == 2 ? ps : pd; E(Inst::kIdSub, pp, bufp); E(Inst::kIdMov, gptr(o.d), pp); }
+        if (o.d2 >= 0) E(Inst::kIdMov, g(o.d2, 4), cnt.r32());
+        break;
+      }
+      case O_CX16: {
+        Mem m = mem(o.s2.m, 2 * w);
+        E(w == 8 ? Inst::kIdCmpxchg16b : Inst::kIdCmpxchg8b, m, g(o.d2, w), g(o.d, w), g(o.b, w), g(o.a, w));
+        if (o.c >= 0) E(Inst::kIdSete, g(o.c, 1));
+        break;
+      }
+      case O_LAHF: emit_cmp(o.a, o.s, o.w2, false); E(Inst::kIdLahf, regs[o.d].as<Gp>().r8_hi()); break;
+      case O_SAHF: E(Inst::kIdSahf, regs[o.a].as<Gp>().r8_hi()); E(kSetcc[o.cc], g(o.d, 1)); break;
+      case O_VROUND: {
+        static const InstId s_[] = { Inst::kIdRoundpd, Inst::kIdRoundps, Inst::kIdRoundsd, Inst::kIdRoundss };
+        static const InstId a_[] = { Inst::kIdVroundpd, Inst::kIdVroundps, Inst::kIdVroundsd, Inst::kIdVroundss };
+        if (o.sub < 2) {
+          if (sse) E(s_[o.sub], vv(o.d, 16), vsrc(o.s, 16), Imm(o.imm)); else E(a_[o.sub], vv(o.d, w), vsrc(o.s, w), Imm(o.imm));
+        }
+        else {
+          Operand so = o.s.t == S_MEM ? Operand(mem(o.s.m, o.sub == 2 ? 8 : 4)) : Operand(vv(o.s.v, 16));
+          if (sse) E(s_[o.sub], vv(o.d, 16), so, Imm(o.imm)); else E(a_[o.sub], vv(o.d, 16), vv(o.a, 16), so, Imm(o.imm));
+        }
+        break;
+      }
+      case O_MASKMOV: {
+        Gp pd = cc.new_gp_ptr("mm_dst"); E(Inst::kIdLea, pd, x86::ptr(bufp, o.s2.m.off));
+        E(sse ? Inst::kIdMaskmovdqu : Inst::kIdVmaskmovdqu, vv(o.a, 16), vv(o.b, 16), x86::ptr(pd));
+        break;
+      }
       case O_CALL: {
         const CalleeSig& sg = g_sigs[o.imm];
-        FuncSignature sig((!is64 && (o.imm & 1)) ? CallConvId::kStdCall : CallConvId::kCDecl);
-        sig.set_ret(sg.ret == RK_VOID ? TypeId::kVoid : sg.ret == RK_U32 ? TypeId::kUInt32 : sg.ret == RK_U64 ? TypeId::kUInt64 : TypeId::kFloat64);
-        static const TypeId tids[] = { TypeId::kUInt8, TypeId::kUInt16, TypeId::kUInt32, TypeId::kUInt64, TypeId::kFloat64 };
+        FuncSignature sig(!is64 ? ((o.imm & 1) ? CallConvId::kStdCall : CallConvId::kCDecl) : (sg.conv == CV_MS ? CallConvId::kX64Windows : CallConvId::kCDecl));
+        sig.set_ret(sg.ret == RK_VOID ? TypeId::kVoid : sg.ret == RK_U32 ? TypeId::kUInt32 : sg.ret == RK_U64 ? TypeId::kUInt64 : sg.ret == RK_V128 ? TypeId::kInt32x4 : TypeId::kFloat64);
+        static const TypeId tids[] = { TypeId::kUInt8, TypeId::kUInt16, TypeId::kUInt32, TypeId::kUInt64, TypeId::kFloat64, TypeId::kInt8, TypeId::kInt16, TypeId::kInt32,
+                                       TypeId::kInt64, TypeId::kInt32x4, TypeId::kFloat32 };
+        int first = 0;
+        if (sg.va) { sig.add_arg(TypeId::kUInt32); sig.set_va_index(1); first = 1; }   // f(uint32 id, ...)
         for (int k = 0; k < sg.n; k++) sig.add_arg(tids[sg.kind[k]]);
         InvokeNode* inv = nullptr;
         u64 target = is64 ? (u64)(uintptr_t)g_callee_ptr[o.imm] : (u64)(0x08000000u + (u32)o.imm * 64);
-        cc.invoke(Out(inv), imm(target), sig);
+        if (o.sub == 1) {
+          // through a virtual register
+          Gp t = cc.new_gp_ptr("callee");
+          E(Inst::kIdMov, t, Imm(target));
+          cc.invoke(Out(inv), t, sig);
+        }
+        else if (o.sub == 2) {
+          // through memory: the harness keeps a table of helper addresses right behind the argument buffer
+          Mem m = x86::ptr(bufp, BUF_SIZE + (is64 ? 8 : 4) * (int)o.imm);
+          m.set_size(is64 ? 8 : 4);
+          cc.invoke(Out(inv), m, sig);
+        }
+        else cc.invoke(Out(inv), imm(target), sig);
         if (!inv) break;
+        if (sg.va) inv->set_arg(0, Imm((i64)o.imm));
         for (int k = 0; k < sg.n; k++) {
           const Src& a = o.args[k];
-          if (a.t == S_IMM) inv->set_arg(k, Imm(a.imm));
-          else inv->set_arg(k, regs[a.v]);
+          if (a.t == S_IMM && !is64 && sg.kind[k] == AK_U64) {
+            // a 64-bit integer argument of a 32-bit target is a pack of two 32-bit values: both halves are assigned
+            inv->set_arg(first + k, 0, Imm((i64)(u32)a.imm));
+            inv->set_arg(first + k, 1, Imm((i64)(u32)((u64)a.imm >> 32)));
+          }
+          else if (a.t == S_IMM) inv->set_arg(first + k, Imm(a.imm));
+          else if (sg.kind[k] == AK_V128) inv->set_arg(first + k, vv(a.v, 16));
+          else inv->set_arg(first + k, regs[a.v]);
         }
-        if (o.d >= 0) inv->set_ret(0, regs[o.d]);
+        if (o.d >= 0) { if (sg.ret == RK_V128) inv->set_ret(0, vv(o.d, 16)); else inv->set_ret(0, regs[o.d]); }
         break;
       }
       default: break;
@@ -2901,8 +3576,29 @@ struct X86Emitter {
     switch (t.kind) {
       case T_FALL: break;
       case T_JMP: cc.jmp(labels[t.target]); break;
-      case T_BR: emit_cmp(t.a, t.s, t.w, t.test); cc.emit(kJcc[t.cc], labels[t.target]); break;
-      case T_DEC: E(Inst::kIdSub, g(t.a, t.w), Imm(1)); cc.jnz(labels[t.target]); break;
+      case T_BR:
+        if (t.test == 2) {
+          // jecxz only reaches +-127 bytes: branch to a jmp next to it
+          Label skip = cc.new_label();
+          if (t.cc == CC_E) { Label near = cc.new_label(); cc.jecxz(g(t.a, t.w), near); cc.jmp(skip); cc.bind(near); cc.jmp(labels[t.target]); }
+          else {
+            // nothing but one jmp between jecxz and its target (the allocator may put moves in front of the jmp to the real target)
+            Label zero = cc.new_label(), far = cc.new_label();
+            cc.jecxz(g(t.a, t.w), zero); cc.jmp(far); cc.bind(zero); cc.jmp(skip); cc.bind(far); cc.jmp(labels[t.target]);
+          }
+          cc.bind(skip);
+          break;
+        }
+        emit_cmp(t.a, t.s, t.w, t.test); cc.emit(kJcc[t.cc], labels[t.target]);
+        break;
+      case T_DEC:
+        if (t.test == 2) {
+          Label skip = cc.new_label(), near = cc.new_label();
+          cc.loop(g(t.a, t.w), near); cc.jmp(skip); cc.bind(near); cc.jmp(labels[t.target]); cc.bind(skip);
+          break;
+        }
+        E(Inst::kIdSub, g(t.a, t.w), Imm(1)); cc.jnz(labels[t.target]);
+        break;
       case T_SWITCH: {
         Table tb; tb.lab = cc.new_label(); tb.targets = t.targets;
         Gp idx = cc.new_gp_ptr("sw_idx"), base = cc.new_gp_ptr("sw_base"), tgt = cc.new_gp_ptr("sw_tgt");
@@ -2947,6 +3643,7 @@ struct X86Emitter {
 
     FuncNode* fn = cc.add_func(sig);
     if (!fn) return;
+    func_node = fn;
     if (P.mode >= MODE_AVX) fn->frame().set_avx_enabled();
     if (P.mode >= MODE_AVX512) fn->frame().set_avx512_enabled();
     if (P.preserved_fp) fn->frame().set_preserved_fp();
@@ -2962,6 +3659,8 @@ struct X86Emitter {
     for (size_t i = 0; i < P.vals.size(); i++) {
       const ValDef& d = P.vals[i];
       char nm[24]; snprintf(nm, sizeof nm, "v%zu", i);
+      u32 pkey = ((u32)d.kind << 16) | ((u32)d.size << 8) | d.sgn;
+      if (pooled(pkey, regs[i])) continue;
       switch (d.kind) {
         case KIND_G:
           if (d.sgn) regs[i] = cc.new_gp(d.size == 1 ? TypeId::kInt8 : d.size == 2 ? TypeId::kInt16 : d.size == 4 ? TypeId::kInt32 : TypeId::kInt64, nm);
@@ -2971,6 +3670,7 @@ struct X86Emitter {
         case KIND_D: regs[i] = cc.new_xmm_sd(nm); break;
         default: regs[i] = d.size == 1 ? cc.new_kb(nm) : d.size == 2 ? cc.new_kw(nm) : d.size == 4 ? cc.new_kd(nm) : cc.new_kq(nm); break;
       }
+      to_pool(pkey, regs[i]);
     }
     fn->set_arg(0, bufp);
     for (size_t i = 0; i < P.argbind.size(); i++) if (P.argbind[i] >= 0) fn->set_arg(1 + i, regs[P.argbind[i]]);
@@ -3020,6 +3720,7 @@ static const u32 CALLCAP = 160;
 struct ShmSlot {
   volatile u32 done;
   u32 ncalls;
+  u32 clobber;       // callee-saved registers that differ after the return (x86-64 native execution)
   u64 ret;
   CallRec calls[CALLCAP];
   u8 buf[BUF_SIZE];
@@ -3028,6 +3729,7 @@ struct Shm {
   volatile u32 progress;        // input index inside the program being executed
   volatile u32 progress_item;   // index of the program (batch item) being executed
   volatile u64 crash_rip, crash_addr, crash_sig, fn_base;
+  volatile u32 stage;           // isolated runs: 0 compiling, 1 executing generated code, 2 done
   ShmSlot slot[NINPUTS_MAX * BATCH_MAX];
 };
 
@@ -3037,7 +3739,7 @@ static u8* g_jitbuf = nullptr;   // argument buffer with guard pages on both sid
 static void init_exec_env() {
   g_shm = (Shm*)mmap(nullptr, sizeof(Shm), PROT_READ | PROT_WRITE, MAP_SHARED | MAP_ANONYMOUS, -1, 0);
   size_t pg = 4096;
-  size_t sz = (BUF_SIZE + pg - 1) / pg * pg;
+  size_t sz = (BUF_SIZE + 8 * NCALLEE_ALL + pg - 1) / pg * pg;
   u8* p = (u8*)mmap(nullptr, sz + 2 * pg, PROT_READ | PROT_WRITE, MAP_PRIVATE | MAP_ANONYMOUS, -1, 0);
   mprotect(p, pg, PROT_NONE);
   mprotect(p + pg + sz, pg, PROT_NONE);
@@ -3045,56 +3747,129 @@ static void init_exec_env() {
   if (g_shm == MAP_FAILED || p == MAP_FAILED) { fprintf(stderr, "mmap failed\n"); exit(3); }
 }
 
-typedef u64 (*FnI0)(u8*);
-typedef u64 (*FnI1)(u8*, u64, u64, u64);
-typedef u64 (*FnI2)(u8*, u64, u64, u64, u64, u64, u64, u64, u64, double, double, double, double, double, double, double, double, double);
-typedef double (*FnD0)(u8*);
-typedef double (*FnD1)(u8*, u64, u64, u64);
-typedef double (*FnD2)(u8*, u64, u64, u64, u64, u64, u64, u64, u64, double, double, double, double, double, double, double, double, double);
+// The generated x86-64 function is entered through a small assembly trampoline instead of a C++ call: the trampoline places the
+// arguments (SysV: 6 integer registers, 8 vector registers, the rest on the stack in argument order), fills every callee-saved
+// register (rbx, rbp, r12-r15) with a sentinel and records them and rsp after the return.
+struct Tramp64 {
+  u64 fn;            // 0
+  u64 ireg[6];       // 8
+  u64 xmm[8][2];     // 56
+  u64 nstack;        // 184
+  u64 stack[40];     // 192
+  u64 sent_in[6];    // 512
+  u64 sent_out[6];   // 560
+  u64 ret_rax;       // 608
+  u64 ret_xmm0;      // 616
+  u64 rsp_saved;     // 624
+  u64 rsp_call;      // 632
+  u64 rsp_out;       // 640
+};
+static_assert(offsetof(Tramp64, nstack) == 184 && offsetof(Tramp64, stack) == 192 && offsetof(Tramp64, sent_in) == 512 && offsetof(Tramp64, sent_out) == 560 &&
+              offsetof(Tramp64, ret_rax) == 608 && offsetof(Tramp64, rsp_saved) == 624 && offsetof(Tramp64, rsp_out) == 640, "trampoline layout");
+extern "C" {
+  Tramp64* ra_tramp_ctx __attribute__((used));
+  void ra_tramp64(Tramp64*);
+}
+asm(R"ASM(
+.text
+.globl ra_tramp64
+.type ra_tramp64,@function
+ra_tramp64:
+  push %rbx
+  push %rbp
+  push %r12
+  push %r13
+  push %r14
+  push %r15
+  push %rdi
+  mov %rdi, ra_tramp_ctx(%rip)
+  mov %rsp, 624(%rdi)
+  mov 184(%rdi), %rcx
+  lea 15(,%rcx,8), %rax
+  and $-16, %rax
+  sub %rax, %rsp
+  xor %edx, %edx
+1:
+  cmp %rcx, %rdx
+  jae 2f
+  mov 192(%rdi,%rdx,8), %rax
+  mov %rax, (%rsp,%rdx,8)
+  inc %rdx
+  jmp 1b
+2:
+  mov %rsp, 632(%rdi)
+  movdqu 56(%rdi), %xmm0
+  movdqu 72(%rdi), %xmm1
+  movdqu 88(%rdi), %xmm2
+  movdqu 104(%rdi), %xmm3
+  movdqu 120(%rdi), %xmm4
+  movdqu 136(%rdi), %xmm5
+  movdqu 152(%rdi), %xmm6
+  movdqu 168(%rdi), %xmm7
+  mov 512(%rdi), %rbx
+  mov 520(%rdi), %rbp
+  mov 528(%rdi), %r12
+  mov 536(%rdi), %r13
+  mov 544(%rdi), %r14
+  mov 552(%rdi), %r15
+  mov 0(%rdi), %r11
+  mov 16(%rdi), %rsi
+  mov 24(%rdi), %rdx
+  mov 32(%rdi), %rcx
+  mov 40(%rdi), %r8
+  mov 48(%rdi), %r9
+  mov 8(%rdi), %rdi
+  xor %eax, %eax
+  call *%r11
+  mov ra_tramp_ctx(%rip), %rdi
+  mov %rax, 608(%rdi)
+  movq %xmm0, 616(%rdi)
+  mov %rbx, 560(%rdi)
+  mov %rbp, 568(%rdi)
+  mov %r12, 576(%rdi)
+  mov %r13, 584(%rdi)
+  mov %r14, 592(%rdi)
+  mov %r15, 600(%rdi)
+  mov %rsp, 640(%rdi)
+  mov 624(%rdi), %rsp
+  cld
+  pop %rdi
+  pop %r15
+  pop %r14
+  pop %r13
+  pop %r12
+  pop %rbp
+  pop %rbx
+  ret
+.size ra_tramp64, .-ra_tramp64
+)ASM");
 
-#define D4 double, double, double, double
-typedef u64 (*FnI3)(u8*, u64, u64, u64, u64, u64, u64, u64, u64, u64, u64, u64, u64, u64, u64, D4, D4, D4, D4, double);
-typedef u64 (*FnI4)(u8*, u64, u64, u64, u64, u64, u64, u64, u64, u64, u64, u64, u64, u64, u64, u64, D4, D4, double, double);
-typedef u64 (*FnI5)(u8*, u64, u64, u64, u64, D4, D4, D4);
-typedef double (*FnD3)(u8*, u64, u64, u64, u64, u64, u64, u64, u64, u64, u64, u64, u64, u64, u64, D4, D4, D4, D4, double);
-typedef double (*FnD4)(u8*, u64, u64, u64, u64, u64, u64, u64, u64, u64, u64, u64, u64, u64, u64, u64, D4, D4, double, double);
-typedef double (*FnD5)(u8*, u64, u64, u64, u64, D4, D4, D4);
-#undef D4
-#define A14 a[0], a[1], a[2], a[3], a[4], a[5], a[6], a[7], a[8], a[9], a[10], a[11], a[12], a[13]
-#define DD8 d[0], d[1], d[2], d[3], d[4], d[5], d[6], d[7]
+static const char* const kX64Preserved[6] = { "rbx", "rbp", "r12", "r13", "r14", "r15" };
 
-static NOSAN u64 call_native(void* fn, int sigclass, bool retd, u8* buf, const RunInput& in) {
-  const u64* a = in.iargs;
-  double d[17];
-  for (int i = 0; i < 17; i++) d[i] = bitsd(in.dargs[i]);
-  // u32 parameters are passed as u64: the callee only looks at the low half (registers and 8-byte stack slots alike)
-  if (sigclass == 3) return retd ? dbits(((FnD3)fn)(buf, A14, DD8, d[8], d[9], d[10], d[11], d[12], d[13], d[14], d[15], d[16]))
-                                 : ((FnI3)fn)(buf, A14, DD8, d[8], d[9], d[10], d[11], d[12], d[13], d[14], d[15], d[16]);
-  if (sigclass == 4) return retd ? dbits(((FnD4)fn)(buf, A14, a[14], DD8, d[8], d[9])) : ((FnI4)fn)(buf, A14, a[14], DD8, d[8], d[9]);
-  if (sigclass == 6) {
-    typedef u64 (*FnI6)(u8*, u64, u64, u64, u64, u64, u64, u64, u64, u64, u64, u64, u64, u64, u64, u64, u64, u64, u64, u64, u64);
-    typedef double (*FnD6)(u8*, u64, u64, u64, u64, u64, u64, u64, u64, u64, u64, u64, u64, u64, u64, u64, u64, u64, u64, u64, u64);
-    return retd ? dbits(((FnD6)fn)(buf, A14, a[14], a[15], a[16], a[17], a[18], a[19])) : ((FnI6)fn)(buf, A14, a[14], a[15], a[16], a[17], a[18], a[19]);
-  }
-  if (sigclass == 5) return retd ? dbits(((FnD5)fn)(buf, a[0], a[1], a[2], a[3], DD8, d[8], d[9], d[10], d[11]))
-                                 : ((FnI5)fn)(buf, a[0], a[1], a[2], a[3], DD8, d[8], d[9], d[10], d[11]);
-  if (!retd) {
-    switch (sigclass) {
-      case 0: return ((FnI0)fn)(buf);
-      case 1: return ((FnI1)fn)(buf, a[0], a[1], a[2]);
-      default: return ((FnI2)fn)(buf, a[0], a[1], a[2], a[3], a[4], a[5], a[6], a[7], d[0], d[1], d[2], d[3], d[4], d[5], d[6], d[7], d[8]);
-    }
-  }
-  switch (sigclass) {
-    case 0: return dbits(((FnD0)fn)(buf));
-    case 1: return dbits(((FnD1)fn)(buf, a[0], a[1], a[2]));
-    default: return dbits(((FnD2)fn)(buf, a[0], a[1], a[2], a[3], a[4], a[5], a[6], a[7], d[0], d[1], d[2], d[3], d[4], d[5], d[6], d[7], d[8]));
-  }
+// returns the function's result; *clobber gets one bit per callee-saved register that changed (bit 6: rsp)
+static NOSAN u64 call_native(void* fn, int sigclass, bool retd, u8* buf, const RunInput& in, u32* clobber) {
+  static Tramp64 t;
+  const SigClass& sc = kSigClasses[sigclass];
+  int ni = 0, nd = 0; t.nstack = 0;
+  t.ireg[ni++] = (u64)(uintptr_t)buf;
+  // integer parameters are passed as full 64-bit values: the bits above a narrow parameter are junk (legal), in registers and in stack slots alike
+  for (int a = 0; a < sc.ni; a++) { if (ni < 6) t.ireg[ni++] = in.iargs[a]; else t.stack[t.nstack++] = in.iargs[a]; }
+  for (int a = 0; a < sc.nd; a++) { if (nd < 8) { t.xmm[nd][0] = in.dargs[a]; t.xmm[nd][1] = 0x7777777777777777ull; nd++; } else t.stack[t.nstack++] = in.dargs[a]; }
+  for (; ni < 6; ni++) t.ireg[ni] = 0xE1E1E1E1E1E1E1E1ull;
+  for (; nd < 8; nd++) { t.xmm[nd][0] = 0xE2E2E2E2E2E2E2E2ull; t.xmm[nd][1] = 0xE2E2E2E2E2E2E2E2ull; }
+  for (int i = 0; i < 6; i++) t.sent_in[i] = 0x5E5E0000C0DE0000ull + (u64)i * 0x0101;
+  t.fn = (u64)(uintptr_t)fn;
+  ra_tramp64(&t);
+  u32 c = 0;
+  for (int i = 0; i < 6; i++) if (t.sent_out[i] != t.sent_in[i]) c |= 1u << i;
+  if (t.rsp_out != t.rsp_call) c |= 1u << 6;
+  if (clobber) *clobber = c;
+  return retd ? t.ret_xmm0 : t.ret_rax;
 }
 
-enum { EX_OK = 0, EX_CRASH, EX_HANG, EX_WATCHDOG, EX_FORKFAIL };
+enum { EX_OK = 0, EX_CRASH, EX_HANG, EX_WATCHDOG, EX_FORKFAIL, EX_UNSUPPORTED, EX_PRESERVED };
 
-struct ExecOutcome { int status = EX_OK; int sig = 0; int at_input = -1; u64 rip_off = 0, addr = 0; };
+struct ExecOutcome { int status = EX_OK; int sig = 0; int at_input = -1; u64 rip_off = 0, addr = 0; std::string note; };
 
 static NOSAN void child_crash_handler(int sig, siginfo_t* si, void* uc_) {
   ucontext_t* uc = (ucontext_t*)uc_;
@@ -3102,6 +3877,17 @@ static NOSAN void child_crash_handler(int sig, siginfo_t* si, void* uc_) {
   g_shm->crash_addr = (u64)(uintptr_t)si->si_addr;
   g_shm->crash_rip = (u64)uc->uc_mcontext.gregs[REG_RIP];
   _exit(100 + (sig & 31));
+}
+
+static NOSAN void install_crash_handlers() {
+  static u8 altstack[65536];
+  stack_t ss; ss.ss_sp = altstack; ss.ss_size = sizeof altstack; ss.ss_flags = 0;
+  sigaltstack(&ss, nullptr);
+  struct sigaction sa; memset(&sa, 0, sizeof sa);
+  sa.sa_sigaction = child_crash_handler; sa.sa_flags = SA_SIGINFO | SA_ONSTACK | SA_NODEFER;
+  sigaction(SIGSEGV, &sa, nullptr); sigaction(SIGBUS, &sa, nullptr); sigaction(SIGILL, &sa, nullptr); sigaction(SIGFPE, &sa, nullptr);
+  sigaction(SIGTRAP, &sa, nullptr);
+  signal(SIGABRT, SIG_DFL); signal(SIGPROF, SIG_DFL); signal(SIGALRM, SIG_DFL);
 }
 
 struct ExecItem {
@@ -3130,14 +3916,7 @@ static void exec_native_batch(std::vector<ExecItem>& items) {
     pid_t pid = fork();
     if (pid < 0) { for (size_t i = start; i < items.size(); i++) items[i].eo.status = EX_FORKFAIL; return; }
     if (pid == 0) {
-      static u8 altstack[65536];
-      stack_t ss; ss.ss_sp = altstack; ss.ss_size = sizeof altstack; ss.ss_flags = 0;
-      sigaltstack(&ss, nullptr);
-      struct sigaction sa; memset(&sa, 0, sizeof sa);
-      sa.sa_sigaction = child_crash_handler; sa.sa_flags = SA_SIGINFO | SA_ONSTACK | SA_NODEFER;
-      sigaction(SIGSEGV, &sa, nullptr); sigaction(SIGBUS, &sa, nullptr); sigaction(SIGILL, &sa, nullptr); sigaction(SIGFPE, &sa, nullptr);
-      sigaction(SIGTRAP, &sa, nullptr);
-      signal(SIGABRT, SIG_DFL); signal(SIGPROF, SIG_DFL); signal(SIGALRM, SIG_DFL);
+      install_crash_handlers();
       alarm(120);
       for (size_t p = start; p < items.size(); p++) {
         ExecItem& it = items[p];
@@ -3154,8 +3933,10 @@ static void exec_native_batch(std::vector<ExecItem>& items) {
           ShmSlot& s = g_shm->slot[it.slot_base + k];
           memset(g_jitbuf, 0, BUF_SIZE);
           memcpy(g_jitbuf, (*it.inputs)[k].data, DATA_SIZE);
+          memcpy(g_jitbuf + BUF_SIZE, g_callee_ptr, sizeof g_callee_ptr);   // helper address table for calls through memory
           g_log = s.calls; g_logn = &s.ncalls; g_logcap = CALLCAP;
-          s.ret = call_native(it.fn, P.sigclass, retd, g_jitbuf, (*it.inputs)[k]);
+          s.clobber = 0;
+          s.ret = call_native(it.fn, P.sigclass, retd, g_jitbuf, (*it.inputs)[k], &s.clobber);
           memcpy(s.buf, g_jitbuf, BUF_SIZE);
           s.done = 1;
         }
@@ -3184,6 +3965,7 @@ static void exec_native_batch(std::vector<ExecItem>& items) {
 
 struct Compiled {
   void* fn = nullptr;
+  void* base = nullptr;   // what has to be released (one JIT block can hold several functions; only the first one owns it)
   Error err = Error::kOk;
   std::string errmsg;
   std::string stage;
@@ -3192,6 +3974,7 @@ struct Compiled {
   size_t code_end = 0;    // offset where data (tables / constant pool) starts
   std::string data_json = "[]";  // [[offset, size, inside-the-function], ...] of every data range in the code
   size_t code_size = 0;
+  size_t debug_log_bytes = 0;   // size of the RA debug output (programs compiled with kRADebugAll + logger)
 };
 
 static JitRuntime* g_rt = nullptr;
@@ -3210,34 +3993,66 @@ static std::string data_ranges_json(CodeHolder& code, const std::vector<DataRang
 static bool g_trace = false;
 static int g_trace_val = -1;
 
-static bool compile_x86(const Program& P, Compiled& out, bool annotate) {
-  if (g_trace) { fprintf(stderr, "--- compiling ---\n%s\n", serialise(P).c_str()); fflush(stderr); }
+// x86-32 programs are relocated to this fixed low address and executed through the far-call gate
+static const u32 G32_BASE = 0x08000000u, G32_SIZE = 4u << 20, G32_THUNK = 0x2000, G32_ENTRY = 0x2400, G32_EXIT = 0x2800, G32_CTX = 0x3000, G32_CODE = 0x10000;
+
+// Builds the programs as consecutive functions of ONE x86::Compiler / CodeHolder (one finalize), optionally sharing virtual registers between them.
+// On failure every `out` carries the error. x86-64: the functions are added to the JIT runtime as one block (outs[0]->base owns it).
+static bool compile_x86_multi(const std::vector<const Program*>& Ps, const std::vector<Compiled*>& outs, bool annotate, bool radebug, bool share_vregs) {
+  const Program& P0 = *Ps[0];
+  auto fail_all = [&](Error e, const std::string& msg, const char* stage) { for (Compiled* o : outs) { o->err = e; o->errmsg = msg; o->stage = stage; } return false; };
+  if (g_trace) for (const Program* P : Ps) { fprintf(stderr, "--- compiling ---\n%s\n", serialise(*P).c_str()); fflush(stderr); }
   CodeHolder code;
   ErrH eh;
   Error e;
-  if (P.arch == ARCH_X64) e = code.init(g_rt->environment(), g_rt->cpu_features());
-  else { Environment env(Arch::kX86); e = code.init(env, CpuInfo::host().features()); }
-  if (e != Error::kOk) { out.err = e; out.stage = "init"; return false; }
+  if (P0.arch == ARCH_X64) e = code.init(g_rt->environment(), g_rt->cpu_features());
+  else { Environment env(Arch::kX86); e = code.init(env, CpuInfo::host().features(), (u64)G32_BASE + G32_CODE); }
+  if (e != Error::kOk) return fail_all(e, "", "init");
   code.set_error_handler(&eh);
   FileLogger flog(stderr);
   if (g_trace) { flog.add_flags(FormatFlags::kMachineCode); code.set_logger(&flog); }
   x86::Compiler cc(&code);
   if (annotate) cc.add_diagnostic_options(DiagnosticOptions::kRAAnnotate);
-  X86Emitter em(cc, P);
-  em.build();
-  if (eh.err != Error::kOk) { out.err = eh.err; out.errmsg = eh.msg; out.stage = "emit"; return false; }
+  // a share of the programs is compiled the way a user debugs the allocator: every RA diagnostic option on, output into a logger
+  StringLogger dlog;
+  if (radebug) { cc.add_diagnostic_options(DiagnosticOptions::kRADebugAll); if (!g_trace) code.set_logger(&dlog); }
+  std::map<u32, std::vector<Reg>> pool;
+  std::vector<std::unique_ptr<X86Emitter>> ems;
+  for (const Program* P : Ps) {
+    ems.emplace_back(new X86Emitter(cc, *P));
+    if (share_vregs) ems.back()->pool = &pool;
+    ems.back()->build();
+    if (eh.err != Error::kOk) return fail_all(eh.err, eh.msg, "emit");
+  }
   e = cc.finalize();
-  if (e != Error::kOk || eh.err != Error::kOk) { out.err = e != Error::kOk ? e : eh.err; out.errmsg = eh.msg; out.stage = "finalize"; return false; }
-  out.st.user_insts = (int)em.recs.size();
-  collect_ra_stats(cc, em.recs, out.st);
-  out.code_size = code.code_size();
-  if (P.arch == ARCH_X64) {
-    e = g_rt->add(&out.fn, &code);
-    if (e != Error::kOk) { out.err = e; out.stage = "jit-add"; return false; }
+  if (e != Error::kOk || eh.err != Error::kOk) return fail_all(e != Error::kOk ? e : eh.err, eh.msg, "finalize");
+  for (size_t i = 0; i < Ps.size(); i++) {
+    Compiled& out = *outs[i];
+    X86Emitter& em = *ems[i];
+    out.st.user_insts = (int)em.recs.size();
+    BaseNode* from = Ps.size() > 1 ? (BaseNode*)em.func_node : nullptr;
+    BaseNode* to = (Ps.size() > 1 && i + 1 < Ps.size()) ? (BaseNode*)ems[i + 1]->func_node : nullptr;
+    collect_ra_stats(cc, em.recs, out.st, from, to);
+    out.code_size = code.code_size();
+    out.debug_log_bytes = dlog.data_size();
+  }
+  if (P0.arch == ARCH_X64) {
+    void* base = nullptr;
+    e = g_rt->add(&base, &code);
+    if (e != Error::kOk) return fail_all(e, "", "jit-add");
+    for (size_t i = 0; i < Ps.size(); i++) {
+      Compiled& out = *outs[i];
+      out.fn = (u8*)base + (Ps.size() > 1 ? code.label_offset(ems[i]->func_node->label()) : 0);
+      out.base = i == 0 ? base : nullptr;
+    }
   }
   else {
+    Compiled& out = *outs[0];
+    X86Emitter& em = *ems[0];
     code.flatten();
     code.resolve_cross_section_fixups();
+    e = code.relocate_to_base((u64)G32_BASE + G32_CODE);
+    if (e != Error::kOk) return fail_all(e, "", "relocate");
     const CodeBuffer& tb = code.text_section()->buffer();
     out.code.assign(tb.data(), tb.data() + tb.size());
     size_t end = tb.size();
@@ -3248,6 +4063,12 @@ static bool compile_x86(const Program& P, Compiled& out, bool annotate) {
     out.data_json = data_ranges_json(code, em.dranges);
   }
   return true;
+}
+
+static bool compile_x86(const Program& P, Compiled& out, bool annotate, bool radebug = false) {
+  std::vector<const Program*> ps(1, &P);
+  std::vector<Compiled*> os(1, &out);
+  return compile_x86_multi(ps, os, annotate, radebug, false);
 }
 
 // ---------------------------------------------------------------------------------------------------------------
@@ -3350,6 +4171,10 @@ static Verdict compare_results(const Program& P, const std::vector<RunInput>& in
     if (!s.done) {
       v.input = (int)k;
       char b[200];
+      if (eo.status == EX_UNSUPPORTED) { v.kind = 6; v.what = "executor: unsupported " + eo.note; return v; }
+      if (eo.status == EX_PRESERVED) { v.kind = 7; v.what = eo.note + " (input " + std::to_string(k) + ")"; return v; }
+      if (eo.status == EX_CRASH && !eo.note.empty()) { v.kind = 2; char ob[24]; snprintf(ob, sizeof ob, "0x%llx", (unsigned long long)eo.rip_off); v.what = "generated code faults: " + eo.note + " at code offset " + ob + " on input " + std::to_string(k); return v; }
+      if (eo.status == EX_HANG && !eo.note.empty()) { v.kind = 3; v.what = "generated code did not terminate (" + eo.note + ") on input " + std::to_string(k); return v; }
       if (eo.status == EX_HANG) { v.kind = 3; snprintf(b, sizeof b, "generated code did not terminate (CPU-time limit) on input %zu", k); }
       else if (eo.status == EX_OK) { v.kind = 5; snprintf(b, sizeof b, "no result recorded for input %zu although the child exited normally", k); }
       else { v.kind = 2; snprintf(b, sizeof b, "generated code crashed with signal %d at code offset 0x%llx (fault address 0x%llx) on input %zu", eo.sig,
@@ -3359,7 +4184,15 @@ static Verdict compare_results(const Program& P, const std::vector<RunInput>& in
     }
     const RunResult& e = ref[k];
     char b[256];
-    if ((s.ret & rm) != (e.ret & rm)) {
+    if (P.arch == ARCH_X64 && s.clobber) {
+      std::string names;
+      for (int i = 0; i < 6; i++) if (s.clobber & (1u << i)) names += std::string(" ") + kX64Preserved[i];
+      if (s.clobber & 64) names += " rsp";
+      v.kind = 7; v.input = (int)k; v.what = "registers the callee must preserve (rbx, rbp, r12-r15, rsp) differ after the return:" + names + " (input " + std::to_string(k) + ")";
+      return v;
+    }
+    bool st0_ret = P.arch == ARCH_X86 && P.retval >= 0 && P.vals[P.retval].kind == KIND_D;
+    if (st0_ret ? x87_quiet(s.ret) != x87_quiet(e.ret) : (s.ret & rm) != (e.ret & rm)) {
       snprintf(b, sizeof b, "return value differs on input %zu: expected %016llx got %016llx (mask %016llx)", k, (unsigned long long)(e.ret & rm),
                (unsigned long long)(s.ret & rm), (unsigned long long)rm);
       v.kind = 1; v.input = (int)k; v.what = b; return v;
@@ -3387,8 +4220,10 @@ static Verdict compare_results(const Program& P, const std::vector<RunInput>& in
   return v;
 }
 
-// runs one program on the inputs (own child process); used by the shrinker and the probes
-static Verdict check_program(const Program& P, const std::vector<RunInput>& inputs, Compiled& comp, Counters* ctr, bool annotate) {
+static Verdict check_program(const Program& P, const std::vector<RunInput>& inputs, Compiled& comp, Counters* ctr, bool annotate);
+
+// runs one x86-64 program on the inputs (own child process); used by the shrinker and the probes
+static Verdict check_program_x64(const Program& P, const std::vector<RunInput>& inputs, Compiled& comp, Counters* ctr, bool annotate) {
   Verdict v;
   std::vector<RunResult> ref;
   // reference results first: a program that is not well-defined is a harness error, never a violation
@@ -3401,7 +4236,7 @@ static Verdict check_program(const Program& P, const std::vector<RunInput>& inpu
   std::vector<ExecItem> items(1);
   items[0].fn = comp.fn; items[0].P = &P; items[0].inputs = &inputs;
   exec_native_batch(items);
-  g_rt->release(comp.fn);
+  if (comp.base) g_rt->release(comp.base);
   return compare_results(P, inputs, ref, items[0]);
 }
 
@@ -3545,15 +4380,42 @@ static const Profile& pick_profile_x64(u64 index) {
   return kProfilesX64[0];
 }
 
+// jecxz / loop only reach +-127 bytes: when the code the allocator inserts pushes their target out of range, finalize reports InvalidDisplacement.
+// That is an error return, not a wrong program - such compiles are counted as inconclusive.
+static bool has_short_range_branch(const Program& P) {
+  if (P.arch == ARCH_A64) return false;
+  for (const Block& b : P.blocks) if ((b.term.kind == T_BR || b.term.kind == T_DEC) && b.term.test == 2) return true;
+  return false;
+}
+
 static void count_program(Counters& c, const Program& P) {
   c.programs++;
   c.by_profile[P.profile]++;
   c.max_vals = std::max(c.max_vals, (int)P.vals.size());
   for (const Block& b : P.blocks) {
-    for (const Op& o : b.ops) c.ops_by_kind[kOpNames[o.opc]]++;
+    for (const Op& o : b.ops) {
+      c.ops_by_kind[kOpNames[o.opc]]++;
+      if (o.opc == O_CALL) {
+        const CalleeSig& sg = g_sigs[o.imm];
+        c.ops_by_kind[o.sub == 1 ? "call-target-in-register" : o.sub == 2 ? "call-target-in-memory" : "call-target-immediate"]++;
+        if (sg.conv == CV_MS) c.ops_by_kind["call-ms_abi-callee"]++;
+        if (sg.va) c.ops_by_kind["call-variadic-callee"]++;
+        if (sg.ret == RK_V128) c.ops_by_kind["call-vector-return"]++;
+        for (int k = 0; k < sg.n; k++) {
+          if (sg.kind[k] == AK_V128) c.ops_by_kind["call-vector-argument"]++;
+          else if (sg.kind[k] == AK_F32) c.ops_by_kind["call-float32-argument"]++;
+          else if (ak_int(sg.kind[k]) && o.args[k].t == S_REG && P.vals[o.args[k].v].size < ak_width(sg.kind[k]))
+            c.ops_by_kind[ak_signed(sg.kind[k]) && P.vals[o.args[k].v].sgn ? "call-stack-argument-sign-extended-from-narrower-register" : "call-stack-argument-zero-extended-from-narrower-register"]++;
+        }
+      }
+      if (o.opc == O_STR && o.flag) c.ops_by_kind["str-with-rep-prefix"]++;
+    }
     static const char* tk[] = { "fall", "jmp", "br", "dec-loop", "switch", "ret" };
     c.term_by_kind[tk[b.term.kind]]++;
     if (b.fuel) c.term_by_kind["fuel-check"]++;
+    if (b.term.kind == T_BR && b.term.test == 2) c.term_by_kind[P.arch == ARCH_A64 ? "br-cbz/cbnz" : "br-jecxz"]++;
+    if (b.term.kind == T_BR && b.term.test == 3) c.term_by_kind["br-tbz/tbnz"]++;
+    if (b.term.kind == T_DEC && b.term.test == 2) c.term_by_kind["dec-loop-instruction"]++;
   }
 }
 
@@ -3580,7 +4442,7 @@ static bool cfg_has_irreducible_hint(const Program& P) {
   return false;
 }
 
-struct ViolationOut { std::string key, what, witness; u64 index; int input; };
+struct ViolationOut { std::string key, what, witness; u64 index; int input; int count = 1; };
 static void add_violation(std::vector<ViolationOut>& viols, const std::string& key, const std::string& what, const std::string& witness, u64 index) {
   ViolationOut vo; vo.key = key; vo.what = what; vo.witness = witness; vo.index = index; vo.input = -1;
   viols.push_back(vo);
@@ -3656,11 +4518,15 @@ struct A64Emitter {
     int w = o.w < 4 ? 4 : o.w;
     switch (o.opc) {
       case O_MOV:
+        if (P.vals[o.d].ptr) { cc.add(g(o.d, 8), bufp, Imm(o.s.imm)); break; }   // pointer temporary: buffer address + offset
         if (o.s.t == S_REG) cc.mov(g(o.d, w), g(o.s.v, w));
         else if (o.s.t == S_IMM) cc.mov(g(o.d, w), Imm(w == 4 ? (i64)(u32)o.s.imm : o.s.imm));
         else cc.ldr(g(o.d, w), mem(o.s.m, w));
         break;
-      case O_STORE: cc.str(srcreg(o.s, w), mem(o.s2.m, w)); break;
+      case O_STORE:
+        if (o.s.t == S_REG && P.vals[o.s.v].ptr) { a64::Gp t = cc.new_gp64("po"); cc.sub(t, g(o.s.v, 8), bufp); cc.str(t, mem(o.s2.m, 8)); break; }   // observe a pointer as its offset
+        cc.str(srcreg(o.s, w), mem(o.s2.m, w));
+        break;
       case O_ALU: {
         a64::Gp d = g(o.d, w);
         if (o.s.t == S_IMM && (u64)o.s.imm < 4096 && o.sub <= A_SUB) { if (o.sub == A_ADD) cc.add(d, d, Imm(o.s.imm)); else cc.sub(d, d, Imm(o.s.imm)); break; }
@@ -3737,6 +4603,62 @@ struct A64Emitter {
         if (o.sub < 3) cc.shl(d.s4(), a.s4(), Imm(n)); else if (o.sub < 6) cc.ushr(d.s4(), a.s4(), Imm(n)); else cc.sshr(d.s4(), a.s4(), Imm(n));
         break;
       }
+      case O_ALD: case O_AST: {
+        bool load = o.opc == O_ALD;
+        int n = (int)o.args.size(), es = o.w2;
+        int total = (o.sub == 0 || o.sub == 1) ? 16 * n : n * es;
+        const MemRef& mr = load ? o.s.m : o.s2.m;
+        a64::Gp p;
+        if (o.b >= 0) p = g(o.b, 8);
+        else { p = cc.new_gp64("lp"); cc.add(p, bufp, Imm(mr.off)); }
+        a64::Mem m = o.flag == 0 ? a64::ptr(p) : o.flag == 1 ? a64::ptr_post(p, total) : a64::ptr_post(p, g(o.c, 8));
+        Operand ops[5];
+        for (int k = 0; k < n; k++) {
+          a64::Vec v = q(o.args[k].v);
+          if (o.sub == 3) ops[k] = es == 1 ? v.b(o.cc) : es == 2 ? v.h(o.cc) : es == 4 ? v.s(o.cc) : v.d(o.cc);
+          else ops[k] = es == 1 ? v.b16() : es == 2 ? v.h8() : es == 4 ? v.s4() : v.d2();
+        }
+        ops[n] = m;
+        static const InstId ldn[] = { a64::Inst::kIdLd1_v, a64::Inst::kIdLd2_v, a64::Inst::kIdLd3_v, a64::Inst::kIdLd4_v };
+        static const InstId ldr_[] = { a64::Inst::kIdLd1r_v, a64::Inst::kIdLd2r_v, a64::Inst::kIdLd3r_v, a64::Inst::kIdLd4r_v };
+        static const InstId stn[] = { a64::Inst::kIdSt1_v, a64::Inst::kIdSt2_v, a64::Inst::kIdSt3_v, a64::Inst::kIdSt4_v };
+        InstId id = o.sub == 1 ? (load ? ldn[0] : stn[0]) : o.sub == 2 ? ldr_[n - 1] : (load ? ldn[n - 1] : stn[n - 1]);
+        switch (n) {
+          case 1: cc.emit(id, ops[0], ops[1]); break;
+          case 2: cc.emit(id, ops[0], ops[1], ops[2]); break;
+          case 3: cc.emit(id, ops[0], ops[1], ops[2], ops[3]); break;
+          default: cc.emit(id, ops[0], ops[1], ops[2], ops[3], ops[4]); break;
+        }
+        if (o.d >= 0) cc.sub(g(o.d, 8), p, bufp);
+        break;
+      }
+      case O_ATBL: {
+        int n = (int)o.args.size();
+        Operand ops[6];
+        ops[0] = q(o.d).b16();
+        for (int k = 0; k < n; k++) ops[1 + k] = q(o.args[k].v).b16();
+        ops[1 + n] = q(o.a).b16();
+        InstId id = o.flag ? a64::Inst::kIdTbx_v : a64::Inst::kIdTbl_v;
+        switch (n) {
+          case 1: cc.emit(id, ops[0], ops[1], ops[2]); break;
+          case 2: cc.emit(id, ops[0], ops[1], ops[2], ops[3]); break;
+          case 3: cc.emit(id, ops[0], ops[1], ops[2], ops[3], ops[4]); break;
+          default: cc.emit(id, ops[0], ops[1], ops[2], ops[3], ops[4], ops[5]); break;
+        }
+        break;
+      }
+      case O_AMULE:
+        if (o.w2 == 2) cc.mul(q(o.d).h8(), q(o.a).h8(), q(o.b).h(o.cc)); else cc.mul(q(o.d).s4(), q(o.a).s4(), q(o.b).s(o.cc));
+        break;
+      case O_AIDX: {
+        bool isptr = P.vals[o.c].ptr != 0;
+        a64::Gp t = isptr ? g(o.c, 8) : cc.new_gp64("ip");
+        if (!isptr) cc.add(t, bufp, g(o.c, 8));
+        a64::Mem m = (o.flag & 2) ? a64::ptr_pre(t, (int32_t)o.imm) : a64::ptr_post(t, (int32_t)o.imm);
+        if (o.flag & 1) cc.str(g(o.a, w), m); else cc.ldr(g(o.d, w), m);
+        if (!isptr) cc.sub(g(o.c, 8), t, bufp);
+        break;
+      }
       case O_DFROMG: cc.fmov(dreg(o.d), g(o.a, 8)); break;
       case O_DTOG: cc.fmov(g(o.d, 8), dreg(o.a)); break;
       case O_DLOAD: cc.ldr(dreg(o.d), mem(o.s.m, 8)); break;
@@ -3763,7 +4685,7 @@ struct A64Emitter {
       default: break;
     }
     BaseNode* n = cc.cursor();
-    if (n && n->is_inst()) recs.push_back(NodeRec{ n, optypes_of(n->as<InstNode>()) });
+    if (n && n->is_inst()) recs.push_back(NodeRec{ n, optypes_of(n->as<InstNode>()), n->as<InstNode>()->inst_id() });
   }
 
   void emit_term(int bi) {
@@ -3772,7 +4694,17 @@ struct A64Emitter {
     switch (t.kind) {
       case T_FALL: break;
       case T_JMP: cc.b(labels[t.target]); break;
-      case T_BR: emit_cmp(t.a, t.s, w); cc.b(cond(t.cc), labels[t.target]); break;
+      case T_BR:
+        if (t.test == 2) { if (t.cc == CC_E) cc.cbz(g(t.a, w), labels[t.target]); else cc.cbnz(g(t.a, w), labels[t.target]); break; }
+        if (t.test == 3) {
+          // tbz / tbnz reach +-32 KiB only: branch to a b next to it
+          Label skip = cc.new_label();
+          u32 bit = (u32)(t.s.imm & (8 * w - 1));
+          if (t.cc == CC_E) cc.tbnz(g(t.a, w), Imm(bit), skip); else cc.tbz(g(t.a, w), Imm(bit), skip);
+          cc.b(labels[t.target]); cc.bind(skip);
+          break;
+        }
+        emit_cmp(t.a, t.s, w); cc.b(cond(t.cc), labels[t.target]); break;
       case T_DEC: cc.subs(g(t.a, w), g(t.a, w), Imm(1)); cc.b_ne(labels[t.target]); break;
       case T_SWITCH: {
         Table tb; tb.lab = cc.new_label(); tb.targets = t.targets;
@@ -3805,6 +4737,8 @@ struct A64Emitter {
     for (int i = 0; i < sc.nd; i++) sig.add_arg(TypeId::kFloat64);
     FuncNode* fn = cc.add_func(sig);
     if (!fn) return;
+    // known defect (probe a64-lr-live-across-call): values are kept in x30 across BLR; keep the allocator away from x30 so that the rest stays testable
+    if (g_avoid_fwd & 32768) fn->frame().add_unavailable_regs(RegGroup::kGp, Support::bit_mask<RegMask>(30u));
     bufp = cc.new_gp_ptr("buf");
     regs.resize(P.vals.size());
     for (size_t i = 0; i < P.vals.size(); i++) {
@@ -3889,6 +4823,987 @@ static const Profile kProfilesA64[] = {
   { "a64-jumptable", ARCH_A64, MODE_SSE, 6, 40,  0, 8,   0, 0, 0, 0,  3, 8,   8, 2, 0, 2, 1, 0, 0, 1,   4, 12, 10, 0 },
 };
 static const int kNProfilesA64 = sizeof(kProfilesA64) / sizeof(kProfilesA64[0]);
+
+// @@A64-SIM@@
+// ---------------------------------------------------------------------------------------------------------------
+// AArch64 executor (harness code, written from the Arm ARM, independent of AsmJit): interprets the ENCODED bytes of a
+// compiled function (prolog, allocator-inserted loads/saves/moves, call lowering, epilog included) over a small
+// machine state. Helper calls (blr/bl into the fake callee range) are intercepted: arguments are read per AAPCS64,
+// logged, and every caller-saved register is overwritten. An instruction outside the implemented subset makes the
+// run INCONCLUSIVE (counted), never a violation.
+// ---------------------------------------------------------------------------------------------------------------
+
+struct A64Sim {
+  enum { ST_RUN = 0, ST_DONE, ST_FAULT, ST_UNSUPPORTED, ST_LIMIT };
+  static constexpr u64 CODE_BASE = 0x40000000ull, BUF_BASE = 0x10000000ull, STACK_TOP = 0x80000000ull, STACK_SIZE = 1u << 18;
+  static constexpr u64 CALLEE_BASE = 0x100000ull, RET_SENTINEL = 0xDEAD0000ull;
+
+  u64 x[32];
+  u64 sp = 0, pc = 0;
+  bool fn = false, fz = false, fc = false, fv = false;
+  u8 q[32][16];
+  const u8* code = nullptr; size_t code_size = 0;
+  u8* buf = nullptr; size_t buf_size = 0;
+  std::vector<u8> stack;
+  int status = ST_RUN;
+  std::string msg;
+  u64 steps = 0, fault_pc = 0;
+  CallRec* log = nullptr; u32 logcap = 0; u32 ncalls = 0;
+  std::map<std::string, u64>* classes = nullptr;   // executed instruction classes (evidence)
+
+  A64Sim() : stack(STACK_SIZE, 0xCD) { memset(x, 0, sizeof x); memset(q, 0, sizeof q); }
+
+  void stop(int st, const std::string& m) { if (status == ST_RUN) { status = st; msg = m; fault_pc = pc; } }
+  void cls(const char* c) { if (classes) (*classes)[c]++; }
+
+  u8* mem(u64 addr, size_t n, bool write) {
+    if (addr >= BUF_BASE && addr + n <= BUF_BASE + buf_size) return buf + (addr - BUF_BASE);
+    if (addr >= STACK_TOP - STACK_SIZE && addr + n <= STACK_TOP) return stack.data() + (addr - (STACK_TOP - STACK_SIZE));
+    if (!write && addr >= CODE_BASE && addr + n <= CODE_BASE + code_size) return (u8*)code + (addr - CODE_BASE);
+    char b[96]; snprintf(b, sizeof b, "%s of %zu bytes at unmapped address 0x%llx", write ? "store" : "load", n, (unsigned long long)addr);
+    stop(ST_FAULT, b);
+    return nullptr;
+  }
+  u64 ld(u64 addr, int n) { u8* p = mem(addr, n, false); u64 v = 0; if (p) memcpy(&v, p, n); return v; }
+  void st(u64 addr, int n, u64 v) { u8* p = mem(addr, n, true); if (p) memcpy(p, &v, n); }
+
+  // register accessors: r == 31 is ZR unless sp_ok
+  u64 R(int r, bool sf, bool sp_ok = false) const { u64 v = r == 31 ? (sp_ok ? sp : 0) : x[r]; return sf ? v : (v & 0xFFFFFFFFull); }
+  void W(int r, bool sf, u64 v, bool sp_ok = false) {
+    if (!sf) v &= 0xFFFFFFFFull;
+    if (r == 31) { if (sp_ok) sp = v; return; }
+    x[r] = v;
+  }
+  u64 base(int rn) {
+    if (rn == 31) { if (sp & 15) stop(ST_FAULT, "stack pointer not 16-byte aligned when used as a base register"); return sp; }
+    return x[rn];
+  }
+
+  static u64 ror(u64 v, unsigned n, unsigned bits) { n %= bits; u64 m = bits == 64 ? ~0ull : ((1ull << bits) - 1); v &= m; return n ? ((v >> n) | (v << (bits - n))) & m : v; }
+  static u64 ones(unsigned n) { return n >= 64 ? ~0ull : ((1ull << n) - 1); }
+  static i64 sx(u64 v, unsigned bits) { return bits >= 64 ? (i64)v : (i64)(v << (64 - bits)) >> (64 - bits); }
+
+  // DecodeBitMasks (logical immediates / bitfield masks)
+  static bool decode_bit_masks(unsigned N, unsigned imms, unsigned immr, bool immediate, unsigned M, u64& wmask, u64& tmask) {
+    int len = -1;
+    unsigned v = (N << 6) | (~imms & 0x3F);
+    for (int i = 6; i >= 0; i--) if (v & (1u << i)) { len = i; break; }
+    if (len < 1) return false;
+    if (M < (1u << len)) return false;
+    unsigned levels = (1u << len) - 1;
+    if (immediate && (imms & levels) == levels) return false;
+    unsigned S = imms & levels, Rr = immr & levels;
+    unsigned diff = (S - Rr) & levels;
+    unsigned esize = 1u << len;
+    unsigned d = diff & levels;
+    u64 welem = ones(S + 1), telem = ones(d + 1);
+    u64 wr = ror(welem, Rr, esize);
+    wmask = 0; tmask = 0;
+    for (unsigned i = 0; i < M; i += esize) { wmask |= wr << i; tmask |= telem << i; }
+    if (M < 64) { wmask &= ones(M); tmask &= ones(M); }
+    return true;
+  }
+
+  u64 add_with_carry(u64 a, u64 b, bool cin, bool sf, bool setflags) {
+    unsigned bits = sf ? 64 : 32;
+    u64 m = ones(bits);
+    a &= m; b &= m;
+    u128 us = (u128)a + (u128)b + (cin ? 1 : 0);
+    i128 ss = (i128)sx(a, bits) + (i128)sx(b, bits) + (cin ? 1 : 0);
+    u64 r = (u64)us & m;
+    if (setflags) {
+      fn = (r >> (bits - 1)) & 1; fz = r == 0;
+      fc = (us >> bits) != 0;
+      fv = (i128)sx(r, bits) != ss;
+    }
+    return r;
+  }
+
+  bool cond_holds(unsigned c) const {
+    bool r;
+    switch (c >> 1) {
+      case 0: r = fz; break;
+      case 1: r = fc; break;
+      case 2: r = fn; break;
+      case 3: r = fv; break;
+      case 4: r = fc && !fz; break;
+      case 5: r = fn == fv; break;
+      case 6: r = fn == fv && !fz; break;
+      default: r = true; break;
+    }
+    if ((c & 1) && c != 15) r = !r;
+    return r;
+  }
+
+  static u64 shift_reg(u64 v, unsigned type, unsigned amt, bool sf) {
+    unsigned bits = sf ? 64 : 32;
+    v &= ones(bits);
+    amt %= bits;
+    switch (type) {
+      case 0: return (v << amt) & ones(bits);
+      case 1: return v >> amt;
+      case 2: return (u64)(sx(v, bits) >> amt) & ones(bits);
+      default: return ror(v, amt, bits);
+    }
+  }
+  static u64 extend_reg(u64 v, unsigned option, unsigned shift) {
+    switch (option) {
+      case 0: v &= 0xFF; break;
+      case 1: v &= 0xFFFF; break;
+      case 2: v &= 0xFFFFFFFFull; break;
+      case 3: break;
+      case 4: v = (u64)sx(v, 8); break;
+      case 5: v = (u64)sx(v, 16); break;
+      case 6: v = (u64)sx(v, 32); break;
+      default: break;
+    }
+    return v << shift;
+  }
+
+  // ---- helper callees ----
+  void do_callee(u32 id) {
+    if (id >= (u32)NCALLEE) { stop(ST_FAULT, "call to an address that is no helper"); return; }
+    const CalleeSig& sg = g_sigs[id];
+    u64 a[MAXARGS];
+    int ni = 0, nd = 0; u64 nsaa = sp;
+    if (sp & 15) { stop(ST_FAULT, "stack pointer not 16-byte aligned at a call"); return; }
+    for (int k = 0; k < sg.n; k++) {
+      u64 v;
+      if (sg.kind[k] == AK_F64) {
+        if (nd < 8) memcpy(&v, q[nd++], 8); else { v = ld(nsaa, 8); nsaa += 8; }
+      }
+      else {
+        if (ni < 8) v = x[ni++]; else { v = ld(nsaa, 8); nsaa += 8; }
+        switch (sg.kind[k]) {
+          case AK_U8: v &= 0xFF; break;
+          case AK_U16: v &= 0xFFFF; break;
+          case AK_U32: v &= 0xFFFFFFFFull; break;
+          default: break;
+        }
+      }
+      a[k] = v;
+    }
+    if (status != ST_RUN) return;
+    if (log && ncalls < logcap) {
+      CallRec& r = log[ncalls];
+      r.callee = id; r.n = sg.n;
+      for (int k = 0; k < MAXARGS; k++) r.a[k] = k < sg.n ? a[k] : 0;
+    }
+    ncalls++;
+    u64 res = callee_result(id, sg.n, a);
+    // every caller-saved register is overwritten (AAPCS64: x0-x17, v0-v7, v16-v31, bits 64..127 of v8-v15, NZCV)
+    const u64 junk = 0x5A5AA5A5C3C33C3Cull;
+    for (int i = 0; i <= 17; i++) x[i] = junk + (u64)i;
+    for (int i = 0; i < 32; i++) {
+      if (i >= 8 && i <= 15) memset(q[i] + 8, 0xA5, 8);
+      else memset(q[i], 0xA5, 16);
+    }
+    fn = true; fz = false; fc = true; fv = true;
+    if (sg.ret == RK_F64) memcpy(q[0], &res, 8);
+    else if (sg.ret != RK_VOID) x[0] = res;   // RK_U32: the bits above bit 31 are junk (legal)
+  }
+
+  // ---- SIMD helpers ----
+  static u64 elem(const u8* r, int i, int es) { u64 v = 0; memcpy(&v, r + i * es, es); return v; }
+  static void set_elem(u8* r, int i, int es, u64 v) { memcpy(r + i * es, &v, es); }
+
+  void step() {
+    if (pc == RET_SENTINEL) { status = ST_DONE; return; }
+    if (pc >= CALLEE_BASE && pc < CALLEE_BASE + 64ull * NCALLEE && (pc & 63) == 0) {
+      do_callee((u32)((pc - CALLEE_BASE) / 64));
+      pc = x[30];
+      cls("helper-call");
+      return;
+    }
+    if (pc < CODE_BASE || pc + 4 > CODE_BASE + code_size || (pc & 3)) { char b[80]; snprintf(b, sizeof b, "jump to 0x%llx outside the function", (unsigned long long)pc); stop(ST_FAULT, b); return; }
+    u32 w; memcpy(&w, code + (pc - CODE_BASE), 4);
+    u64 next = pc + 4;
+    steps++;
+    auto bits = [&](int hi, int lo) -> u32 { return (w >> lo) & ((1u << (hi - lo + 1)) - 1); };
+    auto unsupported = [&]() { char b[64]; snprintf(b, sizeof b, "instruction word %08x at offset 0x%llx", w, (unsigned long long)(pc - CODE_BASE)); stop(ST_UNSUPPORTED, b); };
+    const bool sf = (w >> 31) & 1;
+    const int rd = (int)bits(4, 0), rn = (int)bits(9, 5), rm = (int)bits(20, 16);
+    u32 op0 = bits(28, 25);
+
+    if (w == 0xD503201Fu || (w & 0xFFFFFF3Fu) == 0xD503241Fu) { cls("nop/bti"); pc = next; return; }
+    if (w == 0) { stop(ST_FAULT, "udf #0 executed (execution fell into data embedded in the function)"); return; }
+
+    if ((op0 & 0xE) == 0x8) {
+      // ---------------- data processing - immediate ----------------
+      u32 k = bits(25, 23);
+      if (k <= 1) {  // adr / adrp
+        i64 imm = sx(((u64)bits(23, 5) << 2) | bits(30, 29), 21);
+        if (sf) W(rd, true, (pc & ~0xFFFull) + (u64)(imm << 12)); else W(rd, true, pc + (u64)imm);
+        cls("adr");
+      }
+      else if (k == 2) {  // add/sub immediate
+        bool op = (w >> 30) & 1, S = (w >> 29) & 1;
+        u64 imm = bits(21, 10); if (bits(22, 22)) imm <<= 12;
+        u64 a = R(rn, sf, true);
+        u64 r = op ? add_with_carry(a, ~imm, true, sf, S) : add_with_carry(a, imm, false, sf, S);
+        W(rd, sf, r, !S);
+        cls(S ? "adds/subs-imm" : "add/sub-imm");
+      }
+      else if (k == 4) {  // logical immediate
+        u32 opc = bits(30, 29);
+        u64 wm, tm;
+        if (!sf && bits(22, 22)) { unsupported(); return; }
+        if (!decode_bit_masks(bits(22, 22), bits(15, 10), bits(21, 16), true, sf ? 64 : 32, wm, tm)) { unsupported(); return; }
+        u64 a = R(rn, sf), r;
+        switch (opc) { case 0: r = a & wm; break; case 1: r = a | wm; break; case 2: r = a ^ wm; break; default: r = a & wm; break; }
+        if (opc == 3) { unsigned b = sf ? 64 : 32; r &= ones(b); fn = (r >> (b - 1)) & 1; fz = r == 0; fc = fv = false; }
+        W(rd, sf, r, opc != 3);
+        cls("logical-imm");
+      }
+      else if (k == 5) {  // move wide
+        u32 opc = bits(30, 29), hw = bits(22, 21);
+        u64 imm = (u64)bits(20, 5) << (16 * hw);
+        if (!sf && hw > 1) { unsupported(); return; }
+        if (opc == 0) W(rd, sf, ~imm);
+        else if (opc == 2) W(rd, sf, imm);
+        else if (opc == 3) W(rd, sf, (R(rd, sf) & ~(0xFFFFull << (16 * hw))) | imm);
+        else { unsupported(); return; }
+        cls("movz/movn/movk");
+      }
+      else if (k == 6) {  // bitfield
+        u32 opc = bits(30, 29), N = bits(22, 22), immr = bits(21, 16), imms = bits(15, 10);
+        if (N != (u32)sf || opc == 3) { unsupported(); return; }
+        u64 wm, tm;
+        unsigned M = sf ? 64 : 32;
+        if (!decode_bit_masks(N, imms, immr, false, M, wm, tm)) { unsupported(); return; }
+        u64 src = R(rn, sf), dst = opc == 1 ? R(rd, sf) : 0;
+        u64 bot = (dst & ~wm) | (ror(src, immr, M) & wm);
+        u64 r;
+        if (opc == 0) { u64 top = ((src >> imms) & 1) ? ones(M) : 0; r = (top & ~tm) | (bot & tm); }
+        else if (opc == 1) r = (dst & ~tm) | (bot & tm);
+        else r = bot & tm;
+        W(rd, sf, r);
+        cls("bitfield");
+      }
+      else if (k == 7) {  // extr
+        if (bits(30, 29) != 0 || bits(21, 21) || bits(22, 22) != (u32)sf) { unsupported(); return; }
+        unsigned M = sf ? 64 : 32, lsb = bits(15, 10);
+        if (lsb >= M) { unsupported(); return; }
+        u64 hi = R(rn, sf), lo = R(rm, sf);
+        u64 r = lsb ? ((lo >> lsb) | (hi << (M - lsb))) : lo;
+        W(rd, sf, r);
+        cls("extr");
+      }
+      else { unsupported(); return; }
+      pc = next; return;
+    }
+
+    if ((op0 & 0xE) == 0xA) {
+      // ---------------- branches, system ----------------
+      if ((w & 0x7C000000u) == 0x14000000u) {  // b / bl
+        i64 off = sx(bits(25, 0), 26) * 4;
+        if (w >> 31) x[30] = next;
+        pc = pc + (u64)off; cls(w >> 31 ? "bl" : "b"); return;
+      }
+      if ((w & 0xFF000010u) == 0x54000000u) {  // b.cond
+        i64 off = sx(bits(23, 5), 19) * 4;
+        pc = cond_holds(bits(3, 0)) ? pc + (u64)off : next; cls("b.cond"); return;
+      }
+      if ((w & 0x7E000000u) == 0x34000000u) {  // cbz / cbnz
+        i64 off = sx(bits(23, 5), 19) * 4;
+        bool zero = R(rd, sf) == 0;
+        bool nz = (w >> 24) & 1;
+        pc = (zero != nz) ? pc + (u64)off : next; cls("cbz/cbnz"); return;
+      }
+      if ((w & 0x7E000000u) == 0x36000000u) {  // tbz / tbnz
+        i64 off = sx(bits(18, 5), 14) * 4;
+        unsigned bit = (bits(31, 31) << 5) | bits(23, 19);
+        bool set = (R(rd, true) >> bit) & 1;
+        bool nz = (w >> 24) & 1;
+        pc = (set == nz) ? pc + (u64)off : next; cls("tbz/tbnz"); return;
+      }
+      if ((w & 0xFFFFFC1Fu) == 0xD61F0000u) { pc = R(rn, true); cls("br"); return; }
+      if ((w & 0xFFFFFC1Fu) == 0xD63F0000u) { u64 t = R(rn, true); x[30] = next; pc = t; cls("blr"); return; }
+      if ((w & 0xFFFFFC1Fu) == 0xD65F0000u) { pc = R(rn, true); cls("ret"); return; }
+      unsupported(); return;
+    }
+
+    if ((op0 & 0x5) == 0x4) {
+      // ---------------- loads and stores ----------------
+      bool V = (w >> 26) & 1;
+      u32 cls27 = bits(29, 27);
+      if (cls27 == 5) {  // load/store pair
+        u32 opc = bits(31, 30), idx = bits(24, 23); bool L = (w >> 22) & 1;
+        int rt = rd, rt2 = (int)bits(14, 10);
+        int size;  // bytes per register
+        bool sign = false;
+        if (V) { if (opc == 3) { unsupported(); return; } size = 4 << opc; }
+        else { if (opc == 3) { unsupported(); return; } if (opc == 1) { if (!L) { unsupported(); return; } sign = true; size = 4; } else size = opc == 2 ? 8 : 4; }
+        if (idx == 0) { unsupported(); return; }
+        i64 off = sx(bits(21, 15), 7) * size;
+        u64 b = base(rn); if (status != ST_RUN) return;
+        u64 addr = idx == 1 ? b : b + (u64)off;
+        if (L) {
+          if (V) {
+            u8* p0 = mem(addr, size, false); u8* p1 = mem(addr + size, size, false); if (!p0 || !p1) return;
+            u8 t0[16], t1[16]; memcpy(t0, p0, size); memcpy(t1, p1, size);
+            memset(q[rt], 0, 16); memset(q[rt2], 0, 16); memcpy(q[rt], t0, size); memcpy(q[rt2], t1, size);
+          }
+          else {
+            u64 v0 = ld(addr, size), v1 = ld(addr + size, size); if (status != ST_RUN) return;
+            if (sign) { v0 = (u64)sx(v0, 32); v1 = (u64)sx(v1, 32); }
+            W(rt, true, v0); W(rt2, true, v1);
+          }
+        }
+        else {
+          if (V) { u8* p0 = mem(addr, size, true); u8* p1 = mem(addr + size, size, true); if (!p0 || !p1) return; memcpy(p0, q[rt], size); memcpy(p1, q[rt2], size); }
+          else { st(addr, size, R(rt, true)); st(addr + size, size, R(rt2, true)); if (status != ST_RUN) return; }
+        }
+        if (idx == 1 || idx == 3) { u64 nb = b + (u64)off; if (rn == 31) sp = nb; else x[rn] = nb; }
+        cls(V ? (L ? "ldp-vec" : "stp-vec") : (L ? "ldp" : "stp"));
+        pc = next; return;
+      }
+      if (cls27 == 7) {  // load/store register (all single-register forms)
+        u32 size = bits(31, 30), opc = bits(23, 22);
+        int rt = rd;
+        int nbytes; bool load, sign = false, to32 = false;
+        if (V) {
+          if (opc & 2) { if (size != 0) { unsupported(); return; } nbytes = 16; } else nbytes = 1 << size;
+          load = opc & 1;
+        }
+        else {
+          nbytes = 1 << size;
+          if (opc == 0) load = false;
+          else if (opc == 1) load = true;
+          else { if (size == 3) { unsupported(); return; } if (size == 2 && opc == 3) { unsupported(); return; } load = true; sign = true; to32 = opc == 3; }
+        }
+        u64 addr; bool wb = false; u64 wbv = 0;
+        u64 b = base(rn); if (status != ST_RUN) return;
+        const char* form;
+        if ((w >> 24) & 1) { addr = b + (u64)bits(21, 10) * (u64)nbytes; form = "uimm"; }
+        else if (!((w >> 21) & 1)) {
+          i64 off = sx(bits(20, 12), 9);
+          u32 m = bits(11, 10);
+          if (m == 0) { addr = b + (u64)off; form = "unscaled"; }
+          else if (m == 1) { addr = b; wb = true; wbv = b + (u64)off; form = "post"; }
+          else if (m == 3) { addr = b + (u64)off; wb = true; wbv = addr; form = "pre"; }
+          else { unsupported(); return; }
+        }
+        else {
+          if (bits(11, 10) != 2) { unsupported(); return; }
+          u32 option = bits(15, 13); bool S = (w >> 12) & 1;
+          if (!(option & 2)) { unsupported(); return; }
+          unsigned sh = S ? (unsigned)__builtin_ctz(nbytes) : 0;
+          addr = b + extend_reg(R(rm, true), option, sh); form = "regoff";
+        }
+        if (load) {
+          if (V) { u8* p = mem(addr, nbytes, false); if (!p) return; u8 t[16]; memcpy(t, p, nbytes); memset(q[rt], 0, 16); memcpy(q[rt], t, nbytes); }
+          else {
+            u64 v = ld(addr, nbytes); if (status != ST_RUN) return;
+            if (sign) { v = (u64)sx(v, 8 * nbytes); if (to32) v &= 0xFFFFFFFFull; }
+            if (rt != 31) x[rt] = v;   // loads narrower than 64 bits clear the upper bits
+          }
+        }
+        else {
+          if (V) { u8* p = mem(addr, nbytes, true); if (!p) return; memcpy(p, q[rt], nbytes); }
+          else { st(addr, nbytes, R(rt, true)); if (status != ST_RUN) return; }
+        }
+        if (wb) { if (rn == 31) sp = wbv; else x[rn] = wbv; }
+        if (classes) (*classes)[std::string(V ? (load ? "ldr-vec-" : "str-vec-") : (load ? "ldr-" : "str-")) + form]++;
+        pc = next; return;
+      }
+      if (cls27 == 3 && !V && bits(25, 24) == 0) {  // load register (literal)
+        u32 opc = bits(31, 30);
+        i64 off = sx(bits(23, 5), 19) * 4;
+        if (opc == 3) { unsupported(); return; }
+        int nbytes = opc == 0 ? 4 : opc == 1 ? 8 : 4;
+        u64 v = ld(pc + (u64)off, nbytes); if (status != ST_RUN) return;
+        if (opc == 2) v = (u64)sx(v, 32);
+        W(rd, true, v); cls("ldr-literal"); pc = next; return;
+      }
+      if (cls27 == 1 && V && !(w >> 31)) {  // AdvSIMD load/store structures
+        bool Q = (w >> 30) & 1, L = (w >> 22) & 1;
+        bool single = (w >> 24) & 1, post = (w >> 23) & 1;
+        u64 b = base(rn); if (status != ST_RUN) return;
+        u64 offs = 0;
+        int t = rd;
+        if (!single) {
+          if (bits(21, 21) || (!post && bits(20, 16))) { unsupported(); return; }
+          u32 opcode = bits(15, 12), size = bits(11, 10);
+          int rpt, selem;
+          switch (opcode) {
+            case 0: rpt = 1; selem = 4; break; case 2: rpt = 4; selem = 1; break; case 4: rpt = 1; selem = 3; break; case 6: rpt = 3; selem = 1; break;
+            case 7: rpt = 1; selem = 1; break; case 8: rpt = 1; selem = 2; break; case 10: rpt = 2; selem = 1; break;
+            default: unsupported(); return;
+          }
+          int ebytes = 1 << size, datasize = Q ? 16 : 8, elements = datasize / ebytes;
+          if (size == 3 && !Q && selem != 1) { unsupported(); return; }
+          u8 tmp[4][16];
+          for (int i = 0; i < 4; i++) memcpy(tmp[i], q[(t + i) % 32], 16);
+          for (int r = 0; r < rpt; r++)
+            for (int e = 0; e < elements; e++) {
+              int tt = r;
+              for (int s = 0; s < selem; s++) {
+                if (L) { u64 v = ld(b + offs, ebytes); if (status != ST_RUN) return; set_elem(tmp[tt], e, ebytes, v); }
+                else { st(b + offs, ebytes, elem(tmp[tt], e, ebytes)); if (status != ST_RUN) return; }
+                offs += ebytes; tt++;
+              }
+            }
+          if (L) for (int i = 0; i < rpt * selem; i++) { if (!Q) memset(tmp[i] + 8, 0, 8); memcpy(q[(t + i) % 32], tmp[i], 16); }
+          if (classes) { char nm[40]; snprintf(nm, sizeof nm, "%s%d-multi-%dreg%s", L ? "ld" : "st", selem, rpt * selem, post ? "-post" : ""); (*classes)[nm]++; }
+        }
+        else {
+          bool Rb = (w >> 21) & 1; bool S = (w >> 12) & 1;
+          u32 opcode = bits(15, 13), size = bits(11, 10);
+          if (!post && bits(20, 16)) { unsupported(); return; }
+          int scale = (int)(opcode >> 1), selem = (int)(((opcode & 1) << 1) | (Rb ? 1 : 0)) + 1;
+          bool replicate = false; int index = 0;
+          switch (scale) {
+            case 3: if (!L || S) { unsupported(); return; } scale = (int)size; replicate = true; break;
+            case 0: index = (int)((Q << 3) | (S << 2) | size); break;
+            case 1: if (size & 1) { unsupported(); return; } index = (int)((Q << 2) | (S << 1) | (size >> 1)); break;
+            default:
+              if (size & 2) { unsupported(); return; }
+              if (!(size & 1)) index = (int)((Q << 1) | S);
+              else { if (S) { unsupported(); return; } index = Q; scale = 3; }
+              break;
+          }
+          int ebytes = 1 << scale;
+          for (int s = 0; s < selem; s++) {
+            int tt = (t + s) % 32;
+            if (replicate) {
+              u64 v = ld(b + offs, ebytes); if (status != ST_RUN) return;
+              u8 tmp[16]; memset(tmp, 0, 16);
+              for (int e = 0; e < (Q ? 16 : 8) / ebytes; e++) set_elem(tmp, e, ebytes, v);
+              memcpy(q[tt], tmp, 16);
+            }
+            else if (L) { u64 v = ld(b + offs, ebytes); if (status != ST_RUN) return; set_elem(q[tt], index, ebytes, v); }
+            else { st(b + offs, ebytes, elem(q[tt], index, ebytes)); if (status != ST_RUN) return; }
+            offs += ebytes;
+          }
+          if (classes) { char nm[40]; snprintf(nm, sizeof nm, "%s%d%s%s", L ? "ld" : "st", selem, replicate ? "r" : "-lane", post ? "-post" : ""); (*classes)[nm]++; }
+        }
+        if (post) { u64 nb = b + (rm == 31 ? offs : x[rm]); if (rn == 31) sp = nb; else x[rn] = nb; }
+        pc = next; return;
+      }
+      unsupported(); return;
+    }
+
+    if ((op0 & 0x7) == 0x5) {
+      // ---------------- data processing - register ----------------
+      bool op1 = (w >> 28) & 1;
+      u32 op2 = bits(24, 21);
+      if (!op1) {
+        if (!(op2 & 8)) {  // logical shifted register
+          u32 opc = bits(30, 29), sh = bits(23, 22), N = bits(21, 21), imm6 = bits(15, 10);
+          if (!sf && imm6 > 31) { unsupported(); return; }
+          u64 b = shift_reg(R(rm, sf), sh, imm6, sf);
+          if (N) b = ~b;
+          u64 a = R(rn, sf), r;
+          switch (opc) { case 0: r = a & b; break; case 1: r = a | b; break; case 2: r = a ^ b; break; default: r = a & b; break; }
+          if (opc == 3) { unsigned bb = sf ? 64 : 32; r &= ones(bb); fn = (r >> (bb - 1)) & 1; fz = r == 0; fc = fv = false; }
+          W(rd, sf, r);
+          cls("logical-reg");
+        }
+        else if (!(op2 & 1)) {  // add/sub shifted register
+          bool op = (w >> 30) & 1, S = (w >> 29) & 1;
+          u32 sh = bits(23, 22), imm6 = bits(15, 10);
+          if (sh == 3 || (!sf && imm6 > 31)) { unsupported(); return; }
+          u64 b = shift_reg(R(rm, sf), sh, imm6, sf);
+          u64 r = op ? add_with_carry(R(rn, sf), ~b, true, sf, S) : add_with_carry(R(rn, sf), b, false, sf, S);
+          W(rd, sf, r);
+          cls(S ? "adds/subs-reg" : "add/sub-reg");
+        }
+        else {  // add/sub extended register
+          bool op = (w >> 30) & 1, S = (w >> 29) & 1;
+          u32 option = bits(15, 13), imm3 = bits(12, 10);
+          if (bits(23, 22) || imm3 > 4) { unsupported(); return; }
+          u64 b = extend_reg(R(rm, true), option, imm3);
+          u64 a = R(rn, sf, true);
+          u64 r = op ? add_with_carry(a, ~b, true, sf, S) : add_with_carry(a, b, false, sf, S);
+          W(rd, sf, r, !S);
+          cls("add/sub-ext");
+        }
+        pc = next; return;
+      }
+      if (op2 == 0 && bits(15, 10) == 0) {  // adc / sbc
+        bool op = (w >> 30) & 1, S = (w >> 29) & 1;
+        u64 b = R(rm, sf); if (op) b = ~b;
+        W(rd, sf, add_with_carry(R(rn, sf), b, fc, sf, S));
+        cls("adc/sbc"); pc = next; return;
+      }
+      if (op2 == 4 && !((w >> 29) & 1) && !(bits(11, 10) & 2)) {  // conditional select
+        bool op = (w >> 30) & 1; bool o2 = (w >> 10) & 1;
+        u64 r;
+        if (cond_holds(bits(15, 12))) r = R(rn, sf);
+        else { r = R(rm, sf); if (op) r = ~r; if (o2) r = r + 1; }
+        W(rd, sf, r);
+        cls("csel/csinc/csinv/csneg"); pc = next; return;
+      }
+      if (op2 == 6) {
+        if (!((w >> 30) & 1)) {  // 2 source
+          u32 opcode = bits(15, 10);
+          if ((w >> 29) & 1) { unsupported(); return; }
+          unsigned M = sf ? 64 : 32;
+          u64 a = R(rn, sf), b = R(rm, sf), r;
+          switch (opcode) {
+            case 2: r = b ? a / b : 0; break;
+            case 3: { i64 sa = sx(a, M), sb = sx(b, M); r = sb == 0 ? 0 : (sb == -1 ? (u64)(0 - (u64)sa) : (u64)(sa / sb)); break; }
+            case 8: r = shift_reg(a, 0, (unsigned)(b % M), sf); break;
+            case 9: r = shift_reg(a, 1, (unsigned)(b % M), sf); break;
+            case 10: r = shift_reg(a, 2, (unsigned)(b % M), sf); break;
+            case 11: r = shift_reg(a, 3, (unsigned)(b % M), sf); break;
+            default: unsupported(); return;
+          }
+          W(rd, sf, r);
+          cls(opcode < 8 ? "udiv/sdiv" : "shift-variable"); pc = next; return;
+        }
+        else {  // 1 source
+          u32 opcode = bits(15, 10);
+          if (rm != 0 || ((w >> 29) & 1)) { unsupported(); return; }
+          unsigned M = sf ? 64 : 32;
+          u64 a = R(rn, sf), r;
+          switch (opcode) {
+            case 0: { r = 0; for (unsigned i = 0; i < M; i++) if ((a >> i) & 1) r |= 1ull << (M - 1 - i); break; }
+            case 2: if (sf) { r = ((u64)__builtin_bswap32((u32)a)) | ((u64)__builtin_bswap32((u32)(a >> 32)) << 32); } else r = __builtin_bswap32((u32)a); break;
+            case 3: if (!sf) { unsupported(); return; } r = __builtin_bswap64(a); break;
+            case 4: r = a ? (u64)(__builtin_clzll(a) - (64 - M)) : M; break;
+            default: unsupported(); return;
+          }
+          W(rd, sf, r);
+          cls("rbit/rev/clz"); pc = next; return;
+        }
+      }
+      if (op2 & 8) {  // 3 source
+        u32 op31 = bits(23, 21); bool o0 = (w >> 15) & 1; int ra = (int)bits(14, 10);
+        if (bits(30, 29)) { unsupported(); return; }
+        u64 r;
+        if (op31 == 0) { u64 p = R(rn, sf) * R(rm, sf); r = o0 ? R(ra, sf) - p : R(ra, sf) + p; }
+        else if (!sf) { unsupported(); return; }
+        else if (op31 == 1) { i64 p = (i64)(i32)R(rn, false) * (i64)(i32)R(rm, false); r = o0 ? R(ra, true) - (u64)p : R(ra, true) + (u64)p; }
+        else if (op31 == 5) { u64 p = (R(rn, false)) * (R(rm, false)); r = o0 ? R(ra, true) - p : R(ra, true) + p; }
+        else if (op31 == 2 && !o0) { r = (u64)(((i128)(i64)R(rn, true) * (i128)(i64)R(rm, true)) >> 64); }
+        else if (op31 == 6 && !o0) { r = (u64)(((u128)R(rn, true) * (u128)R(rm, true)) >> 64); }
+        else { unsupported(); return; }
+        W(rd, sf, r);
+        cls("madd/msub/mulh"); pc = next; return;
+      }
+      unsupported(); return;
+    }
+
+    if ((op0 & 0x7) == 0x7) {
+      // ---------------- SIMD and FP ----------------
+      // fmov (general)
+      if ((w & 0x7F3FFC00u) == 0x1E260000u || (w & 0x7F3FFC00u) == 0x1E270000u) {
+        u32 ftype = bits(23, 22); bool to_fp = (w >> 16) & 1;
+        if (sf && ftype == 1) { if (to_fp) { u64 v = R(rn, true); memset(q[rd], 0, 16); memcpy(q[rd], &v, 8); } else { u64 v; memcpy(&v, q[rn], 8); W(rd, true, v); } }
+        else if (!sf && ftype == 0) { if (to_fp) { u64 v = R(rn, false); memset(q[rd], 0, 16); memcpy(q[rd], &v, 4); } else { u64 v = 0; memcpy(&v, q[rn], 4); W(rd, false, v); } }
+        else { unsupported(); return; }
+        cls("fmov-gp"); pc = next; return;
+      }
+      // fmov (register)
+      if ((w & 0xFF3FFC00u) == 0x1E204000u) {
+        u32 ftype = bits(23, 22);
+        int n = ftype == 0 ? 4 : ftype == 1 ? 8 : ftype == 3 ? 2 : 0;
+        if (!n) { unsupported(); return; }
+        u8 t[16]; memset(t, 0, 16); memcpy(t, q[rn], n); memcpy(q[rd], t, 16);
+        cls("fmov-reg"); pc = next; return;
+      }
+      if (!(w >> 31) && bits(28, 24) == 0x0E && bits(21, 21) == 1 && bits(10, 10) == 1) {  // AdvSIMD three same
+        bool Q = (w >> 30) & 1, U = (w >> 29) & 1;
+        u32 size = bits(23, 22), opcode = bits(15, 11);
+        int n = Q ? 16 : 8, es = 1 << size;
+        u8 a[16], b[16], d[16], r[16]; memcpy(a, q[rn], 16); memcpy(b, q[rm], 16); memcpy(d, q[rd], 16); memset(r, 0, 16);
+        if (opcode == 3) {  // logical
+          for (int i = 0; i < n; i++) {
+            u8 v;
+            if (!U) v = size == 0 ? (a[i] & b[i]) : size == 1 ? (a[i] & ~b[i]) : size == 2 ? (a[i] | b[i]) : (a[i] | ~b[i]);
+            else v = size == 0 ? (u8)(a[i] ^ b[i]) : size == 1 ? (u8)(b[i] ^ ((b[i] ^ a[i]) & d[i])) : size == 2 ? (u8)(d[i] ^ ((d[i] ^ a[i]) & b[i])) : (u8)(d[i] ^ ((d[i] ^ a[i]) & ~b[i]));
+            r[i] = v;
+          }
+          cls("vec-logical");
+        }
+        else {
+          if (size == 3 && !Q) { unsupported(); return; }
+          for (int i = 0; i < n / es; i++) {
+            u64 xv = elem(a, i, es), yv = elem(b, i, es), m = ones(8 * es), v;
+            switch (opcode) {
+              case 16: v = U ? xv - yv : xv + yv; break;
+              case 19: if (U || size == 3) { unsupported(); return; } v = xv * yv; break;
+              case 17: if (!U) { v = (xv & yv) ? m : 0; } else v = xv == yv ? m : 0; break;
+              case 6: v = U ? (xv > yv ? m : 0) : (sx(xv, 8 * es) > sx(yv, 8 * es) ? m : 0); break;
+              case 7: v = U ? (xv >= yv ? m : 0) : (sx(xv, 8 * es) >= sx(yv, 8 * es) ? m : 0); break;
+              case 12: if (size == 3) { unsupported(); return; } v = U ? (xv > yv ? xv : yv) : (sx(xv, 8 * es) > sx(yv, 8 * es) ? xv : yv); break;
+              case 13: if (size == 3) { unsupported(); return; } v = U ? (xv < yv ? xv : yv) : (sx(xv, 8 * es) < sx(yv, 8 * es) ? xv : yv); break;
+              default: unsupported(); return;
+            }
+            set_elem(r, i, es, v & m);
+          }
+          cls("vec-arith");
+        }
+        memcpy(q[rd], r, 16); pc = next; return;
+      }
+      if (!(w >> 31) && bits(28, 23) == 0x1E && bits(10, 10) == 1 && bits(22, 19) != 0) {  // AdvSIMD shift by immediate
+        bool Q = (w >> 30) & 1, U = (w >> 29) & 1;
+        u32 immh = bits(22, 19), immb = bits(18, 16), opcode = bits(15, 11);
+        int hb = 31 - __builtin_clz(immh);
+        int es = 1 << hb, esize = 8 * es, n = Q ? 16 : 8;
+        if (hb == 3 && !Q) { unsupported(); return; }
+        unsigned imm7 = (immh << 3) | immb;
+        u8 a[16], r[16]; memcpy(a, q[rn], 16); memset(r, 0, 16);
+        for (int i = 0; i < n / es; i++) {
+          u64 xv = elem(a, i, es), v;
+          if (opcode == 10 && !U) { unsigned s = imm7 - esize; v = xv << s; }
+          else if (opcode == 0) { unsigned s = 2 * esize - imm7; v = U ? (s >= 64 ? 0 : xv >> s) : (u64)(sx(xv, esize) >> (s >= 64 ? 63 : s)); }
+          else { unsupported(); return; }
+          set_elem(r, i, es, v & ones(esize));
+        }
+        memcpy(q[rd], r, 16); cls("vec-shift-imm"); pc = next; return;
+      }
+      if (!(w >> 31) && bits(28, 24) == 0x0F && bits(10, 10) == 0 && !((w >> 29) & 1) && bits(15, 12) == 8) {  // mul (by element)
+        bool Q = (w >> 30) & 1;
+        u32 size = bits(23, 22), L = bits(21, 21), M = bits(20, 20), H = bits(11, 11);
+        int es, idx, m;
+        if (size == 1) { es = 2; idx = (int)((H << 2) | (L << 1) | M); m = (int)bits(19, 16); }
+        else if (size == 2) { es = 4; idx = (int)((H << 1) | L); m = (int)bits(20, 16); }
+        else { unsupported(); return; }
+        u8 a[16], r[16]; memcpy(a, q[rn], 16); memset(r, 0, 16);
+        u64 e = elem(q[m], idx, es);
+        for (int i = 0; i < (Q ? 16 : 8) / es; i++) set_elem(r, i, es, (elem(a, i, es) * e) & ones(8 * es));
+        memcpy(q[rd], r, 16); cls("mul-by-element"); pc = next; return;
+      }
+      if ((w & 0xBFE08C00u) == 0x0E000000u) {  // tbl / tbx
+        bool Q = (w >> 30) & 1; int len = (int)bits(14, 13) + 1; bool tbx = (w >> 12) & 1;
+        u8 table[64], idx[16], r[16];
+        for (int i = 0; i < len; i++) memcpy(table + 16 * i, q[(rn + i) % 32], 16);
+        memcpy(idx, q[rm], 16);
+        if (tbx) memcpy(r, q[rd], 16); else memset(r, 0, 16);
+        for (int i = 0; i < (Q ? 16 : 8); i++) if (idx[i] < 16 * len) r[i] = table[idx[i]];
+        if (!Q) memset(r + 8, 0, 8);
+        memcpy(q[rd], r, 16);
+        if (classes) { char nm[24]; snprintf(nm, sizeof nm, "%s-%dreg", tbx ? "tbx" : "tbl", len); (*classes)[nm]++; }
+        pc = next; return;
+      }
+      if ((w & 0xBFE0FC00u) == 0x0E000C00u) {  // dup (general)
+        bool Q = (w >> 30) & 1; u32 imm5 = bits(20, 16);
+        int hb = __builtin_ctz(imm5 | 0x20); if (hb > 3 || (hb == 3 && !Q)) { unsupported(); return; }
+        int es = 1 << hb; u64 v = R(rn, true) & ones(8 * es);
+        u8 r[16]; memset(r, 0, 16);
+        for (int i = 0; i < (Q ? 16 : 8) / es; i++) set_elem(r, i, es, v);
+        memcpy(q[rd], r, 16); cls("dup-gp"); pc = next; return;
+      }
+      if ((w & 0xBFE0FC00u) == 0x0E003C00u) {  // umov / mov to general
+        bool Q = (w >> 30) & 1; u32 imm5 = bits(20, 16);
+        int hb = __builtin_ctz(imm5 | 0x20); if (hb > 3 || (hb == 3) != Q) { unsupported(); return; }
+        int es = 1 << hb; int index = (int)(imm5 >> (hb + 1));
+        W(rd, true, elem(q[rn], index, es)); cls("umov"); pc = next; return;
+      }
+      if ((w & 0xFFE0FC00u) == 0x4E001C00u) {  // ins (general)
+        u32 imm5 = bits(20, 16);
+        int hb = __builtin_ctz(imm5 | 0x20); if (hb > 3) { unsupported(); return; }
+        int es = 1 << hb; int index = (int)(imm5 >> (hb + 1));
+        set_elem(q[rd], index, es, R(rn, true) & ones(8 * es)); cls("ins-gp"); pc = next; return;
+      }
+      unsupported(); return;
+    }
+    unsupported();
+  }
+
+  void run(u64 max_steps) {
+    while (status == ST_RUN) {
+      if (steps > max_steps) { stop(ST_LIMIT, "step limit (generated code does not terminate)"); break; }
+      step();
+    }
+  }
+};
+
+// runs one compiled AArch64 function on every input; results go to the shared slots exactly like native execution
+struct SimNote { int status = 0; int input = -1; std::string msg; u64 off = 0; };
+
+static const char* const kA64Preserved = "x19-x28, x29, sp, d8-d15";
+
+static SimNote a64_exec_program(const Program& P, const std::vector<u8>& code, const std::vector<RunInput>& inputs, int slot_base,
+                                std::map<std::string, u64>* classes, u64* steps_out) {
+  SimNote note;
+  const SigClass& sc = kSigClasses[P.sigclass];
+  bool retd = P.retval >= 0 && P.vals[P.retval].kind == KIND_D;
+  std::vector<u8> bufmem(BUF_SIZE);
+  for (size_t k = 0; k < inputs.size(); k++) {
+    const RunInput& in = inputs[k];
+    ShmSlot& s = g_shm->slot[slot_base + k];
+    A64Sim m;
+    m.code = code.data(); m.code_size = code.size();
+    memset(bufmem.data(), 0, BUF_SIZE);
+    memcpy(bufmem.data(), in.data, DATA_SIZE);
+    m.buf = bufmem.data(); m.buf_size = BUF_SIZE;
+    m.log = s.calls; m.logcap = CALLCAP; m.classes = classes;
+    for (int i = 0; i < 31; i++) m.x[i] = 0xE1E1E1E100000000ull + (u64)i * 0x01010101ull;
+    for (int i = 0; i < 32; i++) for (int j = 0; j < 16; j++) m.q[i][j] = (u8)(0x21 + ((i * 67 + j * 13) % 89));
+    // AAPCS64: integer arguments in x0-x7, floating-point arguments in d0-d7, the rest in 8-byte stack slots in argument order
+    u64 stack_args[40]; int ns = 0, ni = 0, nd = 0;
+    m.x[ni++] = A64Sim::BUF_BASE;
+    for (int a = 0; a < sc.ni; a++) { if (ni < 8) m.x[ni++] = in.iargs[a]; else stack_args[ns++] = in.iargs[a]; }
+    for (int a = 0; a < sc.nd; a++) { if (nd < 8) { memset(m.q[nd], 0x77, 16); memcpy(m.q[nd], &in.dargs[a], 8); nd++; } else stack_args[ns++] = in.dargs[a]; }
+    u64 sp0 = (A64Sim::STACK_TOP - 4096 - 8 * (u64)ns) & ~15ull;
+    m.sp = sp0;
+    for (int i = 0; i < ns; i++) m.st(sp0 + 8 * (u64)i, 8, stack_args[i]);
+    m.x[30] = A64Sim::RET_SENTINEL;
+    m.pc = A64Sim::CODE_BASE;
+    u64 keep_x[11]; for (int i = 0; i < 11; i++) keep_x[i] = m.x[19 + i];
+    u64 keep_d[8]; for (int i = 0; i < 8; i++) memcpy(&keep_d[i], m.q[8 + i], 8);
+    m.run(4000000);
+    if (steps_out) *steps_out += m.steps;
+    if (m.status != A64Sim::ST_DONE) {
+      note.status = m.status; note.input = (int)k; note.msg = m.msg; note.off = m.fault_pc - A64Sim::CODE_BASE;
+      return note;
+    }
+    std::string clob;
+    for (int i = 0; i < 11; i++) if (m.x[19 + i] != keep_x[i]) clob += " x" + std::to_string(19 + i);
+    for (int i = 0; i < 8; i++) { u64 v; memcpy(&v, m.q[8 + i], 8); if (v != keep_d[i]) clob += " d" + std::to_string(8 + i); }
+    if (m.sp != sp0) clob += " sp";
+    if (!clob.empty()) {
+      note.status = 100; note.input = (int)k; note.msg = "registers the callee must preserve (" + std::string(kA64Preserved) + ") differ after the return:" + clob;
+      return note;
+    }
+    u64 r = 0;
+    if (retd) memcpy(&r, m.q[0], 8); else r = m.x[0];
+    s.ret = r;
+    s.ncalls = m.ncalls;
+    memcpy(s.buf, bufmem.data(), BUF_SIZE);
+    s.done = 1;
+  }
+  return note;
+}
+
+// @@GATE32@@
+// ---------------------------------------------------------------------------------------------------------------
+// x86-32 execution from this 64-bit process: the generated code is relocated to a fixed low address, entered through
+// a far return into the 32-bit code segment (0x23) and left through a far jump back into a 64-bit thunk (0x33).
+// Helper callees are 32-bit stubs at the addresses the emitter calls (0x08000000 + id * 64); each stub far-calls a
+// 64-bit thunk that hands the 32-bit stack frame to a C handler (logs the arguments, overwrites caller-saved registers).
+// Everything below 4 GiB is generated at run time, so the driver needs no special link flags.
+// ---------------------------------------------------------------------------------------------------------------
+
+extern "C" {
+  u64 ra_host_rsp __attribute__((used));
+  u64 ra32_gate_stack __attribute__((used));
+  u64 ra32_entry __attribute__((used));
+  void ra_gate32();
+}
+asm(R"ASM(
+.text
+.globl ra_gate32
+.type ra_gate32,@function
+ra_gate32:
+  push %rbx
+  push %rbp
+  push %r12
+  push %r13
+  push %r14
+  push %r15
+  mov %rsp, ra_host_rsp(%rip)
+  mov ra32_gate_stack(%rip), %rsp
+  mov $0x2b, %eax
+  mov %eax, %ds
+  mov %eax, %es
+  pushq $0x23
+  mov ra32_entry(%rip), %rax
+  push %rax
+  lretq
+.size ra_gate32, .-ra_gate32
+)ASM");
+
+struct Ctx32 {
+  u32 target, esp_in, saved_esp, in_ecx, in_edx, in_ebx, in_esi, in_edi, in_ebp;
+  u32 out_esp, out_eax, out_edx, out_ebx, out_esi, out_edi, out_ebp, want_st0, pad;
+  u64 out_st0, callee_ret, cb_stack;
+};
+
+static const int G32_MAXCALLEE = 64;
+static u8* g32_low = nullptr;
+static Ctx32* g32_ctx = nullptr;
+static u8* g32_stack = nullptr;     // 1 MiB, guard pages on both sides
+static u8* g32_buf = nullptr;       // argument buffer (guard pages on both sides)
+static const size_t G32_STACK_SIZE = 1u << 20;
+
+struct Asm32 { u8* p; void b(u8 x) { *p++ = x; } void d(u32 x) { memcpy(p, &x, 4); p += 4; } void q(u64 x) { memcpy(p, &x, 8); p += 8; }
+               void bs(std::initializer_list<int> l) { for (int x : l) *p++ = (u8)x; } };
+
+// bytes of stack arguments of a callee on x86-32 (cdecl / stdcall: everything is on the stack)
+static int callee_stack_bytes32(int id) {
+  const CalleeSig& s = g_sigs[id];
+  int n = 0;
+  for (int k = 0; k < s.n; k++) n += (s.kind[k] == AK_F64 || s.kind[k] == AK_U64) ? 8 : 4;
+  return n;
+}
+
+extern "C" NOSAN __attribute__((used)) u64 ra32_callee_handler(u8* frame) {
+  // frame: +0 saved rdi, +8 saved rsi, +16 far return (eip, cs), +24 callee id, +28 return address into the generated code, +32 arguments
+  u32 id = *(u32*)(frame + 24);
+  const u8* ap = frame + 32;
+  const CalleeSig& sg = g_sigs[id];
+  u64 a[MAXARGS];
+  for (int k = 0; k < sg.n; k++) {
+    u64 v = 0;
+    switch (sg.kind[k]) {
+      case AK_U8: v = *(const u32*)ap & 0xFF; ap += 4; break;
+      case AK_U16: v = *(const u32*)ap & 0xFFFF; ap += 4; break;
+      case AK_U32: v = *(const u32*)ap; ap += 4; break;
+      default: memcpy(&v, ap, 8); ap += 8; break;
+    }
+    a[k] = v;
+  }
+  u32 n = *g_logn;
+  if (n < g_logcap) {
+    CallRec& r = g_log[n];
+    r.callee = id; r.n = sg.n;
+    for (int k = 0; k < MAXARGS; k++) r.a[k] = k < sg.n ? a[k] : 0;
+  }
+  *g_logn = n + 1;
+  u64 res = callee_result(id, sg.n, a);
+  if (sg.ret == RK_F64) res = x87_safe(res);
+  g32_ctx->callee_ret = res;
+  trash_caller_saved();
+  return res;
+}
+
+static void init_exec32() {
+  if (g32_low) return;
+  u8* low = (u8*)mmap((void*)(uintptr_t)G32_BASE, G32_SIZE, PROT_READ | PROT_WRITE | PROT_EXEC, MAP_PRIVATE | MAP_ANONYMOUS | MAP_FIXED_NOREPLACE, -1, 0);
+  size_t pg = 4096, bsz = (BUF_SIZE + 512 + pg - 1) / pg * pg;
+  u8* stk = (u8*)mmap(nullptr, G32_STACK_SIZE + 2 * 65536, PROT_NONE, MAP_PRIVATE | MAP_ANONYMOUS | MAP_32BIT, -1, 0);
+  u8* bf = (u8*)mmap(nullptr, bsz + 2 * pg, PROT_NONE, MAP_PRIVATE | MAP_ANONYMOUS | MAP_32BIT, -1, 0);
+  u8* aux = (u8*)mmap(nullptr, 2 * 65536, PROT_READ | PROT_WRITE, MAP_PRIVATE | MAP_ANONYMOUS | MAP_32BIT, -1, 0);
+  if (low == MAP_FAILED || (uintptr_t)low != G32_BASE || stk == MAP_FAILED || bf == MAP_FAILED || aux == MAP_FAILED) {
+    printf("{\"mode\":\"x86\",\"violations\":[],\"harness_errors\":[\"cannot map low memory for 32-bit execution\"]}\n"); exit(0);
+  }
+  g32_low = low;
+  g32_stack = stk + 65536; mprotect(g32_stack, G32_STACK_SIZE, PROT_READ | PROT_WRITE);
+  g32_buf = bf + pg; mprotect(g32_buf, bsz, PROT_READ | PROT_WRITE);
+  g32_ctx = (Ctx32*)(low + G32_CTX);
+  memset(g32_ctx, 0, sizeof *g32_ctx);
+  g32_ctx->cb_stack = (u64)(uintptr_t)(aux + 65536 - 64);
+  ra32_gate_stack = (u64)(uintptr_t)(aux + 2 * 65536 - 256);
+  ra32_entry = (u64)(uintptr_t)(low + G32_ENTRY);
+#define C32(f) ((u32)(uintptr_t)&g32_ctx->f)
+  // helper callee stubs (32-bit): push id ; call far 0x33:thunk ; add esp, 4 ; [fld qword result] ; ret [n]
+  for (int id = 0; id < NCALLEE && id < G32_MAXCALLEE; id++) {
+    Asm32 a{ low + 64 * id };
+    a.b(0x68); a.d((u32)id);
+    a.b(0x9A); a.d(G32_BASE + G32_THUNK); a.bs({0x33, 0x00});
+    a.bs({0x83, 0xC4, 0x04});
+    if (g_sigs[id].ret == RK_F64) { a.bs({0xDD, 0x05}); a.d(C32(callee_ret)); }
+    int pop = (id & 1) ? callee_stack_bytes32(id) : 0;   // odd ids are called as stdcall: the callee removes its arguments
+    if (pop) { a.b(0xC2); a.b((u8)(pop & 0xFF)); a.b((u8)(pop >> 8)); } else a.b(0xC3);
+  }
+  { // 64-bit thunk entered from the stubs
+    Asm32 a{ low + G32_THUNK };
+    a.bs({0x89, 0xE4});                          // mov esp, esp (clears bits 32..63 of rsp)
+    a.bs({0x56, 0x57});                          // push rsi ; push rdi
+    a.bs({0x48, 0x89, 0xE7});                    // mov rdi, rsp
+    a.bs({0x48, 0x89, 0xE0});                    // mov rax, rsp
+    a.bs({0x48, 0x8B, 0x24, 0x25}); a.d(C32(cb_stack));   // mov rsp, [cb_stack]
+    a.b(0x50);                                   // push rax
+    a.bs({0x48, 0x83, 0xEC, 0x08});              // sub rsp, 8
+    a.bs({0x48, 0xB8}); a.q((u64)(uintptr_t)&ra32_callee_handler);
+    a.bs({0xFF, 0xD0});                          // call rax
+    a.bs({0x48, 0x83, 0xC4, 0x08});              // add rsp, 8
+    a.b(0x5C);                                   // pop rsp
+    a.bs({0x5F, 0x5E});                          // pop rdi ; pop rsi
+    a.bs({0x48, 0x89, 0xC2});                    // mov rdx, rax
+    a.bs({0x48, 0xC1, 0xEA, 0x20});              // shr rdx, 32
+    a.b(0xB9); a.d(0x5A5AC3C3u);                 // mov ecx, junk
+    a.b(0xCB);                                   // retf
+  }
+  { // 32-bit entry stub
+    Asm32 a{ low + G32_ENTRY };
+    a.bs({0x89, 0x25}); a.d(C32(saved_esp));
+    a.bs({0x8B, 0x25}); a.d(C32(esp_in));
+    a.bs({0x8B, 0x0D}); a.d(C32(in_ecx));
+    a.bs({0x8B, 0x15}); a.d(C32(in_edx));
+    a.bs({0x8B, 0x1D}); a.d(C32(in_ebx));
+    a.bs({0x8B, 0x35}); a.d(C32(in_esi));
+    a.bs({0x8B, 0x3D}); a.d(C32(in_edi));
+    a.bs({0x8B, 0x2D}); a.d(C32(in_ebp));
+    a.bs({0xFF, 0x15}); a.d(C32(target));
+    a.bs({0x89, 0x25}); a.d(C32(out_esp));
+    a.bs({0x8B, 0x25}); a.d(C32(saved_esp));
+    a.b(0xA3); a.d(C32(out_eax));
+    a.bs({0x89, 0x15}); a.d(C32(out_edx));
+    a.bs({0x89, 0x1D}); a.d(C32(out_ebx));
+    a.bs({0x89, 0x35}); a.d(C32(out_esi));
+    a.bs({0x89, 0x3D}); a.d(C32(out_edi));
+    a.bs({0x89, 0x2D}); a.d(C32(out_ebp));
+    a.bs({0x83, 0x3D}); a.d(C32(want_st0)); a.b(0x00);
+    a.bs({0x74, 0x06});
+    a.bs({0xDD, 0x1D}); a.d(C32(out_st0));
+    a.b(0xEA); a.d(G32_BASE + G32_EXIT); a.bs({0x33, 0x00});   // jmp far 0x33:exit
+  }
+  { // 64-bit exit thunk: back to the stack of ra_gate32's caller
+    Asm32 a{ low + G32_EXIT };
+    a.bs({0x48, 0xB8}); a.q((u64)(uintptr_t)&ra_host_rsp);
+    a.bs({0x48, 0x8B, 0x20});                    // mov rsp, [rax]
+    a.bs({0x31, 0xC0, 0x8E, 0xD8, 0x8E, 0xC0});  // xor eax, eax ; mov ds, eax ; mov es, eax
+    a.bs({0xDB, 0xE3});                          // fninit
+    a.b(0xFC);                                   // cld
+    a.bs({0x41, 0x5F, 0x41, 0x5E, 0x41, 0x5D, 0x41, 0x5C, 0x5D, 0x5B, 0xC3});
+  }
+#undef C32
+}
+
+static NOSAN void install_crash_handlers();
+
+// runs the compiled x86-32 function on every input through the gate; a crash ends this (child) process through the signal handler
+static bool exec32_program(const Program& P, const Compiled& comp, const std::vector<RunInput>& inputs, ExecItem& item) {
+  if (!g32_low || comp.code.size() + 64 > G32_SIZE - G32_CODE) { item.eo.status = EX_FORKFAIL; return false; }
+  u8* fn = g32_low + G32_CODE;
+  memcpy(fn, comp.code.data(), comp.code.size());
+  g_shm->fn_base = (u64)(uintptr_t)fn;
+  install_crash_handlers();
+  struct itimerval tv; memset(&tv, 0, sizeof tv); tv.it_value.tv_sec = 3;
+  setitimer(ITIMER_PROF, &tv, nullptr);
+  const SigClass& sc = kSigClasses[P.sigclass];
+  bool retd = P.retval >= 0 && P.vals[P.retval].kind == KIND_D;
+  int cconv = P.cconv & 3;
+  bool fast = cconv == 2, callee_pops = cconv == 1 || cconv == 2;
+  for (size_t k = 0; k < inputs.size(); k++) {
+    const RunInput& in = inputs[k];
+    g_shm->progress = (u32)k;
+    ShmSlot& s = g_shm->slot[item.slot_base + k];
+    memset(g32_buf, 0, BUF_SIZE);
+    memcpy(g32_buf, in.data, DATA_SIZE);
+    for (int id = 0; id < NCALLEE && id < G32_MAXCALLEE; id++) { u32 t = G32_BASE + 64u * (u32)id; memcpy(g32_buf + BUF_SIZE + 4 * id, &t, 4); }
+    g_log = s.calls; g_logn = &s.ncalls; g_logcap = CALLCAP;
+    u32 words[96]; int nw = 0, nreg = 0;
+    u32 ecx = 0xC1C1C1C1u, edx = 0xD2D2D2D2u;
+    auto push_int = [&](u32 v) { if (fast && nreg < 2) { (nreg == 0 ? ecx : edx) = v; nreg++; } else words[nw++] = v; };
+    push_int((u32)(uintptr_t)g32_buf);
+    for (int a = 0; a < sc.ni; a++) push_int((u32)in.iargs[a]);
+    for (int a = 0; a < sc.nd; a++) { words[nw++] = (u32)in.dargs[a]; words[nw++] = (u32)(in.dargs[a] >> 32); }
+    memset(g32_stack, 0xCD, G32_STACK_SIZE);
+    u32 top = (u32)(uintptr_t)(g32_stack + G32_STACK_SIZE - 8192);
+    u32 esp = ((top - 4u * (u32)nw) & ~15u) - 4u * (u32)(k & 3);
+    memcpy((void*)(uintptr_t)esp, words, 4 * (size_t)nw);
+    Ctx32& c = *g32_ctx;
+    c.target = (u32)(uintptr_t)fn; c.esp_in = esp; c.in_ecx = ecx; c.in_edx = edx;
+    c.in_ebx = 0xB1B1B1B1u; c.in_esi = 0xB2B2B2B2u; c.in_edi = 0xB3B3B3B3u; c.in_ebp = 0xB4B4B4B4u;
+    c.want_st0 = retd ? 1 : 0; c.out_st0 = 0; c.out_eax = 0;
+    ra_gate32();
+    u32 want_esp = esp + (callee_pops ? 4u * (u32)nw : 0u);
+    std::string clob;
+    if (c.out_ebx != c.in_ebx) clob += " ebx";
+    if (c.out_esi != c.in_esi) clob += " esi";
+    if (c.out_edi != c.in_edi) clob += " edi";
+    if (c.out_ebp != c.in_ebp) clob += " ebp";
+    if (c.out_esp != want_esp) { char b[96]; snprintf(b, sizeof b, " esp (entry+%d instead of entry+%d after the return)", (int)(c.out_esp - esp), (int)(want_esp - esp)); clob += b; }
+    if (!clob.empty()) {
+      item.eo.status = EX_PRESERVED; item.eo.at_input = (int)k;
+      item.eo.note = "registers the callee must preserve (ebx, esi, edi, ebp, esp) differ after the return:" + clob;
+      return true;
+    }
+    s.ret = retd ? c.out_st0 : (u64)c.out_eax;
+    memcpy(s.buf, g32_buf, BUF_SIZE);
+    s.done = 1;
+  }
+  memset(&tv, 0, sizeof tv); setitimer(ITIMER_PROF, &tv, nullptr);
+  return true;
+}
+
 
 // ---------------------------------------------------------------------------------------------------------------
 // Straight-line register-list programs (AArch64 ld1-ld4/st1-st4/tbl/tbx, x86 vp2intersect k-pairs, 4FMAPS blocks).
@@ -4204,6 +6119,112 @@ static bool parse_stats_line(const std::string& s, std::string& tag, EmitStats& 
   return true;
 }
 
+// ---------------------------------------------------------------------------------------------------------------
+// Isolated compile + execute of one non-native program (AArch64: executor above, x86-32: far-call gate) in a forked
+// child: a crash inside the register allocator or inside the generated code costs one program. The parent learns the
+// verdict, the RA statistics and the payload for the Python-side decode checks.
+// ---------------------------------------------------------------------------------------------------------------
+
+static const char* const kVerdictKinds[] = { "ok", "miscompile", "crash", "hang", "finalize-error", "harness", "unsupported", "callee-saved", "ra-crash", "ra-hang", "watchdog" };
+
+struct IsoResult {
+  Verdict v;
+  EmitStats st;
+  std::string payload;
+  std::string errcode;
+  int sig = 0, exitcode = 0;
+  u64 sim_steps = 0;
+  std::map<std::string, u64> classes;
+};
+
+static std::string one_line(const std::string& s) { std::string r = s; for (char& c : r) if (c == '\n') c = ' '; return r; }
+
+static bool exec32_program(const Program& P, const Compiled& comp, const std::vector<RunInput>& inputs, ExecItem& item);   // x86-32 gate (below)
+
+static IsoResult run_isolated(const Program& P, const std::vector<RunInput>& inputs, const std::vector<RunResult>& ref, bool annotate, bool want_payload, u64 idx) {
+  IsoResult res;
+  g_shm->stage = 0; g_shm->progress = 0; g_shm->crash_sig = 0; g_shm->crash_rip = 0; g_shm->crash_addr = 0; g_shm->fn_base = 0;
+  for (size_t k = 0; k < inputs.size(); k++) { g_shm->slot[k].done = 0; g_shm->slot[k].ncalls = 0; }
+  TaskResult tr = run_child_task([&](std::string& out) {
+    Compiled comp;
+    bool ok = P.arch == ARCH_A64 ? compile_a64(P, comp, annotate) : compile_x86(P, comp, annotate);
+    if (!ok) { out = stats_line("ERR", comp.st) + std::string(DebugUtils::error_as_string(comp.err)) + "\n" + comp.stage + ": " + one_line(comp.errmsg); return; }
+    ExecItem item; item.P = &P; item.inputs = &inputs; item.slot_base = 0;
+    std::map<std::string, u64> classes; u64 steps = 0;
+    g_shm->stage = 1;
+    if (P.arch == ARCH_A64) {
+      SimNote n = a64_exec_program(P, comp.code, inputs, 0, &classes, &steps);
+      if (n.status) {
+        item.eo.at_input = n.input; item.eo.rip_off = n.off; item.eo.note = n.msg;
+        item.eo.status = n.status == A64Sim::ST_FAULT ? EX_CRASH : n.status == A64Sim::ST_LIMIT ? EX_HANG : n.status == A64Sim::ST_UNSUPPORTED ? EX_UNSUPPORTED : EX_PRESERVED;
+      }
+    }
+    else exec32_program(P, comp, inputs, item);
+    g_shm->stage = 2;
+    Verdict v = compare_results(P, inputs, ref, item);
+    std::string c = "C";
+    for (auto& kv : classes) c += " " + kv.first + "=" + std::to_string(kv.second);
+    out = stats_line("OK", comp.st) + "V " + std::to_string(v.kind) + " " + std::to_string(v.input) + " " + std::to_string(steps) + "\n" + one_line(v.what) + "\n" + c + "\n";
+    if (want_payload)
+      out += "{\"index\":" + std::to_string(idx) + ",\"profile\":" + jstr(P.profile) + ",\"code_end\":" + std::to_string(comp.code_end) + ",\"data\":" + comp.data_json +
+             ",\"user_insts\":" + std::to_string(comp.st.user_insts) + ",\"hex\":\"" + hexstr(comp.code.data(), comp.code.size()) + "\"}";
+  });
+  std::string tag, rest;
+  if (!tr.ok || !parse_stats_line(tr.out, tag, res.st, rest)) {
+    res.sig = tr.sig; res.exitcode = tr.exitcode;
+    int stage = (int)g_shm->stage;
+    char b[256];
+    if (tr.sig == SIGALRM) { res.v.kind = 10; res.v.what = "wall-clock watchdog in the child"; return res; }
+    if (stage == 1) {
+      // died while the generated code was running (x86-32 through the gate)
+      res.v.input = (int)g_shm->progress;
+      if (tr.sig == SIGPROF) { res.v.kind = 3; snprintf(b, sizeof b, "generated code did not terminate (CPU-time limit) on input %d", res.v.input); }
+      else { res.v.kind = 2; snprintf(b, sizeof b, "generated code crashed with signal %d at code offset 0x%llx (fault address 0x%llx) on input %d", (int)g_shm->crash_sig,
+                                      (unsigned long long)(g_shm->crash_rip - g_shm->fn_base), (unsigned long long)g_shm->crash_addr, res.v.input); }
+      res.v.what = b;
+      return res;
+    }
+    res.v.kind = tr.sig == SIGPROF ? 9 : 8;
+    snprintf(b, sizeof b, "%s (signal %d, exit code %d, see sanitizer report)", tr.sig == SIGPROF ? "the Compiler did not terminate within 10 s of CPU time" : "the Compiler crashed", tr.sig, tr.exitcode);
+    res.v.what = b;
+    return res;
+  }
+  if (tag == "ERR") {
+    res.errcode = rest.substr(0, rest.find('\n'));
+    res.v.kind = 4; res.v.what = "Compiler failed: " + one_line(rest);
+    return res;
+  }
+  // "V kind input steps\nwhat\nC classes\npayload"
+  int kind = 0, input = -1; unsigned long long steps = 0;
+  sscanf(rest.c_str(), "V %d %d %llu", &kind, &input, &steps);
+  size_t p1 = rest.find('\n'), p2 = rest.find('\n', p1 + 1), p3 = rest.find('\n', p2 + 1);
+  res.v.kind = kind; res.v.input = input; res.sim_steps = steps;
+  res.v.what = rest.substr(p1 + 1, p2 - p1 - 1);
+  std::string cl = rest.substr(p2 + 1, p3 - p2 - 1);
+  size_t pos = 1;
+  while (pos < cl.size()) {
+    size_t sp = cl.find(' ', pos + 1); if (sp == std::string::npos) sp = cl.size();
+    std::string kv = cl.substr(pos + 1, sp - pos - 1);
+    size_t eq = kv.rfind('=');
+    if (eq != std::string::npos) res.classes[kv.substr(0, eq)] += strtoull(kv.c_str() + eq + 1, nullptr, 10);
+    pos = sp;
+  }
+  res.payload = rest.substr(p3 + 1);
+  return res;
+}
+
+// one program on the given inputs, whatever the target: x86-64 natively, the others isolated (shrinker, probes, replays)
+static Verdict check_program(const Program& P, const std::vector<RunInput>& inputs, Compiled& comp, Counters* ctr, bool annotate) {
+  if (P.arch == ARCH_X64) return check_program_x64(P, inputs, comp, ctr, annotate);
+  Verdict v;
+  std::vector<RunResult> ref;
+  if (!reference_run(P, inputs, ref, ctr, v)) return v;
+  IsoResult r = run_isolated(P, inputs, ref, annotate, false, 0);
+  comp.st = r.st;
+  return r.v;
+}
+
+
 struct ViolationOut;
 static void add_violation(std::vector<ViolationOut>& viols, const std::string& key, const std::string& what, const std::string& witness, u64 index);
 
@@ -4211,53 +6232,6 @@ static bool run_other_mode(const std::string& mode, const Args& args, Counters& 
                            std::vector<std::string>& harness_errors, std::string& extra_json) {
   u64 seed = args.u64("seed", 1), first = args.u64("first", 0), count = args.u64("count", 10);
   bool annotate = args.u64("annotate", 1) != 0;
-  if (mode == "a64") {
-    std::string progs = "[";
-    bool firstp = true;
-    for (u64 idx = first; idx < first + count; idx++) {
-      Rng pr = Rng(seed * 0x9E3779B97F4A7C15ull + 0xA64).fork(idx + 0xA640000);
-      Profile pfl = kProfilesA64[idx % kNProfilesA64];
-      Program P = gen_program(pr, pfl, -1);
-      if (args.has("dump")) printf("%s\n", serialise(P).c_str());
-      count_program(ctr, P);
-      u64 ph = program_hash(P);
-      ctr.distinct_all.insert(ph);
-      ctr.shapes_seen.insert(cfg_shape_hash(P));
-      ctr.max_live = std::max(ctr.max_live, measure_max_live(P));
-      ctr.evaluations++;
-      TaskResult tr = run_child_task([&](std::string& out) {
-        Compiled comp;
-        bool ok = compile_a64(P, comp, annotate);
-        if (!ok) { out = stats_line("ERR", comp.st) + std::string(DebugUtils::error_as_string(comp.err)) + "\n" + comp.stage + ": " + comp.errmsg; return; }
-        out = stats_line("OK", comp.st) + "{\"index\":" + std::to_string(idx) + ",\"profile\":" + jstr(P.profile) + ",\"code_end\":" + std::to_string(comp.code_end) + ",\"data\":" + comp.data_json +
-              ",\"user_insts\":" + std::to_string(comp.st.user_insts) + ",\"hex\":\"" + hexstr(comp.code.data(), comp.code.size()) + "\"}";
-      });
-      std::string tag, payload; EmitStats st;
-      if (!tr.ok || !parse_stats_line(tr.out, tag, st, payload)) {
-        ctr.compile_errors++;
-        if (tr.sig == SIGALRM) { ctr.ops_by_kind["watchdog-inconclusive"]++; continue; }
-        add_violation(viols, std::string(tr.sig == SIGPROF ? "a64:ra-hang:" : "a64:ra-crash:") + P.profile,
-                      std::string(tr.sig == SIGPROF ? "the AArch64 Compiler did not terminate within 10 s of CPU time" : "the AArch64 Compiler crashed") + " (signal " +
-                      std::to_string(tr.sig) + ", exit code " + std::to_string(tr.exitcode) +
-                      ", see sanitizer report) while compiling program index=" + std::to_string(idx) + " profile=" + P.profile, serialise(P), idx);
-        continue;
-      }
-      if (tag == "ERR") {
-        ctr.compile_errors++;
-        std::string ec = payload.substr(0, payload.find('\n'));
-        add_violation(viols, std::string("a64:finalize-error:") + ec, "AArch64 Compiler failed: " + payload + " profile=" + P.profile + " index=" + std::to_string(idx),
-                      serialise(P), idx);
-        continue;
-      }
-      ctr.loads += st.loads; ctr.saves += st.saves; ctr.moves += st.moves; ctr.swaps += st.swaps; ctr.user_insts += st.user_insts;
-      if (st.nontrivial()) { ctr.nontrivial++; ctr.distinct_nontrivial.insert(ph); }
-      if (!firstp) progs += ",";
-      firstp = false;
-      progs += payload;
-    }
-    extra_json = ",\"compiled\":" + progs + "]";
-    return true;
-  }
   if (mode == "a64lists" || mode == "x86lists") {
     std::string progs = "[";
     bool firstp = true;
@@ -4314,6 +6288,94 @@ static bool run_other_mode(const std::string& mode, const Args& args, Counters& 
 
 
 // ---------------------------------------------------------------------------------------------------------------
+// modes "a64" and "x86": generate, interpret (reference), compile + execute isolated, compare, shrink, report
+// ---------------------------------------------------------------------------------------------------------------
+
+static void run_exec_mode(const std::string& mode, const Args& args, Counters& ctr, std::vector<ViolationOut>& viols,
+                          std::vector<std::string>& harness_errors, std::string& extra_json) {
+  bool is_a64 = mode == "a64";
+  u64 seed = args.u64("seed", 1), first = args.u64("first", 0), count = args.u64("count", 10);
+  int ninputs = (int)args.u64("inputs", is_a64 ? 8 : 16);
+  if (ninputs > NINPUTS_MAX) ninputs = NINPUTS_MAX;
+  int annotate_mode = (int)args.u64("annotate", 2);   // 2: programs with an odd index are compiled with kRAAnnotate, even ones without
+  int shrink_budget = (int)args.u64("shrink", 120);
+  std::string only_profile = args.str("profile", "");
+  init_exec_env();
+  if (!is_a64) init_exec32();
+  const std::string pfx = is_a64 ? "a64:" : "x86-32:";
+  std::string progs = "[";
+  bool firstp = true;
+  std::map<std::string, u64> classes, unsupported_kinds;
+  std::map<std::string, int> shrunk_per_key;
+  int total_shrinks = 0;
+  u64 executed = 0, exec_inputs = 0, unsupported = 0, sim_steps = 0, annotated = 0;
+  for (u64 idx = first; idx < first + count; idx++) {
+    Rng pr = is_a64 ? Rng(seed * 0x9E3779B97F4A7C15ull + 0xA64).fork(idx + 0xA640000) : Rng(seed * 0x9E3779B97F4A7C15ull + 0x86).fork(idx + 0x8600000);
+    Profile pfl = is_a64 ? kProfilesA64[idx % kNProfilesA64] : kProfilesX86[idx % kNProfilesX86];
+    if (!only_profile.empty()) {
+      bool found = false;
+      for (int i = 0; i < (is_a64 ? kNProfilesA64 : kNProfilesX86); i++) { const Profile& c = is_a64 ? kProfilesA64[i] : kProfilesX86[i]; if (only_profile == c.name) { pfl = c; found = true; } }
+      if (!found) { harness_errors.push_back("unknown profile " + only_profile); break; }
+    }
+    if (pfl.mode != MODE_AVX512) { pfl.nk_lo = pfl.nk_hi = 0; pfl.w_mask = 0; }
+    Program P = gen_program(pr, pfl, -1);
+    std::vector<RunInput> inputs;
+    Rng ir = pr.fork(0x1297);
+    make_inputs(ir, ninputs, inputs);
+    if (args.has("dump")) printf("%s\n", serialise(P).c_str());
+    count_program(ctr, P);
+    u64 ph = program_hash(P);
+    ctr.distinct_all.insert(ph);
+    ctr.shapes_seen.insert(cfg_shape_hash(P));
+    ctr.max_live = std::max(ctr.max_live, measure_max_live(P));
+    bool annotate = annotate_mode == 2 ? (idx & 1) != 0 : annotate_mode != 0;
+    std::vector<RunResult> ref;
+    Verdict rv;
+    if (!reference_run(P, inputs, ref, &ctr, rv)) { harness_errors.push_back("program " + std::to_string(idx) + " (" + P.profile + "): " + rv.what); continue; }
+    ctr.evaluations++;
+    IsoResult r = run_isolated(P, inputs, ref, annotate, true, idx);
+    Verdict& v = r.v;
+    bool compiled = !(v.kind == 4 || v.kind == 8 || v.kind == 9 || v.kind == 10);
+    if (compiled) {
+      ctr.loads += r.st.loads; ctr.saves += r.st.saves; ctr.moves += r.st.moves; ctr.swaps += r.st.swaps; ctr.rm_subst += r.st.rm_subst; ctr.user_insts += r.st.user_insts;
+      if (annotate) annotated++;
+      if (r.st.nontrivial()) { ctr.nontrivial++; ctr.distinct_nontrivial.insert(ph); }
+      for (auto& kv : r.classes) classes[kv.first] += kv.second;
+      sim_steps += r.sim_steps;
+      if (!r.payload.empty()) { if (!firstp) progs += ","; firstp = false; progs += r.payload; }
+    }
+    else ctr.compile_errors++;
+    if (v.kind == 0) { executed++; exec_inputs += inputs.size(); ctr.inputs_run += inputs.size(); continue; }
+    if (v.kind == 6) { unsupported++; if (unsupported_kinds.size() < 12) unsupported_kinds[v.what]++; continue; }
+    if (v.kind == 10) { ctr.ops_by_kind["watchdog-inconclusive"]++; continue; }
+    if (v.kind == 4 && r.errcode == "InvalidDisplacement" && has_short_range_branch(P)) { ctr.ops_by_kind["short-branch-out-of-range-inconclusive"]++; continue; }
+    if (v.kind == 5) { harness_errors.push_back("program " + std::to_string(idx) + " (" + P.profile + "): " + v.what); continue; }
+    // ---- violation: shrink (a few per shard) and report ----
+    int attempts = 0;
+    Program S = P;
+    RunInput fin = inputs[v.input >= 0 && v.input < (int)inputs.size() ? v.input : 0];
+    std::string k0 = std::string(kVerdictKinds[v.kind]) + ":" + P.profile;
+    if (shrink_budget > 0 && v.kind != 3 && v.kind != 9 && shrunk_per_key[k0]++ < 2 && total_shrinks++ < 3) S = shrink_program(P, fin, v.kind, shrink_budget, attempts);
+    Compiled c2;
+    std::vector<RunInput> one(1, fin);
+    Verdict v2 = attempts ? check_program(S, one, c2, nullptr, false) : v;
+    ViolationOut vo;
+    vo.key = pfx + kVerdictKinds[v.kind] + ":" + P.profile;
+    if (v.kind == 4) vo.key = pfx + "finalize-error:" + r.errcode;
+    vo.what = v.what + " | profile=" + P.profile + " index=" + std::to_string(idx) + " annotate=" + (annotate ? "1" : "0") + " | after shrinking (" + std::to_string(attempts) + " attempts): " +
+              (v2.kind ? v2.what : std::string("(shrunk program no longer fails; witness is the original)"));
+    vo.witness = serialise(v2.kind ? S : P) + "input: " + input_to_string(fin);
+    vo.index = idx; vo.input = v.input;
+    viols.push_back(vo);
+    if (viols.size() >= 12) { ctr.ops_by_kind["shard-stopped-after-12-violations"]++; break; }
+  }
+  progs += "]";
+  std::string un = "{"; { bool f = true; for (auto& kv : unsupported_kinds) { if (!f) un += ","; f = false; un += jstr(kv.first) + ":" + std::to_string(kv.second); } } un += "}";
+  extra_json = ",\"compiled\":" + progs + ",\"exec\":{\"programs\":" + std::to_string(executed) + ",\"inputs\":" + std::to_string(exec_inputs) + ",\"unsupported\":" + std::to_string(unsupported) +
+               ",\"steps\":" + std::to_string(sim_steps) + ",\"annotated\":" + std::to_string(annotated) + ",\"classes\":" + json_map(classes) + ",\"unsupported_kinds\":" + un + "}";
+}
+
+// ---------------------------------------------------------------------------------------------------------------
 // Probes: small hand-written programs for constructs that were found defective. A failing probe is reported under a
 // stable key and tells the Python side which construct the random generator has to avoid (so that one known defect
 // does not mask everything else); a passing probe re-enables the construct automatically.
@@ -4321,8 +6383,8 @@ static bool run_other_mode(const std::string& mode, const Args& args, Counters& 
 
 struct ProbeBuilder {
   Program P;
-  ProbeBuilder(u8 mode = MODE_SSE, u8 sigclass = 0) {
-    P.arch = ARCH_X64; P.mode = mode; P.profile = "probe"; P.shape = "probe"; P.sigclass = sigclass;
+  ProbeBuilder(u8 mode = MODE_SSE, u8 sigclass = 0, u8 arch = ARCH_X64) {
+    P.arch = arch; P.mode = mode; P.profile = "probe"; P.shape = "probe"; P.sigclass = sigclass;
     P.argbind.assign(kSigClasses[sigclass].ni + kSigClasses[sigclass].nd, -1);
     P.blocks.resize(2);
     P.fuel = val(KIND_G, 4, false);
@@ -4359,7 +6421,7 @@ struct ProbeBuilder {
   }
 };
 
-struct ProbeDef { const char* name; u32 avoid_bit; bool needs512; const char* what; };
+struct ProbeDef { const char* name; u32 avoid_bit; bool needs512; const char* what; u8 arch; };
 static const ProbeDef kProbes[] = {
   { "cmpxchg-accumulator", AV_CMPXCHG, false, "cmpxchg [mem], src, acc: the accumulator written on a failed compare is lost (treated as read-only)" },
   { "same-reg-idiom-narrow", AV_SAMEREG_NARROW, false, "sub/xor r8,r8 on a 64-bit virtual register is treated as a write of the whole register" },
@@ -4380,6 +6442,12 @@ static const ProbeDef kProbes[] = {
   { "bt-register-base-spilled", AV_BT_REGIDX, false, "bt/bts/btr/btc reg,reg: the bit-base register is replaced by its spill slot, where a bit index >= width addresses memory outside the slot instead of wrapping" },
   { "gather-mask-written", AV_GATHER, true, "vpgatherdd zmm{k}: the mask register is cleared by the instruction but the allocator treats it as read-only" },
   { "narrow-stack-parameter-bound-to-wide-vreg", AV_NARROW_PARAM_WIDE_VREG, false, "a stack-passed narrow integer parameter that gets no register on entry is moved stack-to-stack with the wrong store width: bound to a 64-bit virtual register only 4 bytes of the home slot are written (no zero/sign extension), bound to an 8/16-bit register 4 bytes are written into the 1/2-byte slot" },
+  { "a64-lr-live-across-call", AV_A64_LR, false, "AArch64: a virtual register is kept in x30 (LR) across an invoke although BL/BLR overwrite x30 with the return address (the convention lists x30 as preserved, the call instruction itself clobbers it)", ARCH_A64 },
+  { "x87-return-value-not-popped", AV_X87_LEAK, false, "x86-32: the ST0 result of an invoke whose return operand is not assigned is never popped; after eight such calls the x87 register stack is full and every later double returned through ST0 arrives as the indefinite NaN", ARCH_X86 },
+  { "variadic-call-target-register", AV_VA_TARGET, false, "x86-64 variadic invoke whose target is a virtual register or a memory operand: the instructions emitted right before the call after register allocation (SysV: mov eax, <number of vector registers>; Win64: movq <gp>, <xmm> duplicates) overwrite the register that holds the target / the base of its memory operand" },
+  { "indirect-vector-argument-on-stack", AV_INDIRECT_VEC_STACK, false, "x86-64 invoke of a Win64 function whose vector argument (passed by reference) is the fifth or a later argument: finalize fails with InvalidAssignment (the pointer is stored with the vector's type id)" },
+  { "a64-lane-load-list-write-only", AV_A64_LANE_LIST, false, "AArch64 single-lane structure load into a list of two or more registers (ld2..ld4 { v.T }[i]): the registers keep their other lanes, but the RW information says write-only, so the old contents are not kept alive (lost across a call / not reloaded)", ARCH_A64 },
+  { "a64-h-element-register-range", AV_A64_HELEM, false, "AArch64 by-element instruction with a half-word element (mul v.8h, v.8h, v.h[i]): only v0..v15 can be encoded as the element register, but the allocator also assigns v16..v31 and finalize fails with InvalidPhysId", ARCH_A64 },
   { "unreachable-predecessor", 0x80000000u, false, "an unreachable block that flows into a reachable loop crashes the liveness analysis" },
 };
 static const int kNProbes = sizeof(kProbes) / sizeof(kProbes[0]);
@@ -4633,6 +6701,77 @@ static Program build_probe(const std::string& name) {
     b.finish(v1);
     return b.P;
   }
+  if (name == "variadic-call-target-register") {
+    ProbeBuilder b;
+    std::vector<int> v, d;
+    for (int i = 0; i < 14; i++) { v.push_back(b.val(KIND_G, 8)); b.load(v.back(), 8 * i); }
+    for (int i = 0; i < 10; i++) { d.push_back(b.val(KIND_D, 8)); b.load(d.back(), 128 + 8 * i); }
+    // variadic helpers called through a register (sub 1) and through memory (sub 2) with a growing number of values live across the call
+    for (int i = 0; i < 14; i++) {
+      static const int ids[] = { 41, 40, 42 };
+      for (int j = 0; j < 3; j++) {
+        int id = ids[j];
+        Op o; o.opc = O_CALL; o.imm = id; o.sub = (u8)(1 + ((i + j) & 1));
+        int gi = i, di = i;
+        for (int k = 0; k < g_sigs[id].n; k++) o.args.push_back(g_sigs[id].kind[k] == AK_F64 ? SR(d[di++ % 10]) : SR(v[gi++ % 14]));
+        o.d = v[(i + 5) % 14];
+        b.ops().push_back(o);
+      }
+      { Op o; o.opc = O_ALU; o.sub = A_ADD; o.w = 8; o.d = v[i]; o.s = SR(v[(i + 3) % 14]); b.ops().push_back(o); }
+    }
+    b.finish(v[0]);
+    return b.P;
+  }
+  if (name == "indirect-vector-argument-on-stack") {
+    ProbeBuilder b;
+    int x0 = b.val(KIND_V, 16), x1 = b.val(KIND_V, 16), x2 = b.val(KIND_V, 16), g = b.val(KIND_G, 8), d = b.val(KIND_D, 8);
+    b.load(x0, 0); b.load(x1, 16); b.load(x2, 32); b.load(g, 48); b.load(d, 56);
+    { Op o; o.opc = O_CALL; o.imm = 38; o.args = { SR(x0), SR(g), SR(x1), SR(d), SR(x2) }; o.d = g; b.ops().push_back(o); }
+    b.call0();
+    b.finish(g);
+    return b.P;
+  }
+  if (name == "a64-h-element-register-range") {
+    ProbeBuilder b(MODE_SSE, 0, ARCH_A64);
+    // 20 vectors live at once: some of them sit in v16..v31 when they are used as the element operand
+    std::vector<int> v;
+    for (int i = 0; i < 20; i++) { v.push_back(b.val(KIND_V, 16)); b.load(v.back(), 16 * i); }
+    for (int i = 0; i < 20; i++) { Op o; o.opc = O_AMULE; o.w = 16; o.w2 = 2; o.cc = (u8)(i & 7); o.d = v[i]; o.a = v[(i + 1) % 20]; o.b = v[(i + 7) % 20]; b.ops().push_back(o); }
+    b.finish(-1);
+    return b.P;
+  }
+  if (name == "a64-lane-load-list-write-only") {
+    ProbeBuilder b(MODE_SSE, 0, ARCH_A64);
+    int x0 = b.val(KIND_V, 16), x1 = b.val(KIND_V, 16), x2 = b.val(KIND_V, 16);
+    b.load(x0, 0); b.load(x1, 16); b.load(x2, 32);
+    { Op o; o.opc = O_CALL; o.imm = 4; for (int k = 0; k < g_sigs[4].n; k++) o.args.push_back(SI(k)); b.ops().push_back(o); }
+    { Op o; o.opc = O_ALD; o.sub = 3; o.w2 = 4; o.cc = 1; o.args = { SR(x0), SR(x1), SR(x2) }; o.s = SM(ProbeBuilder::M(64)); b.ops().push_back(o); }
+    b.finish(-1);
+    return b.P;
+  }
+  if (name == "a64-lr-live-across-call") {
+    ProbeBuilder b(MODE_SSE, 0, ARCH_A64);
+    // 32 values live across a call inside a counted loop: more than the callee-saved registers without x30
+    std::vector<int> v;
+    for (int i = 0; i < 32; i++) { v.push_back(b.val(KIND_G, 8)); b.load(v.back(), 8 * i); }
+    int cnt = b.val(KIND_G, 4, false);
+    { Op o; o.opc = O_MOV; o.w = 4; o.d = cnt; o.s = SI(3); b.P.blocks[0].ops.push_back(o); }
+    { Op o; o.opc = O_CALL; o.imm = 4; b.ops().push_back(o); }   // callee 4: void f(4 integers)
+    for (int k = 0; k < g_sigs[4].n; k++) b.ops().back().args.push_back(g_sigs[4].kind[k] == AK_F64 ? SI(0) : SR(v[k]));
+    for (int i = 0; i < 32; i++) { Op o; o.opc = O_ALU; o.sub = A_ADD; o.w = 8; o.d = v[i]; o.s = SI(i + 1); b.ops().push_back(o); }
+    b.P.blocks[1].term.kind = T_DEC; b.P.blocks[1].term.a = cnt; b.P.blocks[1].term.w = 4; b.P.blocks[1].term.target = 1;
+    b.finish(v[0]);
+    return b.P;
+  }
+  if (name == "x87-return-value-not-popped") {
+    ProbeBuilder b(MODE_SSE, 0, ARCH_X86);
+    int d = b.val(KIND_D, 8), g = b.val(KIND_G, 4);
+    b.load(d, 0); b.load(g, 8);
+    for (int i = 0; i < 9; i++) b.call0();                                  // callee 0 returns a double that nobody reads
+    { Op o; o.opc = O_CALL; o.imm = 0; o.d = d; b.ops().push_back(o); }     // the tenth result is used
+    b.finish(g);
+    return b.P;
+  }
   // unreachable-predecessor
   ProbeBuilder b;
   int a = b.val(KIND_G, 4), c = b.val(KIND_G, 4);
@@ -4680,6 +6819,7 @@ static bool run_probe_mode(const Args& args, Counters& ctr, std::vector<Violatio
       continue;
     }
     Program P = build_probe(pd.name);
+    if (P.arch == ARCH_X86) init_exec32();
     if (g_trace) fprintf(stderr, "%s\n", serialise(P).c_str());
     count_program(ctr, P);
     ctr.evaluations++;
@@ -4698,7 +6838,7 @@ static bool run_probe_mode(const Args& args, Counters& ctr, std::vector<Violatio
     if (failed.size() > 1) failed += ",";
     failed += "{\"name\":" + jstr(pd.name) + ",\"avoid\":" + std::to_string(pd.avoid_bit) + "}";
     std::string w = tr.ok ? what : ("the Compiler crashed (signal " + std::to_string(tr.sig) + ", exit code " + std::to_string(tr.exitcode) + ", see sanitizer report)");
-    add_violation(viols, std::string("x64:probe:") + pd.name, std::string(pd.what) + " -- observed: " + w, serialise(P), (u64)i);
+    add_violation(viols, std::string(P.arch == ARCH_A64 ? "a64:probe:" : P.arch == ARCH_X86 ? "x86-32:probe:" : "x64:probe:") + pd.name, std::string(pd.what) + " -- observed: " + w, serialise(P), (u64)i);
   }
   extra_json = ",\"probe_failed\":" + failed + "]";
   return true;
@@ -4716,7 +6856,7 @@ int main(int argc, char** argv) {
   u64 count = args.u64("count", 10);
   int ninputs = (int)args.u64("inputs", 16);
   int shrink_budget = (int)args.u64("shrink", 250);
-  bool annotate = args.u64("annotate", 1) != 0;
+  int annotate_mode = (int)args.u64("annotate", 2);   // 2: odd program indices with kRAAnnotate, even ones without (the default user configuration)
   bool dump = args.has("dump");
   g_trace = args.has("trace");
   g_trace_val = (int)args.u64("trace-val", (u64)-1);
@@ -4727,12 +6867,15 @@ int main(int argc, char** argv) {
 
   init_callee_sigs();
   CalleeInit<NCALLEE - 1>::run();
+  init_callee_ptrs_ext();
   const CpuInfo& cpu = CpuInfo::host();
   bool host512 = cpu.features().x86().has_avx512_f() && cpu.features().x86().has_avx512_bw() && cpu.features().x86().has_avx512_dq() &&
                  cpu.features().x86().has_avx512_vl();
   bool host_avx2 = cpu.features().x86().has_avx2();
   g_trash_avx512 = host512;
   g_trash_avx = host_avx2;
+  g_have_bmi2 = cpu.features().x86().has_bmi2(); g_have_sse41 = cpu.features().x86().has_sse4_1();
+  g_have_cx16 = cpu.features().x86().has_cmpxchg16b(); g_have_lahf = cpu.features().x86().has_lahfsahf();
 
   Counters ctr;
   std::vector<ViolationOut> viols;
@@ -4744,7 +6887,9 @@ int main(int argc, char** argv) {
     g_rt = &rt;
     init_exec_env();
     u64 nshapes = shape_count();
-    struct Pending { Program P; std::vector<RunInput> inputs; std::vector<RunResult> ref; Compiled comp; Verdict v; u64 idx; u64 ph; };
+    struct Pending { Program P; std::vector<RunInput> inputs; std::vector<RunResult> ref; Compiled comp; Verdict v; u64 idx; u64 ph; int group_n = 1; u64 group_first = 0; };
+    std::vector<Pending*> group;
+    int multi_mode = (int)args.u64("multi", 1);   // 1: program indices 3,4,5 (mod 6) become the three functions of ONE Compiler
     std::vector<Pending*> pending;
     std::map<std::string, int> shrunk_per_key;
     int total_shrinks = 0;
@@ -4762,7 +6907,7 @@ int main(int argc, char** argv) {
       if (!items.empty()) exec_native_batch(items);
       for (size_t i = 0; i < items.size(); i++) {
         owners[i]->v = compare_results(owners[i]->P, owners[i]->inputs, owners[i]->ref, items[i]);
-        g_rt->release(owners[i]->comp.fn);
+        if (owners[i]->comp.base) g_rt->release(owners[i]->comp.base);
       }
       for (Pending* pd : pending) {
         const Program& P = pd->P;
@@ -4777,33 +6922,73 @@ int main(int argc, char** argv) {
           if (comp.st.nontrivial()) { ctr.nontrivial++; ctr.distinct_nontrivial.insert(pd->ph); }
         }
         else ctr.compile_errors++;
+        if (v.kind == 4 && comp.err == Error::kInvalidDisplacement && has_short_range_branch(P)) { ctr.ops_by_kind["short-branch-out-of-range-inconclusive"]++; delete pd; continue; }
         if (v.kind != 0) {
           // shrink and report
           int attempts = 0;
           Program S = P;
           RunInput fin = pd->inputs[v.input >= 0 ? v.input : 0];
-          static const char* kinds0[] = { "ok", "miscompile", "crash", "hang", "finalize-error", "harness" };
-          std::string k0 = std::string(kinds0[v.kind]) + ":" + P.profile;
+          std::string k0 = std::string(kVerdictKinds[v.kind]) + ":" + P.profile;
           // shrinking is expensive: only the first two failures of a kind/profile per process are shrunk
           if (shrink_budget > 0 && v.kind != 3 /* every attempt on a hang costs the CPU-time limit */ && shrunk_per_key[k0]++ < 2 && total_shrinks++ < 3) S = shrink_program(P, fin, v.kind, shrink_budget, attempts);
           Compiled c2;
           std::vector<RunInput> one(1, fin);
           Verdict v2 = check_program(S, one, c2, nullptr, false);
           ViolationOut vo;
-          static const char* kinds[] = { "ok", "miscompile", "crash", "hang", "finalize-error", "harness" };
+          const char* const* kinds = kVerdictKinds;
           std::string cls = P.profile;
           if (mode == "shapes") cls = "shape";
+          // a member of a multi-function Compiler that is fine when compiled alone fails because of what an earlier function left behind
+          bool group_only = pd->group_n > 1 && v2.kind == 0 && attempts == 0;
+          if (pd->group_n > 1) { Compiled c3; std::vector<RunInput> all1(1, fin); Verdict v3 = check_program(P, all1, c3, nullptr, false); group_only = v3.kind == 0; }
+          if (group_only) cls = "multi-function:" + cls;
           vo.key = std::string("x64:") + kinds[v.kind] + ":" + cls;
           if (v.kind == 4) vo.key = std::string("x64:finalize-error:") + DebugUtils::error_as_string(comp.err);
           vo.what = v.what + " | profile=" + P.profile + " index=" + std::to_string(idx) + " | after shrinking (" + std::to_string(attempts) + " attempts): " +
                     (v2.kind ? v2.what : std::string("(shrunk program no longer fails; witness is the original)"));
           vo.witness = serialise(v2.kind ? S : P) + "input: " + input_to_string(fin);
           vo.index = idx; vo.input = v.input;
+          if (group_only) { vo.index = pd->group_first; vo.count = pd->group_n; vo.what += " | only as function of a " + std::to_string(pd->group_n) + "-function Compiler (replay runs the whole group)"; }
           viols.push_back(vo);
         }
         delete pd;
       }
       pending.clear();
+    };
+    // several programs as consecutive functions of one Compiler (one finalize, virtual registers shared between the functions for every second group)
+    auto compile_group = [&]() {
+      if (group.empty()) return;
+      std::vector<const Program*> ps; std::vector<Compiled*> os;
+      for (Pending* g : group) { ps.push_back(&g->P); os.push_back(&g->comp); g->group_n = (int)group.size(); g->group_first = group[0]->idx; }
+      bool ann = annotate_mode == 2 ? ((group[0]->idx / 6) & 1) != 0 : annotate_mode != 0;
+      bool share = ((group[0]->idx / 12) & 1) != 0;
+      ctr.ops_by_kind["functions-compiled-in-a-multi-function-Compiler"] += group.size();
+      if (share) ctr.ops_by_kind["functions-sharing-virtual-registers-with-earlier-functions"] += group.size() - 1;
+      for (Pending* g : group) { (void)g; if (ann) ctr.ops_by_kind["compiled-with-kRAAnnotate"]++; else ctr.ops_by_kind["compiled-without-kRAAnnotate"]++; }
+      if (!compile_x86_multi(ps, os, ann, false, share)) {
+        // which member is it? compile them one by one; a member that compiles alone fails only as part of the group
+        ctr.ops_by_kind["multi-function-finalize-failed"]++;
+        Error ge = group[0]->comp.err; std::string gmsg = group[0]->comp.errmsg, gstage = group[0]->comp.stage;
+        bool blamed = false;
+        for (Pending* g : group) {
+          g->comp = Compiled();
+          if (!compile_x86(g->P, g->comp, ann, false)) {
+            g->v.kind = 4; blamed = true;
+            g->v.what = "Compiler " + g->comp.stage + " failed: " + std::string(DebugUtils::error_as_string(g->comp.err)) + " (" + g->comp.errmsg + ")";
+          }
+          g->group_n = 1;
+        }
+        if (!blamed) {
+          Pending* g = group[0];
+          if (g->comp.base) g_rt->release(g->comp.base);
+          g->comp = Compiled(); g->comp.err = ge; g->comp.errmsg = gmsg; g->comp.stage = gstage;
+          g->v.kind = 4; g->group_n = (int)group.size();
+          g->v.what = "Compiler " + gstage + " failed: " + std::string(DebugUtils::error_as_string(ge)) + " (" + gmsg + ") ONLY when " + std::to_string(group.size()) +
+                      " functions are built with one Compiler (each of them compiles alone)";
+        }
+      }
+      for (Pending* g : group) pending.push_back(g);
+      group.clear();
     };
     for (u64 idx = first; idx < first + count; idx++) {
       Rng pr = Rng(seed * 0x9E3779B97F4A7C15ull + 0xC05).fork(idx + (mode == "shapes" ? 0x5000000 : 0));
@@ -4850,54 +7035,31 @@ int main(int argc, char** argv) {
         delete pd; continue;
       }
       ctr.evaluations++;
-      if (!compile_x86(pd->P, pd->comp, annotate)) {
-        pd->v.kind = 4;
-        pd->v.what = "Compiler " + pd->comp.stage + " failed: " + std::string(DebugUtils::error_as_string(pd->comp.err)) + " (" + pd->comp.errmsg + ")";
+      bool grouped = multi_mode && mode == "x64" && (idx % 6) >= 3 && count >= 3;
+      if (grouped) {
+        group.push_back(pd);
+        if ((idx % 6) == 5 || idx + 1 == first + count) compile_group();
       }
-      pending.push_back(pd);
+      else {
+        bool ann = annotate_mode == 2 ? (idx & 1) != 0 : annotate_mode != 0;
+        bool radebug = annotate_mode == 2 && (idx % 16) == 5;
+        if (ann) ctr.ops_by_kind["compiled-with-kRAAnnotate"]++; else ctr.ops_by_kind["compiled-without-kRAAnnotate"]++;
+        if (!compile_x86(pd->P, pd->comp, ann, radebug)) {
+          pd->v.kind = 4;
+          pd->v.what = "Compiler " + pd->comp.stage + " failed: " + std::string(DebugUtils::error_as_string(pd->comp.err)) + " (" + pd->comp.errmsg + ")";
+        }
+        if (radebug && pd->v.kind != 4) { ctr.ops_by_kind["compiled-with-kRADebugAll-and-logger"]++; if (!pd->comp.debug_log_bytes) harness_errors.push_back("kRADebugAll produced no log output"); }
+        pending.push_back(pd);
+      }
       if ((int)pending.size() >= batch) flush();
       // a tree this broken does not need more witnesses from this shard
       if (viols.size() >= 12) { ctr.ops_by_kind["shard-stopped-after-12-violations"]++; break; }
     }
+    compile_group();
     flush();
   }
-  else if (mode == "x86") {
-    std::string progs = "[";
-    bool firstp = true;
-    for (u64 idx = first; idx < first + count; idx++) {
-      Rng pr = Rng(seed * 0x9E3779B97F4A7C15ull + 0x86).fork(idx + 0x8600000);
-      Profile pfl = kProfilesX86[idx % kNProfilesX86];
-      if (pfl.mode != MODE_AVX512) { pfl.nk_lo = pfl.nk_hi = 0; pfl.w_mask = 0; }
-      Program P = gen_program(pr, pfl, -1);
-      if (dump) printf("%s\n", serialise(P).c_str());
-      count_program(ctr, P);
-      u64 ph = program_hash(P);
-      ctr.distinct_all.insert(ph);
-      ctr.shapes_seen.insert(cfg_shape_hash(P));
-      ctr.max_live = std::max(ctr.max_live, measure_max_live(P));
-      Compiled comp;
-      bool ok = compile_x86(P, comp, annotate);
-      ctr.evaluations++;
-      if (!ok) {
-        ctr.compile_errors++;
-        ViolationOut vo;
-        vo.key = std::string("x86-32:finalize-error:") + DebugUtils::error_as_string(comp.err);
-        vo.what = "x86-32 Compiler " + comp.stage + " failed: " + DebugUtils::error_as_string(comp.err) + " (" + comp.errmsg + ") profile=" + P.profile +
-                  " index=" + std::to_string(idx);
-        vo.witness = serialise(P); vo.index = idx; vo.input = -1;
-        viols.push_back(vo);
-        continue;
-      }
-      ctr.loads += comp.st.loads; ctr.saves += comp.st.saves; ctr.moves += comp.st.moves; ctr.swaps += comp.st.swaps;
-      ctr.rm_subst += comp.st.rm_subst; ctr.user_insts += comp.st.user_insts;
-      if (comp.st.nontrivial()) { ctr.nontrivial++; ctr.distinct_nontrivial.insert(ph); }
-      if (!firstp) progs += ",";
-      firstp = false;
-      progs += "{\"index\":" + std::to_string(idx) + ",\"profile\":" + jstr(P.profile) + ",\"code_end\":" + std::to_string(comp.code_end) + ",\"data\":" + comp.data_json +
-               ",\"user_insts\":" + std::to_string(comp.st.user_insts) + ",\"hex\":\"" + hexstr(comp.code.data(), comp.code.size()) + "\"}";
-    }
-    progs += "]";
-    extra_json = ",\"compiled\":" + progs;
+  else if (mode == "x86" || mode == "a64") {
+    run_exec_mode(mode, args, ctr, viols, harness_errors, extra_json);
   }
   else if (mode == "probe") {
     run_probe_mode(args, ctr, viols, harness_errors, extra_json, host512);
@@ -4913,7 +7075,7 @@ int main(int argc, char** argv) {
   for (size_t i = 0; i < viols.size(); i++) {
     if (i) out += ",";
     out += "{\"key\":" + jstr(viols[i].key) + ",\"what\":" + jstr(viols[i].what) + ",\"witness\":" + jstr(viols[i].witness) +
-           ",\"index\":" + std::to_string(viols[i].index) + ",\"input\":" + std::to_string(viols[i].input) + "}";
+           ",\"index\":" + std::to_string(viols[i].index) + ",\"input\":" + std::to_string(viols[i].input) + ",\"count\":" + std::to_string(viols[i].count) + "}";
   }
   out += "],\"harness_errors\":[";
   for (size_t i = 0; i < harness_errors.size(); i++) { if (i) out += ","; out += jstr(harness_errors[i]); }
@@ -4934,6 +7096,19 @@ int main(int argc, char** argv) {
   out += ",\"distinct_nontrivial\":" + set_json(ctr.distinct_nontrivial);
   out += ",\"distinct_all\":" + std::to_string(ctr.distinct_all.size());
   out += ",\"cfg_shapes\":" + set_json(ctr.shapes_seen);
+  {
+    std::string rw = "{";
+    bool f = true;
+    for (auto& kv : g_id_rewrites) {
+      String a, b;
+      InstAPI::inst_id_to_string(Arch::kX64, kv.first.first, InstStringifyOptions::kNone, a);
+      InstAPI::inst_id_to_string(Arch::kX64, kv.first.second, InstStringifyOptions::kNone, b);
+      if (!f) rw += ",";
+      f = false;
+      rw += jstr(std::string(a.data()) + "->" + b.data()) + ":" + std::to_string(kv.second);
+    }
+    out += ",\"inst_id_rewrites\":" + rw + "}";
+  }
   out += extra_json;
   out += "}";
   printf("%s\n", out.c_str());
